@@ -16,1677 +16,1842 @@ Definition terms (ts : list tok) (t : pt) : string :=
   digest (show_toks (Some ts)) ++ " " ++ digest (show_pt (Some t)) ++ " " ++ digest (show_pt (parse ts)).
 Definition terms_full (ts : list tok) (t : pt) : string :=
   show_toks (Some ts) ++ nl ++ show_pt (Some t) ++ nl ++ show_pt (parse ts).
-Eval vm_compute in ("<<<M26>>>" ++ check (runes_of_ascii "
-root packet  calculatedFrom { repeat Header
-, } MetaData Header{ zchar[// packet A { u8 x, }
-10
-]	As
-    ,// trailing space 
-string
-chars, crc Logon `u8 x,`  , Z9_ Logon ,	}packet trueish
-    {}
-    MetaData
-A { }  options { options1
-=
-' '
-    //
-    ; //	t
-}
-")).
-Eval vm_compute in ("<<<M58>>>" ++ check (runes_of_ascii "// `tick` ""quote"" 'q'
-
-/// triple
-")).
-Eval vm_compute in ("<<<M90>>>" ++ check (runes_of_ascii "
-// c
-")).
-Eval vm_compute in ("<<<T90>>>" ++ terms [mkTok 44 "// c" 2 0 true; mkTok 0 "<EOF>" 3 0 false] (mkPacket (mkPtok 0 "<EOF>" 3 0 1) None [])).
-Eval vm_compute in ("<<<M122>>>" ++ check (runes_of_ascii "root packet // packet A { u8 x, }
-f32a
-{ @lengthOf( int )char[]
-    //x
-    o, a1 @lengthOf( packetx
-) // " ++ [27880; 37322]%N ++ runes_of_ascii "
-`u8 x,`
-/// triple
-/// triple
-,
-// " ++ [128512]%N ++ runes_of_ascii " emoji
-// @lengthOf(
-@calculatedFrom( ""1""
-)u8
-Header ,
-    }")).
-Eval vm_compute in ("<<<M154>>>" ++ check (runes_of_ascii "packet
-    zchar { @lengthOf(Header )f32 string_ `a\`
-    , } // packet A { u8 x, }")).
-Eval vm_compute in ("<<<M186>>>" ++ check (runes_of_ascii "  
-")).
-Eval vm_compute in ("<<<M218>>>" ++ check (runes_of_ascii "packet _x
-    {repeat
-u8x {
-    repeat pack
-    body,
-    } ,
-@calculatedFrom( ""x y"" ) A { match msg_type as f32a {4294967296
-    : crc 1
-// c
-/// triple
-: uint8x , // a // b
-[ 255, 0
-    ] : // " ++ [27880; 37322]%N ++ runes_of_ascii "
-pack , [7 ,
-// `tick` ""quote"" 'q'
-// packet A { u8 x, }
-00 ] :	roots , [ 255
-    ]
-:	rootA
-    , } ,
-    char packetx
-@calculatedFrom( ""{,}""
-    // trailing space 
-    )
-, } ,
-    match
-    BodyLength //
-as u8x {""a	b"" : u,
-    00 // @lengthOf(
-: msg_type,// " ++ [27880; 37322]%N ++ runes_of_ascii "
-}, match metadata as As{[ 0123456789, 3 ,// a // b
-0
-, ""it's""
-, ""it's"" , ""1"" ] :
-int
-,
-    ""packet"": leftPad}, char[] Pad `say ""hi""` , }
-
-")).
-Eval vm_compute in ("<<<M250>>>" ++ check (runes_of_ascii "
-
-//x
-")).
-Eval vm_compute in ("<<<M282>>>" ++ check (runes_of_ascii "MetaData _x{ } packet calculatedFrom {
-}MetaData
-_x	{i32
-    body
-    , uint8 x , }")).
-Eval vm_compute in ("<<<M314>>>" ++ check (runes_of_ascii "
-MetaData trueish // c
-{  string	trueish `it's`	,
-}")).
-Eval vm_compute in ("<<<T314>>>" ++ terms [mkTok 37 "MetaData" 2 0 false; mkTok 42 "trueish" 2 9 false; mkTok 44 "// c" 2 17 true; mkTok 2 "{" 3 0 false; mkTok 15 "string" 3 3 false; mkTok 42 "trueish" 3 10 false; mkTok 43 "`it's`" 3 18 false; mkTok 40 "," 3 25 false; mkTok 3 "}" 4 0 false; mkTok 0 "<EOF>" 4 1 false] (mkPacket (mkPtok 37 "MetaData" 2 0 0) (Some (mkPtok 3 "}" 4 0 8)) [(DMeta (mkMetaDef (mkSpan (mkPtok 37 "MetaData" 2 0 0) (mkPtok 3 "}" 4 0 8)) (mkPtok 37 "MetaData" 2 0 0) (mkPtok 42 "trueish" 2 9 1) (mkPtok 2 "{" 3 0 3) [(MIDecl (mkMetaDecl (mkSpan (mkPtok 15 "string" 3 3 4) (mkPtok 40 "," 3 25 7)) (TyDynamic (mkSpan (mkPtok 15 "string" 3 3 4) (mkPtok 15 "string" 3 3 4)) (mkDynamicString (mkSpan (mkPtok 15 "string" 3 3 4) (mkPtok 15 "string" 3 3 4)) (mkPtok 15 "string" 3 3 4))) (mkPtok 42 "trueish" 3 10 5) (Some (mkPtok 43 "`it's`" 3 18 6)) (mkPtok 40 "," 3 25 7)))] (mkPtok 3 "}" 4 0 8)))])).
-Eval vm_compute in ("<<<M346>>>" ++ check (runes_of_ascii "options {
-calculatedFrom =  '0'
-    // c
-    float= char[] ; Pad= 0	;//	t
-_x
-    // packet A { u8 x, }
-    =007
-    ;
-}packet u
-    { @lengthOf( u) repeat
-string /// triple
-o
-,} root packet lengthOf { }
-
-")).
-Eval vm_compute in ("<<<M378>>>" ++ check (runes_of_ascii "  root
-    packet o
-{ a1 a1	, char[
-3 ] i8i8 `
-` , @calculatedFrom( ""a\""b"" )// packet A { u8 x, }
-repeat /// triple
-Pad
-    , }
-// `tick` ""quote"" 'q'
-// `tick` ""quote"" 'q'
-packet
-    tag{ i8i8 @calculatedFrom( ""x y"" )
-`it's`
-, @lengthOf(x_y_z
-) @calculatedFrom(
-//
-//	t
-""a\""b""
-    ) u {
-match	a1 as
-    Logon { ""\n"" : Pad
-,3
-:	body , """"
-:// `tick` ""quote"" 'q'
-Logon ,
-""\n"" : T
-, ""`tick`""
-:
-    tag ,
-[ """ ++ [233]%N ++ runes_of_ascii "t" ++ [233]%N ++ runes_of_ascii """/// triple
-,
-7,
-""a\""b""	, 0123456789
-,""abc"" , """ ++ [28040; 24687]%N ++ runes_of_ascii """ ,0 ] : Z9_
-    },
-    char[ 00  ]//
-string_@lengthOf( asx ), char[
-    1 ]falsey , } ,match	crc
-as
-    lengthOf {
-    4294967296 : a1
-}, }
-")).
-Eval vm_compute in ("<<<M410>>>" ++ check (runes_of_ascii "
-//
-")).
-Eval vm_compute in ("<<<M442>>>" ++ check (runes_of_ascii "  options {  }
-root  packet i8i8 { } packet
-asx {
-    f64
-pack,@calculatedFrom( ""a\\""	)zchar[	255	]rootA `it's`
-    // c
-    , // " ++ [27880; 37322]%N ++ runes_of_ascii "
-} // " ++ [27880; 37322]%N)).
-Eval vm_compute in ("<<<M474>>>" ++ check (runes_of_ascii "
-
-")).
-Eval vm_compute in ("<<<M506>>>" ++ check (runes_of_ascii "options {zchar= ' '
-    ;
-    MetaDataX
-    =
-    zchar[ 255
-] // " ++ [128512]%N ++ runes_of_ascii " emoji
-; } options
-{ options1 = ""1""
-//x
-// " ++ [128512]%N ++ runes_of_ascii " emoji
-; } MetaData u128
-/// triple
-// `tick` ""quote"" 'q'
-{ char[]
-    leftPad , } options //	t
-{ a1 = 255; }  packet
-    As { repeat char[007 ]
-    A , f32a@lengthOf( calculatedFrom
-    ) ,
-    }
-
-")).
-Eval vm_compute in ("<<<M538>>>" ++ check (runes_of_ascii "options // a // b
+Eval vm_compute in ("<<<M26>>>" ++ check (runes_of_ascii "packet len
 {
-    crc = '0'  ;_x=""a\""b""
-trueish
-    = char[1  ] charz// c
-= 00 ;As =// c
-""a\""b"" }
-")).
-Eval vm_compute in ("<<<T538>>>" ++ terms [mkTok 1 "options" 1 0 false; mkTok 44 "// a // b" 1 8 true; mkTok 2 "{" 2 0 false; mkTok 42 "crc" 3 4 false; mkTok 4 "=" 3 8 false; mkTok 33 "'0'" 3 10 false; mkTok 41 ";" 3 15 false; mkTok 42 "_x" 3 16 false; mkTok 4 "=" 3 18 false; mkTok 31 """a\""b""" 3 19 false; mkTok 42 "trueish" 4 0 false; mkTok 4 "=" 5 4 false; mkTok 12 "char[" 5 6 false; mkTok 30 "1" 5 11 false; mkTok 13 "]" 5 14 false; mkTok 42 "charz" 5 16 false; mkTok 44 "// c" 5 21 true; mkTok 4 "=" 6 0 false; mkTok 30 "00" 6 2 false; mkTok 41 ";" 6 5 false; mkTok 42 "As" 6 6 false; mkTok 4 "=" 6 9 false; mkTok 44 "// c" 6 10 true; mkTok 31 """a\""b""" 7 0 false; mkTok 3 "}" 7 7 false; mkTok 0 "<EOF>" 8 0 false] (mkPacket (mkPtok 1 "options" 1 0 0) (Some (mkPtok 3 "}" 7 7 24)) [(DOption (mkOptionDef (mkSpan (mkPtok 1 "options" 1 0 0) (mkPtok 3 "}" 7 7 24)) (mkPtok 1 "options" 1 0 0) (mkPtok 2 "{" 2 0 2) [(mkOptionDecl (mkSpan (mkPtok 42 "crc" 3 4 3) (mkPtok 41 ";" 3 15 6)) (mkPtok 42 "crc" 3 4 3) (mkPtok 4 "=" 3 8 4) (VPaddingChar (mkSpan (mkPtok 33 "'0'" 3 10 5) (mkPtok 33 "'0'" 3 10 5)) (mkPtok 33 "'0'" 3 10 5)) (Some (mkPtok 41 ";" 3 15 6))); (mkOptionDecl (mkSpan (mkPtok 42 "_x" 3 16 7) (mkPtok 31 """a\""b""" 3 19 9)) (mkPtok 42 "_x" 3 16 7) (mkPtok 4 "=" 3 18 8) (VString (mkSpan (mkPtok 31 """a\""b""" 3 19 9) (mkPtok 31 """a\""b""" 3 19 9)) (mkPtok 31 """a\""b""" 3 19 9)) None); (mkOptionDecl (mkSpan (mkPtok 42 "trueish" 4 0 10) (mkPtok 13 "]" 5 14 14)) (mkPtok 42 "trueish" 4 0 10) (mkPtok 4 "=" 5 4 11) (VType (mkSpan (mkPtok 12 "char[" 5 6 12) (mkPtok 13 "]" 5 14 14)) (TyFixed (mkSpan (mkPtok 12 "char[" 5 6 12) (mkPtok 13 "]" 5 14 14)) (mkFixedString (mkSpan (mkPtok 12 "char[" 5 6 12) (mkPtok 13 "]" 5 14 14)) (mkPtok 12 "char[" 5 6 12) (mkPtok 30 "1" 5 11 13) (mkPtok 13 "]" 5 14 14)))) None); (mkOptionDecl (mkSpan (mkPtok 42 "charz" 5 16 15) (mkPtok 41 ";" 6 5 19)) (mkPtok 42 "charz" 5 16 15) (mkPtok 4 "=" 6 0 17) (VDigits (mkSpan (mkPtok 30 "00" 6 2 18) (mkPtok 30 "00" 6 2 18)) (mkPtok 30 "00" 6 2 18)) (Some (mkPtok 41 ";" 6 5 19))); (mkOptionDecl (mkSpan (mkPtok 42 "As" 6 6 20) (mkPtok 31 """a\""b""" 7 0 23)) (mkPtok 42 "As" 6 6 20) (mkPtok 4 "=" 6 9 21) (VString (mkSpan (mkPtok 31 """a\""b""" 7 0 23) (mkPtok 31 """a\""b""" 7 0 23)) (mkPtok 31 """a\""b""" 7 0 23)) None)] (mkPtok 3 "}" 7 7 24)))])).
-Eval vm_compute in ("<<<M570>>>" ++ check (runes_of_ascii "packet chars
-    //
-    { i8 body @lengthOf( crc), repeat char[] zchar , body
-`
-` , }")).
-Eval vm_compute in ("<<<M602>>>" ++ check (runes_of_ascii "MetaData options1  { lengthOf As , char[ 255
-]crc
-    , char[] leftPad , As
-//	t
-//
-leftPad , uint16 u128 , f32 //
-x `{ , }` ,
-}
-//	t
-")).
-Eval vm_compute in ("<<<M634>>>" ++ check (runes_of_ascii "// " ++ [128512]%N ++ runes_of_ascii " emoji
-packet int
-    { }options { string_=true
-Z9_ = //
-'\x00'
-    ; uint8x
-    = false}
-packet body
-{ int16
-Foo ,
-repeat	string
-roots `
-`
-// " ++ [128512]%N ++ runes_of_ascii " emoji
-//
-,//	t
-stringy a1
-    `tab	here` ,int8
-    repeatCount , @lengthOf(chars )
-    match
-    _x as repeatCount{""CRC32"" :
-f32a ,
-    [
-    // packet A { u8 x, }
-    0123456789 ,""it's"" ]:
-    Logon
-    , [""// no comment"" ,10
-, ""a\""b"" ]	:trueish
-, [ 0 ]: trueish , 0
-: BodyLength, },
-    } /// triple")).
-Eval vm_compute in ("<<<M666>>>" ++ check (runes_of_ascii "packet Pad
-    { @lengthOf(MetaDataX )
-roots a1	, }packet
-tag { uint8 packetx ,@calculatedFrom( """") @rightPad( )string Z9_ @calculatedFrom(""x y""
-/// triple
-// " ++ [27880; 37322]%N ++ runes_of_ascii "
-)`two words`
-,f32
-falsey
-    // packet A { u8 x, }
-    , }
-    //
-    root packet
-Pad { len Z9_
-, // " ++ [27880; 37322]%N ++ runes_of_ascii "
-@lengthOf( o
-    ) u32
-    x
-, A	`// not a comment` , // a // b
-}
-")).
-Eval vm_compute in ("<<<M698>>>" ++ check (runes_of_ascii "
-packet
-    f32a { // c
-string len  @lengthOf( As ) // " ++ [128512]%N ++ runes_of_ascii " emoji
-`line1
-line2` , zchar[ 1//x
-] zchar `{ , }` , tag
-    //
-    @lengthOf( rootA) , // c
-string x_y_z `" ++ [28040; 24687; 31867; 22411]%N ++ runes_of_ascii "`, }packet crc {
-BodyLength
-@lengthOf(
-msg_type
-    ) , } MetaData packetx  {	} root packet lengthOf {repeat uint32	zchar , // " ++ [27880; 37322]%N ++ runes_of_ascii "
-T {
-msg_type // a // b
-{ f32a  { charz
-    stringy ``
-    , uint16
-u128
-, i16
-    BodyLength
-    @lengthOf(
-    x ) ,int8 //
-metadata `tab	here`, }
-// c
-// trailing space 
-,
-repeat Packet
-`doc` , // packet A { u8 x, }
-int8 A @calculatedFrom(
-""CRC32"" )
-    ,
-    }, Pad asx ,
-char[
-0 ]
-    repeatCount ,
-} ,
-    u16
-Z9_ `" ++ [233]%N ++ runes_of_ascii "` , @rightPad
-(
-    // @lengthOf(
-    '\x00' )
-    repeat Header
-//	t
-// " ++ [27880; 37322]%N ++ runes_of_ascii "
-`line1
-line2` ,@calculatedFrom(
-    ""\" ++ [233]%N ++ runes_of_ascii """ )
-char[]rootA @calculatedFrom( ""// no comment"" )`doc`
-, // a // b
-calculatedFrom `a\`,
-} packet As	{  }")).
-Eval vm_compute in ("<<<M730>>>" ++ check (runes_of_ascii "packet u128{ zchar[ 00 ]
-// a // b
-// packet A { u8 x, }
-f32a
-// " ++ [128512]%N ++ runes_of_ascii " emoji
-//
-, }
-")).
-Eval vm_compute in ("<<<M762>>>" ++ check (runes_of_ascii "// @lengthOf(
-MetaData
-    Foo{} MetaData// trailing space 
-packetx
-{ f32a A
-`two words` , u8
-u8x `" ++ [28040; 24687; 31867; 22411]%N ++ runes_of_ascii "`,	charz
-    lengthOf
-    /// triple
-    ,
-int x_y_z , // " ++ [128512]%N ++ runes_of_ascii " emoji
-char[ 00	] packetx
-    ,} // a // b")).
-Eval vm_compute in ("<<<T762>>>" ++ terms [mkTok 44 "// @lengthOf(" 1 0 true; mkTok 37 "MetaData" 2 0 false; mkTok 42 "Foo" 3 4 false; mkTok 2 "{" 3 7 false; mkTok 3 "}" 3 8 false; mkTok 37 "MetaData" 3 10 false; mkTok 44 "// trailing space " 3 18 true; mkTok 42 "packetx" 4 0 false; mkTok 2 "{" 5 0 false; mkTok 42 "f32a" 5 2 false; mkTok 42 "A" 5 7 false; mkTok 43 "`two words`" 6 0 false; mkTok 40 "," 6 12 false; mkTok 20 "u8" 6 14 false; mkTok 42 "u8x" 7 0 false; mkTok 43 (string_of_bytes [96; 230; 182; 136; 230; 129; 175; 231; 177; 187; 229; 158; 139; 96]%N) 7 4 false; mkTok 40 "," 7 10 false; mkTok 42 "charz" 7 12 false; mkTok 42 "lengthOf" 8 4 false; mkTok 44 "/// triple" 9 4 true; mkTok 40 "," 10 4 false; mkTok 42 "int" 11 0 false; mkTok 42 "x_y_z" 11 4 false; mkTok 40 "," 11 10 false; mkTok 44 (string_of_bytes [47; 47; 32; 240; 159; 152; 128; 32; 101; 109; 111; 106; 105]%N) 11 12 true; mkTok 12 "char[" 12 0 false; mkTok 30 "00" 12 6 false; mkTok 13 "]" 12 9 false; mkTok 42 "packetx" 12 11 false; mkTok 40 "," 13 4 false; mkTok 3 "}" 13 5 false; mkTok 44 "// a // b" 13 7 true; mkTok 0 "<EOF>" 13 16 false] (mkPacket (mkPtok 37 "MetaData" 2 0 1) (Some (mkPtok 3 "}" 13 5 30)) [(DMeta (mkMetaDef (mkSpan (mkPtok 37 "MetaData" 2 0 1) (mkPtok 3 "}" 3 8 4)) (mkPtok 37 "MetaData" 2 0 1) (mkPtok 42 "Foo" 3 4 2) (mkPtok 2 "{" 3 7 3) [] (mkPtok 3 "}" 3 8 4))); (DMeta (mkMetaDef (mkSpan (mkPtok 37 "MetaData" 3 10 5) (mkPtok 3 "}" 13 5 30)) (mkPtok 37 "MetaData" 3 10 5) (mkPtok 42 "packetx" 4 0 7) (mkPtok 2 "{" 5 0 8) [(MIRef (mkRefMetaDecl (mkSpan (mkPtok 42 "f32a" 5 2 9) (mkPtok 40 "," 6 12 12)) (mkPtok 42 "f32a" 5 2 9) (mkPtok 42 "A" 5 7 10) (Some (mkPtok 43 "`two words`" 6 0 11)) (mkPtok 40 "," 6 12 12))); (MIDecl (mkMetaDecl (mkSpan (mkPtok 20 "u8" 6 14 13) (mkPtok 40 "," 7 10 16)) (TyBasic (mkSpan (mkPtok 20 "u8" 6 14 13) (mkPtok 20 "u8" 6 14 13)) (mkBasicType (mkSpan (mkPtok 20 "u8" 6 14 13) (mkPtok 20 "u8" 6 14 13)) (mkPtok 20 "u8" 6 14 13))) (mkPtok 42 "u8x" 7 0 14) (Some (mkPtok 43 (string_of_bytes [96; 230; 182; 136; 230; 129; 175; 231; 177; 187; 229; 158; 139; 96]%N) 7 4 15)) (mkPtok 40 "," 7 10 16))); (MIRef (mkRefMetaDecl (mkSpan (mkPtok 42 "charz" 7 12 17) (mkPtok 40 "," 10 4 20)) (mkPtok 42 "charz" 7 12 17) (mkPtok 42 "lengthOf" 8 4 18) None (mkPtok 40 "," 10 4 20))); (MIRef (mkRefMetaDecl (mkSpan (mkPtok 42 "int" 11 0 21) (mkPtok 40 "," 11 10 23)) (mkPtok 42 "int" 11 0 21) (mkPtok 42 "x_y_z" 11 4 22) None (mkPtok 40 "," 11 10 23))); (MIDecl (mkMetaDecl (mkSpan (mkPtok 12 "char[" 12 0 25) (mkPtok 40 "," 13 4 29)) (TyFixed (mkSpan (mkPtok 12 "char[" 12 0 25) (mkPtok 13 "]" 12 9 27)) (mkFixedString (mkSpan (mkPtok 12 "char[" 12 0 25) (mkPtok 13 "]" 12 9 27)) (mkPtok 12 "char[" 12 0 25) (mkPtok 30 "00" 12 6 26) (mkPtok 13 "]" 12 9 27))) (mkPtok 42 "packetx" 12 11 28) None (mkPtok 40 "," 13 4 29)))] (mkPtok 3 "}" 13 5 30)))])).
-Eval vm_compute in ("<<<M794>>>" ++ check (runes_of_ascii "// " ++ [128512]%N ++ runes_of_ascii " emoji
-options // c
-{
-Packet	= char[]a1	=
-    0 ;
-    BodyLength = char[]; } MetaData
-    BodyLength	{
-    T string_ `" ++ [28040; 24687; 31867; 22411]%N ++ runes_of_ascii "` , x_y_z
-    // trailing space 
-    stringy `say ""hi""`	,
-    char Packet`" ++ [28040; 24687; 31867; 22411]%N ++ runes_of_ascii "` , leftPad Packet
-    ,
-} packet packetx
-{
-    //x
-    match uint8x as T	{ [ /// triple
-""`tick`"" ,
-    0123456789 ,
-""// no comment"" ,
-    255 , ""abc"", 10 // c
-]
-: i64_ , [ ""{,}"" , ""a\""b"" ] : int
-, [0123456789 ,
-    //x
-    65535
-    , 255 // `tick` ""quote"" 'q'
-,255
-    ] // @lengthOf(
-: repeatCount , //x
-} // " ++ [128512]%N ++ runes_of_ascii " emoji
-, repeat char[ 255 ]  A ,	repeat Foo`tab	here`  ,}
-
-")).
-Eval vm_compute in ("<<<M826>>>" ++ check (runes_of_ascii "
-MetaData tag { zchar[
-1] repeatCount
-    , Header
-rootA ,zchar[ // " ++ [128512]%N ++ runes_of_ascii " emoji
-3] string_ `two words`
-, int8 _x
-    ,
-    char[
-// " ++ [27880; 37322]%N ++ runes_of_ascii "
-/// triple
-0123456789 ] zchar`
-` ,zchar[  4294967296 ]
-    // " ++ [27880; 37322]%N ++ runes_of_ascii "
-    a1 `` , } root
-packet // " ++ [27880; 37322]%N ++ runes_of_ascii "
-Pad {@lengthOf( As)
-BodyLength { char[] a1 @lengthOf(	Pad ) ,char[]	BodyLength `doc`// @lengthOf(
-, }
-,  match options1
-as	packetx { ""\n"" : i8i8 ,[
-""CRC32"",
-    //	t
-    10 ,//	t
-""1"",
-65535 ]
-// @lengthOf(
-// " ++ [27880; 37322]%N ++ runes_of_ascii "
-: matchKey 00 :  uint8x,
-    3 :repeatCount,  ""\n"" :
-tag
-    // packet A { u8 x, }
-    , // a // b
-""x y"" : //
-u8x } , @lengthOf( calculatedFrom
-    )	msg_type body // " ++ [128512]%N ++ runes_of_ascii " emoji
-, }
-    options {
-// " ++ [27880; 37322]%N ++ runes_of_ascii "
-// a // b
-T
-//x
-// @lengthOf(
-=
-10 ;T = u16	;}packet stringy // trailing space 
-{	}
-")).
-Eval vm_compute in ("<<<M858>>>" ++ check (runes_of_ascii "options { Packet =// @lengthOf(
-""\n"";// c
-}
-// " ++ [128512]%N ++ runes_of_ascii " emoji
-")).
-Eval vm_compute in ("<<<M890>>>" ++ check (runes_of_ascii "packet
-chars
-    { @tag(	0123456789) match crc as
-tag { 10
-    : uint8x ,
-[ 42 ]:
-int // " ++ [128512]%N ++ runes_of_ascii " emoji
-,}
-, }
-")).
-Eval vm_compute in ("<<<M922>>>" ++ check (runes_of_ascii "MetaData trueish
-    { char[]  i8i8 `" ++ [28040; 24687; 31867; 22411]%N ++ runes_of_ascii "` ,
-} packet calculatedFrom
-{ @calculatedFrom(""CRC32"")
-@lengthOf(u128 )
-    metadata // @lengthOf(
-stringy `u8 x,`
-, string
-i8i8@lengthOf( rootA
-    // `tick` ""quote"" 'q'
-    ) , @calculatedFrom(	""CRC32"" ) @calculatedFrom(	""packet"")@calculatedFrom(""""
-) zchar[42 ] body `" ++ [233]%N ++ runes_of_ascii "` , Packet , uint16  Logon ,
-rootA len
-`u8 x,` ,
-T @lengthOf(
-// a // b
-// " ++ [27880; 37322]%N ++ runes_of_ascii "
-T), @rightPad ( ) repeat char[ // @lengthOf(
-255 ]//
-x_y_z
-,repeat uint16 len
-,
-@rightPad
-    ( ) calculatedFrom charz `crlf
-line`,
-}
-")).
-Eval vm_compute in ("<<<M954>>>" ++ check (runes_of_ascii "options {
-zchar	= '\x00' ;
-}
-")).
-Eval vm_compute in ("<<<M986>>>" ++ check (runes_of_ascii "
-")).
-Eval vm_compute in ("<<<T986>>>" ++ terms [mkTok 0 "<EOF>" 2 0 false] (mkPacket (mkPtok 0 "<EOF>" 2 0 0) None [])).
-Eval vm_compute in ("<<<M1018>>>" ++ check (runes_of_ascii "packet chars {
-    u8 _x@calculatedFrom(
-    """ ++ [233]%N ++ runes_of_ascii "t" ++ [233]%N ++ runes_of_ascii """ )
-, @lengthOf( stringy //
-)
-@calculatedFrom( ""a\""b"" ) repeat options1 {body uint8x
-`doc` ,
-a1 @lengthOf( f32a ) `tab	here` ,
-repeat body // `tick` ""quote"" 'q'
-{ float64 BodyLength
-,
-    } ,
-    // @lengthOf(
-    }  ,@lengthOf(
-uint8x ) chars//	t
-`crlf
-line`
-, @lengthOf( // c
-crc
-    // `tick` ""quote"" 'q'
-    )@tag( 4294967296	)	char[] i8i8`tab	here` , char[]x
-    `// not a comment` ,repeat string uint8x ,	@calculatedFrom( ""// no comment"" ) @calculatedFrom( ""it's""	)	i8 falsey , int @calculatedFrom( """ ++ [233]%N ++ runes_of_ascii "t" ++ [233]%N ++ runes_of_ascii """ )
-,
-    // " ++ [27880; 37322]%N ++ runes_of_ascii "
-    match u128 as Foo {""" ++ [28040; 24687]%N ++ runes_of_ascii """ :trueish,	[ """ ++ [128512]%N ++ runes_of_ascii """//	t
-, ""1"" // a // b
-, 42 ,""" ++ [233]%N ++ runes_of_ascii "t" ++ [233]%N ++ runes_of_ascii """ ] // packet A { u8 x, }
-:
-Pad[0123456789 // packet A { u8 x, }
-]:
-    repeatCount
-007
-:calculatedFrom }
-,
-    // packet A { u8 x, }
-    }options { trueish = 10; //x
-Packet = true ; u128
-= false ; charz	= 007 ;
-    // " ++ [27880; 37322]%N ++ runes_of_ascii "
-    } options  { Pad = ""`tick`""// packet A { u8 x, }
-leftPad = true
-// a // b
-// " ++ [27880; 37322]%N ++ runes_of_ascii "
-charz  = char[] ;	_x = //x
-true }
-
-")).
-Eval vm_compute in ("<<<M1050>>>" ++ check (runes_of_ascii "
-")).
-Eval vm_compute in ("<<<M1082>>>" ++ check (runes_of_ascii "options { Foo = ""packet""; }
-/// triple
-//	t
-options { // `tick` ""quote"" 'q'
-x
-=
-' ' ;
-} // @lengthOf(
-MetaData
-// a // b
-// c
-calculatedFrom{ char[ 65535 ]asx , zchar stringy `
-`	, roots packetx
-    ,zchar[ 3 ] options1	, float	u8x ,char  asx
-    `doc`,
-} packet lengthOf
-// c
-// c
-{
-uint16 // a // b
-calculatedFrom
-    @calculatedFrom(""x y"" ) , } // packet A { u8 x, }")).
-Eval vm_compute in ("<<<M1114>>>" ++ check (runes_of_ascii "
-
-")).
-Eval vm_compute in ("<<<M1146>>>" ++ check (runes_of_ascii "packet uint8x{ char[	42
-    ]i64_ @lengthOf( crc
-// `tick` ""quote"" 'q'
-//x
-) `a\`, @calculatedFrom(  ""{,}"") @calculatedFrom( ""\" ++ [233]%N ++ runes_of_ascii """ ) repeat
-    i16 rootA`// not a comment` , // @lengthOf(
-As
-@lengthOf(falsey
-) , @lengthOf(pack
-)
-int64 packetx	, }
-")).
-Eval vm_compute in ("<<<M1178>>>" ++ check (runes_of_ascii "packet	crc {Logon  {u64 Z9_
-// " ++ [27880; 37322]%N ++ runes_of_ascii "
-// c
-@lengthOf(A
-) , f64 int,//
-match BodyLength as MetaDataX // a // b
-{
-""" ++ [28040; 24687]%N ++ runes_of_ascii """ :
-msg_type ,00 :
-falsey, 00 :
-tag // @lengthOf(
-,
-""it's"": options1, 007
-    //	t
-    : len ,65535 :
-    falsey , } ,	repeat char[] int  ,//x
-}, }
-root packet	repeatCount { }packet BodyLength{
-stringy // trailing space 
-{	len	`
-`,
-    }
-    ,  repeat i32 int // a // b
-,
-match Foo as crc
-// trailing space 
-/// triple
-{
-0: i8i8, 3 : // " ++ [27880; 37322]%N ++ runes_of_ascii "
-chars
-,
-}
-,repeat  x  { zchar[
-007 ]
-    chars
-,
-    repeat chars
-    // " ++ [27880; 37322]%N ++ runes_of_ascii "
-    {
-repeat stringy {x_y_z u128 , string options1 `two words`
-, char[  0123456789
-]body
-    `crlf
-line` ,  repeat int32 i64_
-, } ,
-char[ //x
-42]
-crc
-, Pad
-    `tab	here` , f32a
-{lengthOf f32a ,} , } ,} ,
-i8 stringy , f32a  {match body as body
-{
-""\" ++ [233]%N ++ runes_of_ascii """// packet A { u8 x, }
-:	u128	} ,
-    repeat
-string len
-    `a\`
-    , repeat As
-// c
-//	t
-asx `it's` , } , }	MetaData rootA {
-//
-//
-metadata metadata , A _x , u T , char[ // " ++ [128512]%N ++ runes_of_ascii " emoji
-3 ] a1 `line1
-line2` // " ++ [128512]%N ++ runes_of_ascii " emoji
-,
-zchar[ 4294967296  ] packetx
-    // @lengthOf(
-    `{ , }` , string
-Logon `" ++ [233]%N ++ runes_of_ascii "` ,  } packet BodyLength
-    {@calculatedFrom( /// triple
-""\n""
-    )
-int8
-    a1
-    @lengthOf( falsey
-) , //
-@calculatedFrom( ""\" ++ [233]%N ++ runes_of_ascii """)@tag(0123456789
-    ) lengthOf , @tag( 007
-    // c
-    ) //
-match Logon // " ++ [27880; 37322]%N ++ runes_of_ascii "
-as f32a
-// @lengthOf(
-/// triple
-{ 0 :
-zchar // @lengthOf(
-, } ,@lengthOf( i8i8 ) match options1
-    //	t
-    as string_ { [""a\""b"" , 00 , /// triple
-4294967296, 4294967296
-, ""a	b"",1 ] :
-A
-}
-,}
-")).
-Eval vm_compute in ("<<<M1210>>>" ++ check (runes_of_ascii "options{ Logon =
-int32
-; x_y_z // trailing space 
-= ""1"" f32a = 007 BodyLength =
-    zchar[
-    // " ++ [27880; 37322]%N ++ runes_of_ascii "
-    3
-]
-    ; MetaDataX = false //x
-;
-} packet // c
-A { match A
-    as A {
-    42 : _x ,
-} , }
-packet int
-{ //
-_x
-    asx
-,	} packet	trueish {
-float	@calculatedFrom(
-// " ++ [128512]%N ++ runes_of_ascii " emoji
-// @lengthOf(
-"""" ) ,
-zchar[
-65535 ] Pad@calculatedFrom(""a	b"" ) `
-` //	t
-,
-}options
-    {
+} MetaData crc	{ }")).
+Eval vm_compute in ("<<<M58>>>" ++ check (@nil rune)).
+Eval vm_compute in ("<<<M90>>>" ++ check (runes_of_ascii "packet metadata { // trailing space 
+roots
+uint8x , @leftPad
+    ( )zchar[
+3
+] Header,
+    i64_ roots , @lengthOf( A)
     // " ++ [128512]%N ++ runes_of_ascii " emoji
-    f32a =	zchar[ 42 ] ; body = ""`tick`"" ; //
-As =
-    true
-    tag=3 ;
-packetx = true
-}
-")).
-Eval vm_compute in ("<<<T1210>>>" ++ terms [mkTok 1 "options" 1 0 false; mkTok 2 "{" 1 7 false; mkTok 42 "Logon" 1 9 false; mkTok 4 "=" 1 15 false; mkTok 26 "int32" 2 0 false; mkTok 41 ";" 3 0 false; mkTok 42 "x_y_z" 3 2 false; mkTok 44 "// trailing space " 3 8 true; mkTok 4 "=" 4 0 false; mkTok 31 """1""" 4 2 false; mkTok 42 "f32a" 4 6 false; mkTok 4 "=" 4 11 false; mkTok 30 "007" 4 13 false; mkTok 42 "BodyLength" 4 17 false; mkTok 4 "=" 4 28 false; mkTok 14 "zchar[" 5 4 false; mkTok 44 (string_of_bytes [47; 47; 32; 230; 179; 168; 233; 135; 138]%N) 6 4 true; mkTok 30 "3" 7 4 false; mkTok 13 "]" 8 0 false; mkTok 41 ";" 9 4 false; mkTok 42 "MetaDataX" 9 6 false; mkTok 4 "=" 9 16 false; mkTok 11 "false" 9 18 false; mkTok 44 "//x" 9 24 true; mkTok 41 ";" 10 0 false; mkTok 3 "}" 11 0 false; mkTok 35 "packet" 11 2 false; mkTok 44 "// c" 11 9 true; mkTok 42 "A" 12 0 false; mkTok 2 "{" 12 2 false; mkTok 38 "match" 12 4 false; mkTok 42 "A" 12 10 false; mkTok 17 "as" 13 4 false; mkTok 42 "A" 13 7 false; mkTok 2 "{" 13 9 false; mkTok 30 "42" 14 4 false; mkTok 39 ":" 14 7 false; mkTok 42 "_x" 14 9 false; mkTok 40 "," 14 12 false; mkTok 3 "}" 15 0 false; mkTok 40 "," 15 2 false; mkTok 3 "}" 15 4 false; mkTok 35 "packet" 16 0 false; mkTok 42 "int" 16 7 false; mkTok 2 "{" 17 0 false; mkTok 44 "//" 17 2 true; mkTok 42 "_x" 18 0 false; mkTok 42 "asx" 19 4 false; mkTok 40 "," 20 0 false; mkTok 3 "}" 20 2 false; mkTok 35 "packet" 20 4 false; mkTok 42 "trueish" 20 11 false; mkTok 2 "{" 20 19 false; mkTok 42 "float" 21 0 false; mkTok 5 "@calculatedFrom(" 21 6 false; mkTok 44 (string_of_bytes [47; 47; 32; 240; 159; 152; 128; 32; 101; 109; 111; 106; 105]%N) 22 0 true; mkTok 44 "// @lengthOf(" 23 0 true; mkTok 31 """""" 24 0 false; mkTok 6 ")" 24 3 false; mkTok 40 "," 24 5 false; mkTok 14 "zchar[" 25 0 false; mkTok 30 "65535" 26 0 false; mkTok 13 "]" 26 6 false; mkTok 42 "Pad" 26 8 false; mkTok 5 "@calculatedFrom(" 26 11 false; mkTok 31 (string_of_bytes [34; 97; 9; 98; 34]%N) 26 27 false; mkTok 6 ")" 26 33 false; mkTok 43 (string_of_bytes [96; 10; 96]%N) 26 35 false; mkTok 44 (string_of_bytes [47; 47; 9; 116]%N) 27 2 true; mkTok 40 "," 28 0 false; mkTok 3 "}" 29 0 false; mkTok 1 "options" 29 1 false; mkTok 2 "{" 30 4 false; mkTok 44 (string_of_bytes [47; 47; 32; 240; 159; 152; 128; 32; 101; 109; 111; 106; 105]%N) 31 4 true; mkTok 42 "f32a" 32 4 false; mkTok 4 "=" 32 9 false; mkTok 14 "zchar[" 32 11 false; mkTok 30 "42" 32 18 false; mkTok 13 "]" 32 21 false; mkTok 41 ";" 32 23 false; mkTok 42 "body" 32 25 false; mkTok 4 "=" 32 30 false; mkTok 31 """`tick`""" 32 32 false; mkTok 41 ";" 32 41 false; mkTok 44 "//" 32 43 true; mkTok 42 "As" 33 0 false; mkTok 4 "=" 33 3 false; mkTok 10 "true" 34 4 false; mkTok 42 "tag" 35 4 false; mkTok 4 "=" 35 7 false; mkTok 30 "3" 35 8 false; mkTok 41 ";" 35 10 false; mkTok 42 "packetx" 36 0 false; mkTok 4 "=" 36 8 false; mkTok 10 "true" 36 10 false; mkTok 3 "}" 37 0 false; mkTok 0 "<EOF>" 38 0 false] (mkPacket (mkPtok 1 "options" 1 0 0) (Some (mkPtok 3 "}" 37 0 95)) [(DOption (mkOptionDef (mkSpan (mkPtok 1 "options" 1 0 0) (mkPtok 3 "}" 11 0 25)) (mkPtok 1 "options" 1 0 0) (mkPtok 2 "{" 1 7 1) [(mkOptionDecl (mkSpan (mkPtok 42 "Logon" 1 9 2) (mkPtok 41 ";" 3 0 5)) (mkPtok 42 "Logon" 1 9 2) (mkPtok 4 "=" 1 15 3) (VType (mkSpan (mkPtok 26 "int32" 2 0 4) (mkPtok 26 "int32" 2 0 4)) (TyBasic (mkSpan (mkPtok 26 "int32" 2 0 4) (mkPtok 26 "int32" 2 0 4)) (mkBasicType (mkSpan (mkPtok 26 "int32" 2 0 4) (mkPtok 26 "int32" 2 0 4)) (mkPtok 26 "int32" 2 0 4)))) (Some (mkPtok 41 ";" 3 0 5))); (mkOptionDecl (mkSpan (mkPtok 42 "x_y_z" 3 2 6) (mkPtok 31 """1""" 4 2 9)) (mkPtok 42 "x_y_z" 3 2 6) (mkPtok 4 "=" 4 0 8) (VString (mkSpan (mkPtok 31 """1""" 4 2 9) (mkPtok 31 """1""" 4 2 9)) (mkPtok 31 """1""" 4 2 9)) None); (mkOptionDecl (mkSpan (mkPtok 42 "f32a" 4 6 10) (mkPtok 30 "007" 4 13 12)) (mkPtok 42 "f32a" 4 6 10) (mkPtok 4 "=" 4 11 11) (VDigits (mkSpan (mkPtok 30 "007" 4 13 12) (mkPtok 30 "007" 4 13 12)) (mkPtok 30 "007" 4 13 12)) None); (mkOptionDecl (mkSpan (mkPtok 42 "BodyLength" 4 17 13) (mkPtok 41 ";" 9 4 19)) (mkPtok 42 "BodyLength" 4 17 13) (mkPtok 4 "=" 4 28 14) (VType (mkSpan (mkPtok 14 "zchar[" 5 4 15) (mkPtok 13 "]" 8 0 18)) (TyFixed (mkSpan (mkPtok 14 "zchar[" 5 4 15) (mkPtok 13 "]" 8 0 18)) (mkFixedString (mkSpan (mkPtok 14 "zchar[" 5 4 15) (mkPtok 13 "]" 8 0 18)) (mkPtok 14 "zchar[" 5 4 15) (mkPtok 30 "3" 7 4 17) (mkPtok 13 "]" 8 0 18)))) (Some (mkPtok 41 ";" 9 4 19))); (mkOptionDecl (mkSpan (mkPtok 42 "MetaDataX" 9 6 20) (mkPtok 41 ";" 10 0 24)) (mkPtok 42 "MetaDataX" 9 6 20) (mkPtok 4 "=" 9 16 21) (VFalse (mkSpan (mkPtok 11 "false" 9 18 22) (mkPtok 11 "false" 9 18 22)) (mkPtok 11 "false" 9 18 22)) (Some (mkPtok 41 ";" 10 0 24)))] (mkPtok 3 "}" 11 0 25))); (DPacket (mkPacketDef (mkSpan (mkPtok 35 "packet" 11 2 26) (mkPtok 3 "}" 15 4 41)) None (mkPtok 35 "packet" 11 2 26) (mkPtok 42 "A" 12 0 28) (mkPtok 2 "{" 12 2 29) [(mkFieldWithAttr (mkSpan (mkPtok 38 "match" 12 4 30) (mkPtok 40 "," 15 2 40)) [] (MatchField (mkSpan (mkPtok 38 "match" 12 4 30) (mkPtok 40 "," 15 2 40)) (mkMatchFieldDecl (mkSpan (mkPtok 38 "match" 12 4 30) (mkPtok 3 "}" 15 0 39)) (mkPtok 38 "match" 12 4 30) (mkPtok 42 "A" 12 10 31) (mkPtok 17 "as" 13 4 32) (mkPtok 42 "A" 13 7 33) (mkPtok 2 "{" 13 9 34) [(mkMatchPair (mkSpan (mkPtok 30 "42" 14 4 35) (mkPtok 40 "," 14 12 38)) (MKDigits (mkPtok 30 "42" 14 4 35)) (mkPtok 39 ":" 14 7 36) (mkPtok 42 "_x" 14 9 37) (Some (mkPtok 40 "," 14 12 38)))] (mkPtok 3 "}" 15 0 39)) (mkPtok 40 "," 15 2 40)))] (mkPtok 3 "}" 15 4 41))); (DPacket (mkPacketDef (mkSpan (mkPtok 35 "packet" 16 0 42) (mkPtok 3 "}" 20 2 49)) None (mkPtok 35 "packet" 16 0 42) (mkPtok 42 "int" 16 7 43) (mkPtok 2 "{" 17 0 44) [(mkFieldWithAttr (mkSpan (mkPtok 42 "_x" 18 0 46) (mkPtok 40 "," 20 0 48)) [] (ObjectField (mkSpan (mkPtok 42 "_x" 18 0 46) (mkPtok 40 "," 20 0 48)) None (mkPtok 42 "_x" 18 0 46) (Some (mkPtok 42 "asx" 19 4 47)) None (mkPtok 40 "," 20 0 48)))] (mkPtok 3 "}" 20 2 49))); (DPacket (mkPacketDef (mkSpan (mkPtok 35 "packet" 20 4 50) (mkPtok 3 "}" 29 0 70)) None (mkPtok 35 "packet" 20 4 50) (mkPtok 42 "trueish" 20 11 51) (mkPtok 2 "{" 20 19 52) [(mkFieldWithAttr (mkSpan (mkPtok 42 "float" 21 0 53) (mkPtok 40 "," 24 5 59)) [] (CheckSumField (mkSpan (mkPtok 42 "float" 21 0 53) (mkPtok 40 "," 24 5 59)) (mkChecksumFieldDecl (mkSpan (mkPtok 42 "float" 21 0 53) (mkPtok 40 "," 24 5 59)) None (mkPtok 42 "float" 21 0 53) (mkCalculatedFrom (mkSpan (mkPtok 5 "@calculatedFrom(" 21 6 54) (mkPtok 6 ")" 24 3 58)) (mkPtok 5 "@calculatedFrom(" 21 6 54) (mkPtok 31 """""" 24 0 57) (mkPtok 6 ")" 24 3 58)) None (mkPtok 40 "," 24 5 59)))); (mkFieldWithAttr (mkSpan (mkPtok 14 "zchar[" 25 0 60) (mkPtok 40 "," 28 0 69)) [] (CheckSumField (mkSpan (mkPtok 14 "zchar[" 25 0 60) (mkPtok 40 "," 28 0 69)) (mkChecksumFieldDecl (mkSpan (mkPtok 14 "zchar[" 25 0 60) (mkPtok 40 "," 28 0 69)) (Some (TyFixed (mkSpan (mkPtok 14 "zchar[" 25 0 60) (mkPtok 13 "]" 26 6 62)) (mkFixedString (mkSpan (mkPtok 14 "zchar[" 25 0 60) (mkPtok 13 "]" 26 6 62)) (mkPtok 14 "zchar[" 25 0 60) (mkPtok 30 "65535" 26 0 61) (mkPtok 13 "]" 26 6 62)))) (mkPtok 42 "Pad" 26 8 63) (mkCalculatedFrom (mkSpan (mkPtok 5 "@calculatedFrom(" 26 11 64) (mkPtok 6 ")" 26 33 66)) (mkPtok 5 "@calculatedFrom(" 26 11 64) (mkPtok 31 (string_of_bytes [34; 97; 9; 98; 34]%N) 26 27 65) (mkPtok 6 ")" 26 33 66)) (Some (mkPtok 43 (string_of_bytes [96; 10; 96]%N) 26 35 67)) (mkPtok 40 "," 28 0 69))))] (mkPtok 3 "}" 29 0 70))); (DOption (mkOptionDef (mkSpan (mkPtok 1 "options" 29 1 71) (mkPtok 3 "}" 37 0 95)) (mkPtok 1 "options" 29 1 71) (mkPtok 2 "{" 30 4 72) [(mkOptionDecl (mkSpan (mkPtok 42 "f32a" 32 4 74) (mkPtok 41 ";" 32 23 79)) (mkPtok 42 "f32a" 32 4 74) (mkPtok 4 "=" 32 9 75) (VType (mkSpan (mkPtok 14 "zchar[" 32 11 76) (mkPtok 13 "]" 32 21 78)) (TyFixed (mkSpan (mkPtok 14 "zchar[" 32 11 76) (mkPtok 13 "]" 32 21 78)) (mkFixedString (mkSpan (mkPtok 14 "zchar[" 32 11 76) (mkPtok 13 "]" 32 21 78)) (mkPtok 14 "zchar[" 32 11 76) (mkPtok 30 "42" 32 18 77) (mkPtok 13 "]" 32 21 78)))) (Some (mkPtok 41 ";" 32 23 79))); (mkOptionDecl (mkSpan (mkPtok 42 "body" 32 25 80) (mkPtok 41 ";" 32 41 83)) (mkPtok 42 "body" 32 25 80) (mkPtok 4 "=" 32 30 81) (VString (mkSpan (mkPtok 31 """`tick`""" 32 32 82) (mkPtok 31 """`tick`""" 32 32 82)) (mkPtok 31 """`tick`""" 32 32 82)) (Some (mkPtok 41 ";" 32 41 83))); (mkOptionDecl (mkSpan (mkPtok 42 "As" 33 0 85) (mkPtok 10 "true" 34 4 87)) (mkPtok 42 "As" 33 0 85) (mkPtok 4 "=" 33 3 86) (VTrue (mkSpan (mkPtok 10 "true" 34 4 87) (mkPtok 10 "true" 34 4 87)) (mkPtok 10 "true" 34 4 87)) None); (mkOptionDecl (mkSpan (mkPtok 42 "tag" 35 4 88) (mkPtok 41 ";" 35 10 91)) (mkPtok 42 "tag" 35 4 88) (mkPtok 4 "=" 35 7 89) (VDigits (mkSpan (mkPtok 30 "3" 35 8 90) (mkPtok 30 "3" 35 8 90)) (mkPtok 30 "3" 35 8 90)) (Some (mkPtok 41 ";" 35 10 91))); (mkOptionDecl (mkSpan (mkPtok 42 "packetx" 36 0 92) (mkPtok 10 "true" 36 10 94)) (mkPtok 42 "packetx" 36 0 92) (mkPtok 4 "=" 36 8 93) (VTrue (mkSpan (mkPtok 10 "true" 36 10 94) (mkPtok 10 "true" 36 10 94)) (mkPtok 10 "true" 36 10 94)) None)] (mkPtok 3 "}" 37 0 95)))])).
-Eval vm_compute in ("<<<M1242>>>" ++ check (runes_of_ascii "
-packet
-    // " ++ [27880; 37322]%N ++ runes_of_ascii "
-    chars {u8x metadata	`u8 x,` , @lengthOf( o
-) leftPad /// triple
-@lengthOf( leftPad)
-    `line1
-line2` , match  falsey as o //x
-{[ ""\" ++ [233]%N ++ runes_of_ascii """
-    ,""a\\"",00]: falsey,0 : u	""a\""b"" :	roots , """ ++ [128512]%N ++ runes_of_ascii """ :
-Foo, [
-    """ ++ [233]%N ++ runes_of_ascii "t" ++ [233]%N ++ runes_of_ascii """ , ""a\""b""//x
-, 7  ]	: // a // b
-string_
-    // a // b
-    ""a\\"" :
-    string_	,
-    },@calculatedFrom( ""a	b"" ) repeat body  `a\` , }options {stringy = 0 }packet
-    // a // b
-    chars {
-charz@calculatedFrom( ""a	b"" ) ,uint32 lengthOf, int8
-    repeatCount ,
-uint16 // @lengthOf(
-o`
-` ,
-    }")).
-Eval vm_compute in ("<<<M1274>>>" ++ check (runes_of_ascii "/// triple
-
-")).
-Eval vm_compute in ("<<<M1306>>>" ++ check (runes_of_ascii "options{
-Logon
-    //x
-    = ' '; }")).
-Eval vm_compute in ("<<<M1338>>>" ++ check (runes_of_ascii "packet	body {
-    // @lengthOf(
-    body
-    trueish , repeat MetaDataX
-string_,  char[] asx `say ""hi""`
-, char
+    @lengthOf( // trailing space 
+pack
+) @lengthOf( calculatedFrom
 // a // b
-// " ++ [128512]%N ++ runes_of_ascii " emoji
-int@calculatedFrom(""packet""
-    )
-,}
-")).
-Eval vm_compute in ("<<<M1370>>>" ++ check (runes_of_ascii "
-")).
-Eval vm_compute in ("<<<M1402>>>" ++ check (runes_of_ascii "  root //x
-packet Logon {
-char[	7 ]calculatedFrom @calculatedFrom(	""// no comment""	) `two words`, uint16
-MetaDataX
-`u8 x,`
-    , string a1 @lengthOf( Logon ) // " ++ [27880; 37322]%N ++ runes_of_ascii "
-,
-    @tag( 0 ) // " ++ [128512]%N ++ runes_of_ascii " emoji
-@lengthOf( u8x) @calculatedFrom(
-    ""it's"" ) string
-zchar `doc` , @lengthOf(x_y_z)// trailing space 
-trueish
-// @lengthOf(
-// `tick` ""quote"" 'q'
-{ Z9_ { match
-float
-as/// triple
-lengthOf{00: _x, } ,repeat x_y_z {u8x // " ++ [128512]%N ++ runes_of_ascii " emoji
-uint8x ,	}
-,char[007
-] x_y_z , } , Z9_
-`" ++ [28040; 24687; 31867; 22411]%N ++ runes_of_ascii "` ,
-}
-,
-f32a {
-repeat	zchar[0123456789 ]A, repeat i64
-stringy , leftPad `crlf
-line` ,
-    },
-}packet u128//x
-{  match _x as MetaDataX{ [ ""x y"" , 42  ] : A , }
-, @lengthOf( charz) charz { match x_y_z as // " ++ [27880; 37322]%N ++ runes_of_ascii "
-f32a { [ 007
-, 10
-    ,
-    42
-    , """ ++ [233]%N ++ runes_of_ascii "t" ++ [233]%N ++ runes_of_ascii """ , 0123456789 ] :x_y_z ,// @lengthOf(
-7: u128 , ""// no comment""
-: repeatCount  ,
-    ""a\\"" : int	,""x y"" :u128 } , },i16 chars
-// @lengthOf(
-// packet A { u8 x, }
-@lengthOf( zchar)
-    //	t
-    `u8 x,` , }
-    packet u
-// " ++ [27880; 37322]%N ++ runes_of_ascii "
-// @lengthOf(
-{ repeat u options1 , /// triple
-@calculatedFrom( ""CRC32"" )float32 u128@lengthOf( //x
-u8x )
-`{ , }`,
-@leftPad ('\x00'
+/// triple
 )
-    i8 crc`say ""hi""`
-, } packet
-calculatedFrom {
-}
-packet pack {
-zchar[ 65535 ] calculatedFrom , len { stringy @lengthOf(
-body
-)	, }, @lengthOf( x_y_z// " ++ [128512]%N ++ runes_of_ascii " emoji
-) uint8x
-@lengthOf( tag ) , @calculatedFrom(
-""x y"") zchar[ 65535 ]	tag	@calculatedFrom(
-    ""a\\"") `" ++ [28040; 24687; 31867; 22411]%N ++ runes_of_ascii "` ,
-i64
+    // trailing space 
+    u8 charz `crlf
+line` , }")).
+Eval vm_compute in ("<<<T90>>>" ++ terms [mkTok 35 "packet" 1 0 false; mkTok 42 "metadata" 1 7 false; mkTok 2 "{" 1 16 false; mkTok 44 "// trailing space " 1 18 true; mkTok 42 "roots" 2 0 false; mkTok 42 "uint8x" 3 0 false; mkTok 40 "," 3 7 false; mkTok 32 "@leftPad" 3 9 false; mkTok 8 "(" 4 4 false; mkTok 6 ")" 4 6 false; mkTok 14 "zchar[" 4 7 false; mkTok 30 "3" 5 0 false; mkTok 13 "]" 6 0 false; mkTok 42 "Header" 6 2 false; mkTok 40 "," 6 8 false; mkTok 42 "i64_" 7 4 false; mkTok 42 "roots" 7 9 false; mkTok 40 "," 7 15 false; mkTok 7 "@lengthOf(" 7 17 false; mkTok 42 "A" 7 28 false; mkTok 6 ")" 7 29 false; mkTok 44 (string_of_bytes [47; 47; 32; 240; 159; 152; 128; 32; 101; 109; 111; 106; 105]%N) 8 4 true; mkTok 7 "@lengthOf(" 9 4 false; mkTok 44 "// trailing space " 9 15 true; mkTok 42 "pack" 10 0 false; mkTok 6 ")" 11 0 false; mkTok 7 "@lengthOf(" 11 2 false; mkTok 42 "calculatedFrom" 11 13 false; mkTok 44 "// a // b" 12 0 true; mkTok 44 "/// triple" 13 0 true; mkTok 6 ")" 14 0 false; mkTok 44 "// trailing space " 15 4 true; mkTok 20 "u8" 16 4 false; mkTok 42 "charz" 16 7 false; mkTok 43 (string_of_bytes [96; 99; 114; 108; 102; 13; 10; 108; 105; 110; 101; 96]%N) 16 13 false; mkTok 40 "," 17 6 false; mkTok 3 "}" 17 8 false; mkTok 0 "<EOF>" 17 9 false] (mkPacket (mkPtok 35 "packet" 1 0 0) (Some (mkPtok 3 "}" 17 8 36)) [(DPacket (mkPacketDef (mkSpan (mkPtok 35 "packet" 1 0 0) (mkPtok 3 "}" 17 8 36)) None (mkPtok 35 "packet" 1 0 0) (mkPtok 42 "metadata" 1 7 1) (mkPtok 2 "{" 1 16 2) [(mkFieldWithAttr (mkSpan (mkPtok 42 "roots" 2 0 4) (mkPtok 40 "," 3 7 6)) [] (ObjectField (mkSpan (mkPtok 42 "roots" 2 0 4) (mkPtok 40 "," 3 7 6)) None (mkPtok 42 "roots" 2 0 4) (Some (mkPtok 42 "uint8x" 3 0 5)) None (mkPtok 40 "," 3 7 6))); (mkFieldWithAttr (mkSpan (mkPtok 32 "@leftPad" 3 9 7) (mkPtok 40 "," 6 8 14)) [(FAPadding (mkSpan (mkPtok 32 "@leftPad" 3 9 7) (mkPtok 6 ")" 4 6 9)) (mkPaddingAttr (mkSpan (mkPtok 32 "@leftPad" 3 9 7) (mkPtok 6 ")" 4 6 9)) (mkPtok 32 "@leftPad" 3 9 7) (mkPtok 8 "(" 4 4 8) None (mkPtok 6 ")" 4 6 9)))] (MetaField (mkSpan (mkPtok 14 "zchar[" 4 7 10) (mkPtok 40 "," 6 8 14)) None (mkMetaDecl (mkSpan (mkPtok 14 "zchar[" 4 7 10) (mkPtok 40 "," 6 8 14)) (TyFixed (mkSpan (mkPtok 14 "zchar[" 4 7 10) (mkPtok 13 "]" 6 0 12)) (mkFixedString (mkSpan (mkPtok 14 "zchar[" 4 7 10) (mkPtok 13 "]" 6 0 12)) (mkPtok 14 "zchar[" 4 7 10) (mkPtok 30 "3" 5 0 11) (mkPtok 13 "]" 6 0 12))) (mkPtok 42 "Header" 6 2 13) None (mkPtok 40 "," 6 8 14)))); (mkFieldWithAttr (mkSpan (mkPtok 42 "i64_" 7 4 15) (mkPtok 40 "," 7 15 17)) [] (ObjectField (mkSpan (mkPtok 42 "i64_" 7 4 15) (mkPtok 40 "," 7 15 17)) None (mkPtok 42 "i64_" 7 4 15) (Some (mkPtok 42 "roots" 7 9 16)) None (mkPtok 40 "," 7 15 17))); (mkFieldWithAttr (mkSpan (mkPtok 7 "@lengthOf(" 7 17 18) (mkPtok 40 "," 17 6 35)) [(FALengthOf (mkSpan (mkPtok 7 "@lengthOf(" 7 17 18) (mkPtok 6 ")" 7 29 20)) (mkLengthOf (mkSpan (mkPtok 7 "@lengthOf(" 7 17 18) (mkPtok 6 ")" 7 29 20)) (mkPtok 7 "@lengthOf(" 7 17 18) (mkPtok 42 "A" 7 28 19) (mkPtok 6 ")" 7 29 20))); (FALengthOf (mkSpan (mkPtok 7 "@lengthOf(" 9 4 22) (mkPtok 6 ")" 11 0 25)) (mkLengthOf (mkSpan (mkPtok 7 "@lengthOf(" 9 4 22) (mkPtok 6 ")" 11 0 25)) (mkPtok 7 "@lengthOf(" 9 4 22) (mkPtok 42 "pack" 10 0 24) (mkPtok 6 ")" 11 0 25))); (FALengthOf (mkSpan (mkPtok 7 "@lengthOf(" 11 2 26) (mkPtok 6 ")" 14 0 30)) (mkLengthOf (mkSpan (mkPtok 7 "@lengthOf(" 11 2 26) (mkPtok 6 ")" 14 0 30)) (mkPtok 7 "@lengthOf(" 11 2 26) (mkPtok 42 "calculatedFrom" 11 13 27) (mkPtok 6 ")" 14 0 30)))] (MetaField (mkSpan (mkPtok 20 "u8" 16 4 32) (mkPtok 40 "," 17 6 35)) None (mkMetaDecl (mkSpan (mkPtok 20 "u8" 16 4 32) (mkPtok 40 "," 17 6 35)) (TyBasic (mkSpan (mkPtok 20 "u8" 16 4 32) (mkPtok 20 "u8" 16 4 32)) (mkBasicType (mkSpan (mkPtok 20 "u8" 16 4 32) (mkPtok 20 "u8" 16 4 32)) (mkPtok 20 "u8" 16 4 32))) (mkPtok 42 "charz" 16 7 33) (Some (mkPtok 43 (string_of_bytes [96; 99; 114; 108; 102; 13; 10; 108; 105; 110; 101; 96]%N) 16 13 34)) (mkPtok 40 "," 17 6 35))))] (mkPtok 3 "}" 17 8 36)))])).
+Eval vm_compute in ("<<<M122>>>" ++ check (runes_of_ascii "// @lengthOf(
+packet
+trueish { Pad { float @lengthOf( // " ++ [128512]%N ++ runes_of_ascii " emoji
 uint8x
-    ,  @lengthOf(
-    int ) u8 Pad@lengthOf(  o
-    )  `{ , }`
-    ,  }
-")).
-Eval vm_compute in ("<<<M1434>>>" ++ check (runes_of_ascii "//
-packet x_y_z
-    // `tick` ""quote"" 'q'
-    {
-@calculatedFrom(""x y""  )	@calculatedFrom( ""packet"" ) @calculatedFrom(""CRC32""
-    ) a1 uint8x
-    //
-    `u8 x,`
-// " ++ [128512]%N ++ runes_of_ascii " emoji
-// @lengthOf(
-,}
-")).
-Eval vm_compute in ("<<<T1434>>>" ++ terms [mkTok 44 "//" 1 0 true; mkTok 35 "packet" 2 0 false; mkTok 42 "x_y_z" 2 7 false; mkTok 44 "// `tick` ""quote"" 'q'" 3 4 true; mkTok 2 "{" 4 4 false; mkTok 5 "@calculatedFrom(" 5 0 false; mkTok 31 """x y""" 5 16 false; mkTok 6 ")" 5 23 false; mkTok 5 "@calculatedFrom(" 5 25 false; mkTok 31 """packet""" 5 42 false; mkTok 6 ")" 5 51 false; mkTok 5 "@calculatedFrom(" 5 53 false; mkTok 31 """CRC32""" 5 69 false; mkTok 6 ")" 6 4 false; mkTok 42 "a1" 6 6 false; mkTok 42 "uint8x" 6 9 false; mkTok 44 "//" 7 4 true; mkTok 43 "`u8 x,`" 8 4 false; mkTok 44 (string_of_bytes [47; 47; 32; 240; 159; 152; 128; 32; 101; 109; 111; 106; 105]%N) 9 0 true; mkTok 44 "// @lengthOf(" 10 0 true; mkTok 40 "," 11 0 false; mkTok 3 "}" 11 1 false; mkTok 0 "<EOF>" 12 0 false] (mkPacket (mkPtok 35 "packet" 2 0 1) (Some (mkPtok 3 "}" 11 1 21)) [(DPacket (mkPacketDef (mkSpan (mkPtok 35 "packet" 2 0 1) (mkPtok 3 "}" 11 1 21)) None (mkPtok 35 "packet" 2 0 1) (mkPtok 42 "x_y_z" 2 7 2) (mkPtok 2 "{" 4 4 4) [(mkFieldWithAttr (mkSpan (mkPtok 5 "@calculatedFrom(" 5 0 5) (mkPtok 40 "," 11 0 20)) [(FACalculatedFrom (mkSpan (mkPtok 5 "@calculatedFrom(" 5 0 5) (mkPtok 6 ")" 5 23 7)) (mkCalculatedFrom (mkSpan (mkPtok 5 "@calculatedFrom(" 5 0 5) (mkPtok 6 ")" 5 23 7)) (mkPtok 5 "@calculatedFrom(" 5 0 5) (mkPtok 31 """x y""" 5 16 6) (mkPtok 6 ")" 5 23 7))); (FACalculatedFrom (mkSpan (mkPtok 5 "@calculatedFrom(" 5 25 8) (mkPtok 6 ")" 5 51 10)) (mkCalculatedFrom (mkSpan (mkPtok 5 "@calculatedFrom(" 5 25 8) (mkPtok 6 ")" 5 51 10)) (mkPtok 5 "@calculatedFrom(" 5 25 8) (mkPtok 31 """packet""" 5 42 9) (mkPtok 6 ")" 5 51 10))); (FACalculatedFrom (mkSpan (mkPtok 5 "@calculatedFrom(" 5 53 11) (mkPtok 6 ")" 6 4 13)) (mkCalculatedFrom (mkSpan (mkPtok 5 "@calculatedFrom(" 5 53 11) (mkPtok 6 ")" 6 4 13)) (mkPtok 5 "@calculatedFrom(" 5 53 11) (mkPtok 31 """CRC32""" 5 69 12) (mkPtok 6 ")" 6 4 13)))] (ObjectField (mkSpan (mkPtok 42 "a1" 6 6 14) (mkPtok 40 "," 11 0 20)) None (mkPtok 42 "a1" 6 6 14) (Some (mkPtok 42 "uint8x" 6 9 15)) (Some (mkPtok 43 "`u8 x,`" 8 4 17)) (mkPtok 40 "," 11 0 20)))] (mkPtok 3 "}" 11 1 21)))])).
-Eval vm_compute in ("<<<M1466>>>" ++ check (runes_of_ascii "
-")).
-Eval vm_compute in ("<<<M1498>>>" ++ check (runes_of_ascii "options{ falsey =
-float64 ;
-u8x
-=' ' ; charz = '0' ; // a // b
-} options/// triple
-{ i8i8 = true ;	uint8x = false ; roots
-//	t
-// " ++ [27880; 37322]%N ++ runes_of_ascii "
-=
-// @lengthOf(
-// c
-42 ; MetaDataX= ""a\\""
-} packet tag { lengthOf//
-, @lengthOf(
     // a // b
-    u8x)
-    match// " ++ [27880; 37322]%N ++ runes_of_ascii "
-metadata as packetx { ""// no comment""
-:
-    // `tick` ""quote"" 'q'
-    tag // " ++ [128512]%N ++ runes_of_ascii " emoji
-,65535
-: MetaDataX
-    // " ++ [128512]%N ++ runes_of_ascii " emoji
-    ,	} ,@rightPad(' '
-)  char[ 007 // c
-] // " ++ [128512]%N ++ runes_of_ascii " emoji
-len, @calculatedFrom(
-    ""a	b""
-) repeat//x
-uint8x u8x `a\`
-, repeat
-uint8x	{ match  MetaDataX as zchar  { 65535 : int
-, 1
-    :
-    matchKey  , [ 0123456789]
-:pack, 7: Z9_ , 0123456789
-:	rootA/// triple
-[ 00
-    ,""\n"" ] :leftPad , }  , u128  { // a // b
-uint64 i8i8 // packet A { u8 x, }
-, i32 tag	, uint8 body	,}  , zchar[255 ] rootA	, } // trailing space 
-, // trailing space 
-string roots , @calculatedFrom(
-""CRC32"" ) @tag( 7 ) string_	@calculatedFrom(  ""abc"" )
-, zchar[ 10 ] int `say ""hi""` , @lengthOf(  metadata )	char[ 0 ] roots @calculatedFrom( """" ) // `tick` ""quote"" 'q'
-, @calculatedFrom(""x y""//x
-) rootA `" ++ [28040; 24687; 31867; 22411]%N ++ runes_of_ascii "` , }
-root packet // " ++ [128512]%N ++ runes_of_ascii " emoji
-i64_ {@tag( 00 )
-repeat x i64_ , } options { Header
-    =00 float =	false
-    ;}
-")).
-Eval vm_compute in ("<<<M1530>>>" ++ check (runes_of_ascii "
-root
-packet  Z9_{
-u8x @lengthOf(
-    // " ++ [27880; 37322]%N ++ runes_of_ascii "
-    lengthOf)
-`it's` ,@tag(
-// packet A { u8 x, }
-//
-00) x_y_z
-    , } packet roots	{ }  options { // packet A { u8 x, }
-x_y_z =
-' '	;
-    }")).
-Eval vm_compute in ("<<<M1562>>>" ++ check (runes_of_ascii "packet
-stringy
-    {
+    ), float32 x_y_z @calculatedFrom( ""a\\""
 // c
-// a // b
-}
-")).
-Eval vm_compute in ("<<<M1594>>>" ++ check (runes_of_ascii "options {  rootA =char[ 007] } packet A	{
-    i8	trueish ,	repeat uint8x
-{ BodyLength  { u8 metadata// `tick` ""quote"" 'q'
-,} ,} ,@lengthOf(msg_type ) BodyLength, BodyLength
-    // c
-    x_y_z ,	}")).
-Eval vm_compute in ("<<<M1626>>>" ++ check (runes_of_ascii "options {zchar
-=false ;
-    falsey = char[ 00	] ;
-// a // b
 // " ++ [128512]%N ++ runes_of_ascii " emoji
-packetx  = //	t
-false	;
-metadata= false
-Z9_  =true
-    }
-
-")).
-Eval vm_compute in ("<<<M1658>>>" ++ check (runes_of_ascii "packet x {trueish Header `// not a comment`,
-} root packet packetx { @calculatedFrom( ""\n""
+), }
+,
+uint8
+matchKey ,
+    @leftPad ( ) _x
+    @lengthOf( o ) `{ , }` ,roots  { u64 stringy // packet A { u8 x, }
+`two words` , repeat
+// `tick` ""quote"" 'q'
+// c
+i8 lengthOf`doc` ,
+    } // trailing space 
+,pack	`" ++ [233]%N ++ runes_of_ascii "`  , packetx
+// " ++ [128512]%N ++ runes_of_ascii " emoji
+// trailing space 
+pack , repeat packetx
+{falsey  @lengthOf(
+    _x //	t
 )
-float64 repeatCount `doc`	,
-    } options
+,}
+    , u128@calculatedFrom( ""CRC32""
+    // @lengthOf(
+    ) ,@tag(
+    0123456789)rootA //
+@lengthOf( Pad
+)
+, // `tick` ""quote"" 'q'
+}  packet Foo// 50% %s
+{  @lengthOf(
+    options1// `tick` ""quote"" 'q'
+)	repeatCount packetx  , }options { T =255
+leftPad =
+' ';roots=  ""\n""; } packet asx
+//x
+/// triple
+{ f32a {float32 falsey ,
+}, @leftPad ( '\x00' )
+    uint16 MetaDataX `crlf
+line`
+    ,  repeat
+    string options1, repeat i32
+    leftPad /// triple
+`// not a comment` , repeat string // c
+stringy `100% of %d`
+,
+repeat chars  {
+string
+MetaDataX`100% of %d`, f64 leftPad `crlf
+line` , }	,
+char[]
+    //	t
+    metadata//x
+,@tag( 10
+    // trailing space 
+    ) char[] Pad`tab	here` ,
+match matchKey as o	{ ""{,}"" : MetaDataX	, [
+7 , ""\" ++ [233]%N ++ runes_of_ascii """  ,
+3
+    ,
+""abc""
+,10
+] :
+stringy  ,""\" ++ [233]%N ++ runes_of_ascii """ :  zchar ,
+[
+    /// triple
+    00 ,
+// " ++ [128512]%N ++ runes_of_ascii " emoji
+// trailing space 
+3 ] :charz
+,
+    ""a\\"":msg_type , } , }")).
+Eval vm_compute in ("<<<M154>>>" ++ check (runes_of_ascii "
+root  packet	uint8x { // trailing space 
+@lengthOf(	a1 )uint64 i8i8
+@calculatedFrom(""it's"" ) , repeat float32 a1 ,@tag(
+1 ) @tag( 65535 )u32 options1, @lengthOf( i8i8
+) @lengthOf( int ) @leftPad ( ) char[42 ]len  @calculatedFrom( ""packet"")	, }
+root packet
+    u128 {}
+")).
+Eval vm_compute in ("<<<M186>>>" ++ check (runes_of_ascii "root //x
+packet
+    charz //	t
+{ repeat
+zchar[ 65535
+]
+Packet ,} MetaData
+u128
+{string uint8x//
+, rootA
+_x , char[007
+    ] uint8x ,
+As A
+,Header u`line1
+line2` , rootA chars `100% of %d` ,}MetaData trueish{ uint8 Logon ,
+    // c
+    uint8 // `tick` ""quote"" 'q'
+float
+,//
+u/// triple
+As
+,/// triple
+falsey packetx
+//	t
+// " ++ [128512]%N ++ runes_of_ascii " emoji
+, i8i8
+    rootA,
+    i16 roots `
+` ,}")).
+Eval vm_compute in ("<<<M218>>>" ++ check (runes_of_ascii "MetaData Header{
+}	root packet options1 {
+crc metadata`" ++ [233]%N ++ runes_of_ascii "` , }packet A { }root packet
+leftPad	{ } MetaData Header { MetaDataX
+// packet A { u8 x, }
+// 50% %s
+i8i8 `u8 x,`,	}
+")).
+Eval vm_compute in ("<<<M250>>>" ++ check (runes_of_ascii "// " ++ [128512]%N ++ runes_of_ascii " emoji
+packet float {
+    zchar[
+7 ]trueish ,
+    // a // b
+    }")).
+Eval vm_compute in ("<<<M282>>>" ++ check (runes_of_ascii "// `tick` ""quote"" 'q'
+MetaData calculatedFrom{ Pad
+zchar
+, }
+")).
+Eval vm_compute in ("<<<M314>>>" ++ check (runes_of_ascii "root
+packet  int { @calculatedFrom(
+    ""abc"") f32
+    int @calculatedFrom(
+""a\\"" ) ,@lengthOf(i8i8 ) @rightPad (	' '
+) @lengthOf( MetaDataX) zchar[	0
+// `tick` ""quote"" 'q'
+// `tick` ""quote"" 'q'
+]A
+,@rightPad( '0') u64 A @calculatedFrom(
+""abc""
+    ) , /// triple
+} MetaData Logon{ int32 Header , i8 // packet A { u8 x, }
+i64_ ,	x_y_z a1 , trueish pack `crlf
+line` , char[ 1] lengthOf , _x BodyLength, } packet asx
+    { repeat	body
+, @tag( 255 )repeat // packet A { u8 x, }
+char[ 3	]
+charz `it's`
+    //	t
+    ,
+// c
+// " ++ [128512]%N ++ runes_of_ascii " emoji
+o @lengthOf(leftPad )  ,  zchar[4294967296 ] body,@leftPad (
+'\x00'
+    )char u128 ,}
+packet chars{ } packet float //x
 { }
 ")).
-Eval vm_compute in ("<<<T1658>>>" ++ terms [mkTok 35 "packet" 1 0 false; mkTok 42 "x" 1 7 false; mkTok 2 "{" 1 9 false; mkTok 42 "trueish" 1 10 false; mkTok 42 "Header" 1 18 false; mkTok 43 "`// not a comment`" 1 25 false; mkTok 40 "," 1 43 false; mkTok 3 "}" 2 0 false; mkTok 34 "root" 2 2 false; mkTok 35 "packet" 2 7 false; mkTok 42 "packetx" 2 14 false; mkTok 2 "{" 2 22 false; mkTok 5 "@calculatedFrom(" 2 24 false; mkTok 31 """\n""" 2 41 false; mkTok 6 ")" 3 0 false; mkTok 29 "float64" 4 0 false; mkTok 42 "repeatCount" 4 8 false; mkTok 43 "`doc`" 4 20 false; mkTok 40 "," 4 26 false; mkTok 3 "}" 5 4 false; mkTok 1 "options" 5 6 false; mkTok 2 "{" 6 0 false; mkTok 3 "}" 6 2 false; mkTok 0 "<EOF>" 7 0 false] (mkPacket (mkPtok 35 "packet" 1 0 0) (Some (mkPtok 3 "}" 6 2 22)) [(DPacket (mkPacketDef (mkSpan (mkPtok 35 "packet" 1 0 0) (mkPtok 3 "}" 2 0 7)) None (mkPtok 35 "packet" 1 0 0) (mkPtok 42 "x" 1 7 1) (mkPtok 2 "{" 1 9 2) [(mkFieldWithAttr (mkSpan (mkPtok 42 "trueish" 1 10 3) (mkPtok 40 "," 1 43 6)) [] (ObjectField (mkSpan (mkPtok 42 "trueish" 1 10 3) (mkPtok 40 "," 1 43 6)) None (mkPtok 42 "trueish" 1 10 3) (Some (mkPtok 42 "Header" 1 18 4)) (Some (mkPtok 43 "`// not a comment`" 1 25 5)) (mkPtok 40 "," 1 43 6)))] (mkPtok 3 "}" 2 0 7))); (DPacket (mkPacketDef (mkSpan (mkPtok 34 "root" 2 2 8) (mkPtok 3 "}" 5 4 19)) (Some (mkPtok 34 "root" 2 2 8)) (mkPtok 35 "packet" 2 7 9) (mkPtok 42 "packetx" 2 14 10) (mkPtok 2 "{" 2 22 11) [(mkFieldWithAttr (mkSpan (mkPtok 5 "@calculatedFrom(" 2 24 12) (mkPtok 40 "," 4 26 18)) [(FACalculatedFrom (mkSpan (mkPtok 5 "@calculatedFrom(" 2 24 12) (mkPtok 6 ")" 3 0 14)) (mkCalculatedFrom (mkSpan (mkPtok 5 "@calculatedFrom(" 2 24 12) (mkPtok 6 ")" 3 0 14)) (mkPtok 5 "@calculatedFrom(" 2 24 12) (mkPtok 31 """\n""" 2 41 13) (mkPtok 6 ")" 3 0 14)))] (MetaField (mkSpan (mkPtok 29 "float64" 4 0 15) (mkPtok 40 "," 4 26 18)) None (mkMetaDecl (mkSpan (mkPtok 29 "float64" 4 0 15) (mkPtok 40 "," 4 26 18)) (TyBasic (mkSpan (mkPtok 29 "float64" 4 0 15) (mkPtok 29 "float64" 4 0 15)) (mkBasicType (mkSpan (mkPtok 29 "float64" 4 0 15) (mkPtok 29 "float64" 4 0 15)) (mkPtok 29 "float64" 4 0 15))) (mkPtok 42 "repeatCount" 4 8 16) (Some (mkPtok 43 "`doc`" 4 20 17)) (mkPtok 40 "," 4 26 18))))] (mkPtok 3 "}" 5 4 19))); (DOption (mkOptionDef (mkSpan (mkPtok 1 "options" 5 6 20) (mkPtok 3 "}" 6 2 22)) (mkPtok 1 "options" 5 6 20) (mkPtok 2 "{" 6 0 21) [] (mkPtok 3 "}" 6 2 22)))])).
-Eval vm_compute in ("<<<M1690>>>" ++ check (runes_of_ascii "MetaData _x
-{
-//x
+Eval vm_compute in ("<<<T314>>>" ++ terms [mkTok 34 "root" 1 0 false; mkTok 35 "packet" 2 0 false; mkTok 42 "int" 2 8 false; mkTok 2 "{" 2 12 false; mkTok 5 "@calculatedFrom(" 2 14 false; mkTok 31 """abc""" 3 4 false; mkTok 6 ")" 3 9 false; mkTok 28 "f32" 3 11 false; mkTok 42 "int" 4 4 false; mkTok 5 "@calculatedFrom(" 4 8 false; mkTok 31 """a\\""" 5 0 false; mkTok 6 ")" 5 6 false; mkTok 40 "," 5 8 false; mkTok 7 "@lengthOf(" 5 9 false; mkTok 42 "i8i8" 5 19 false; mkTok 6 ")" 5 24 false; mkTok 32 "@rightPad" 5 26 false; mkTok 8 "(" 5 36 false; mkTok 33 "' '" 5 38 false; mkTok 6 ")" 6 0 false; mkTok 7 "@lengthOf(" 6 2 false; mkTok 42 "MetaDataX" 6 13 false; mkTok 6 ")" 6 22 false; mkTok 14 "zchar[" 6 24 false; mkTok 30 "0" 6 31 false; mkTok 44 "// `tick` ""quote"" 'q'" 7 0 true; mkTok 44 "// `tick` ""quote"" 'q'" 8 0 true; mkTok 13 "]" 9 0 false; mkTok 42 "A" 9 1 false; mkTok 40 "," 10 0 false; mkTok 32 "@rightPad" 10 1 false; mkTok 8 "(" 10 10 false; mkTok 33 "'0'" 10 12 false; mkTok 6 ")" 10 15 false; mkTok 23 "u64" 10 17 false; mkTok 42 "A" 10 21 false; mkTok 5 "@calculatedFrom(" 10 23 false; mkTok 31 """abc""" 11 0 false; mkTok 6 ")" 12 4 false; mkTok 40 "," 12 6 false; mkTok 44 "/// triple" 12 8 true; mkTok 3 "}" 13 0 false; mkTok 37 "MetaData" 13 2 false; mkTok 42 "Logon" 13 11 false; mkTok 2 "{" 13 16 false; mkTok 26 "int32" 13 18 false; mkTok 42 "Header" 13 24 false; mkTok 40 "," 13 31 false; mkTok 24 "i8" 13 33 false; mkTok 44 "// packet A { u8 x, }" 13 36 true; mkTok 42 "i64_" 14 0 false; mkTok 40 "," 14 5 false; mkTok 42 "x_y_z" 14 7 false; mkTok 42 "a1" 14 13 false; mkTok 40 "," 14 16 false; mkTok 42 "trueish" 14 18 false; mkTok 42 "pack" 14 26 false; mkTok 43 (string_of_bytes [96; 99; 114; 108; 102; 13; 10; 108; 105; 110; 101; 96]%N) 14 31 false; mkTok 40 "," 15 6 false; mkTok 12 "char[" 15 8 false; mkTok 30 "1" 15 14 false; mkTok 13 "]" 15 15 false; mkTok 42 "lengthOf" 15 17 false; mkTok 40 "," 15 26 false; mkTok 42 "_x" 15 28 false; mkTok 42 "BodyLength" 15 31 false; mkTok 40 "," 15 41 false; mkTok 3 "}" 15 43 false; mkTok 35 "packet" 15 45 false; mkTok 42 "asx" 15 52 false; mkTok 2 "{" 16 4 false; mkTok 36 "repeat" 16 6 false; mkTok 42 "body" 16 13 false; mkTok 40 "," 17 0 false; mkTok 9 "@tag(" 17 2 false; mkTok 30 "255" 17 8 false; mkTok 6 ")" 17 12 false; mkTok 36 "repeat" 17 13 false; mkTok 44 "// packet A { u8 x, }" 17 20 true; mkTok 12 "char[" 18 0 false; mkTok 30 "3" 18 6 false; mkTok 13 "]" 18 8 false; mkTok 42 "charz" 19 0 false; mkTok 43 "`it's`" 19 6 false; mkTok 44 (string_of_bytes [47; 47; 9; 116]%N) 20 4 true; mkTok 40 "," 21 4 false; mkTok 44 "// c" 22 0 true; mkTok 44 (string_of_bytes [47; 47; 32; 240; 159; 152; 128; 32; 101; 109; 111; 106; 105]%N) 23 0 true; mkTok 42 "o" 24 0 false; mkTok 7 "@lengthOf(" 24 2 false; mkTok 42 "leftPad" 24 12 false; mkTok 6 ")" 24 20 false; mkTok 40 "," 24 23 false; mkTok 14 "zchar[" 24 26 false; mkTok 30 "4294967296" 24 32 false; mkTok 13 "]" 24 43 false; mkTok 42 "body" 24 45 false; mkTok 40 "," 24 49 false; mkTok 32 "@leftPad" 24 50 false; mkTok 8 "(" 24 59 false; mkTok 33 "'\x00'" 25 0 false; mkTok 6 ")" 26 4 false; mkTok 19 "char" 26 5 false; mkTok 42 "u128" 26 10 false; mkTok 40 "," 26 15 false; mkTok 3 "}" 26 16 false; mkTok 35 "packet" 27 0 false; mkTok 42 "chars" 27 7 false; mkTok 2 "{" 27 12 false; mkTok 3 "}" 27 14 false; mkTok 35 "packet" 27 16 false; mkTok 42 "float" 27 23 false; mkTok 44 "//x" 27 29 true; mkTok 2 "{" 28 0 false; mkTok 3 "}" 28 2 false; mkTok 0 "<EOF>" 29 0 false] (mkPacket (mkPtok 34 "root" 1 0 0) (Some (mkPtok 3 "}" 28 2 114)) [(DPacket (mkPacketDef (mkSpan (mkPtok 34 "root" 1 0 0) (mkPtok 3 "}" 13 0 41)) (Some (mkPtok 34 "root" 1 0 0)) (mkPtok 35 "packet" 2 0 1) (mkPtok 42 "int" 2 8 2) (mkPtok 2 "{" 2 12 3) [(mkFieldWithAttr (mkSpan (mkPtok 5 "@calculatedFrom(" 2 14 4) (mkPtok 40 "," 5 8 12)) [(FACalculatedFrom (mkSpan (mkPtok 5 "@calculatedFrom(" 2 14 4) (mkPtok 6 ")" 3 9 6)) (mkCalculatedFrom (mkSpan (mkPtok 5 "@calculatedFrom(" 2 14 4) (mkPtok 6 ")" 3 9 6)) (mkPtok 5 "@calculatedFrom(" 2 14 4) (mkPtok 31 """abc""" 3 4 5) (mkPtok 6 ")" 3 9 6)))] (CheckSumField (mkSpan (mkPtok 28 "f32" 3 11 7) (mkPtok 40 "," 5 8 12)) (mkChecksumFieldDecl (mkSpan (mkPtok 28 "f32" 3 11 7) (mkPtok 40 "," 5 8 12)) (Some (TyBasic (mkSpan (mkPtok 28 "f32" 3 11 7) (mkPtok 28 "f32" 3 11 7)) (mkBasicType (mkSpan (mkPtok 28 "f32" 3 11 7) (mkPtok 28 "f32" 3 11 7)) (mkPtok 28 "f32" 3 11 7)))) (mkPtok 42 "int" 4 4 8) (mkCalculatedFrom (mkSpan (mkPtok 5 "@calculatedFrom(" 4 8 9) (mkPtok 6 ")" 5 6 11)) (mkPtok 5 "@calculatedFrom(" 4 8 9) (mkPtok 31 """a\\""" 5 0 10) (mkPtok 6 ")" 5 6 11)) None (mkPtok 40 "," 5 8 12)))); (mkFieldWithAttr (mkSpan (mkPtok 7 "@lengthOf(" 5 9 13) (mkPtok 40 "," 10 0 29)) [(FALengthOf (mkSpan (mkPtok 7 "@lengthOf(" 5 9 13) (mkPtok 6 ")" 5 24 15)) (mkLengthOf (mkSpan (mkPtok 7 "@lengthOf(" 5 9 13) (mkPtok 6 ")" 5 24 15)) (mkPtok 7 "@lengthOf(" 5 9 13) (mkPtok 42 "i8i8" 5 19 14) (mkPtok 6 ")" 5 24 15))); (FAPadding (mkSpan (mkPtok 32 "@rightPad" 5 26 16) (mkPtok 6 ")" 6 0 19)) (mkPaddingAttr (mkSpan (mkPtok 32 "@rightPad" 5 26 16) (mkPtok 6 ")" 6 0 19)) (mkPtok 32 "@rightPad" 5 26 16) (mkPtok 8 "(" 5 36 17) (Some (mkPtok 33 "' '" 5 38 18)) (mkPtok 6 ")" 6 0 19))); (FALengthOf (mkSpan (mkPtok 7 "@lengthOf(" 6 2 20) (mkPtok 6 ")" 6 22 22)) (mkLengthOf (mkSpan (mkPtok 7 "@lengthOf(" 6 2 20) (mkPtok 6 ")" 6 22 22)) (mkPtok 7 "@lengthOf(" 6 2 20) (mkPtok 42 "MetaDataX" 6 13 21) (mkPtok 6 ")" 6 22 22)))] (MetaField (mkSpan (mkPtok 14 "zchar[" 6 24 23) (mkPtok 40 "," 10 0 29)) None (mkMetaDecl (mkSpan (mkPtok 14 "zchar[" 6 24 23) (mkPtok 40 "," 10 0 29)) (TyFixed (mkSpan (mkPtok 14 "zchar[" 6 24 23) (mkPtok 13 "]" 9 0 27)) (mkFixedString (mkSpan (mkPtok 14 "zchar[" 6 24 23) (mkPtok 13 "]" 9 0 27)) (mkPtok 14 "zchar[" 6 24 23) (mkPtok 30 "0" 6 31 24) (mkPtok 13 "]" 9 0 27))) (mkPtok 42 "A" 9 1 28) None (mkPtok 40 "," 10 0 29)))); (mkFieldWithAttr (mkSpan (mkPtok 32 "@rightPad" 10 1 30) (mkPtok 40 "," 12 6 39)) [(FAPadding (mkSpan (mkPtok 32 "@rightPad" 10 1 30) (mkPtok 6 ")" 10 15 33)) (mkPaddingAttr (mkSpan (mkPtok 32 "@rightPad" 10 1 30) (mkPtok 6 ")" 10 15 33)) (mkPtok 32 "@rightPad" 10 1 30) (mkPtok 8 "(" 10 10 31) (Some (mkPtok 33 "'0'" 10 12 32)) (mkPtok 6 ")" 10 15 33)))] (CheckSumField (mkSpan (mkPtok 23 "u64" 10 17 34) (mkPtok 40 "," 12 6 39)) (mkChecksumFieldDecl (mkSpan (mkPtok 23 "u64" 10 17 34) (mkPtok 40 "," 12 6 39)) (Some (TyBasic (mkSpan (mkPtok 23 "u64" 10 17 34) (mkPtok 23 "u64" 10 17 34)) (mkBasicType (mkSpan (mkPtok 23 "u64" 10 17 34) (mkPtok 23 "u64" 10 17 34)) (mkPtok 23 "u64" 10 17 34)))) (mkPtok 42 "A" 10 21 35) (mkCalculatedFrom (mkSpan (mkPtok 5 "@calculatedFrom(" 10 23 36) (mkPtok 6 ")" 12 4 38)) (mkPtok 5 "@calculatedFrom(" 10 23 36) (mkPtok 31 """abc""" 11 0 37) (mkPtok 6 ")" 12 4 38)) None (mkPtok 40 "," 12 6 39))))] (mkPtok 3 "}" 13 0 41))); (DMeta (mkMetaDef (mkSpan (mkPtok 37 "MetaData" 13 2 42) (mkPtok 3 "}" 15 43 67)) (mkPtok 37 "MetaData" 13 2 42) (mkPtok 42 "Logon" 13 11 43) (mkPtok 2 "{" 13 16 44) [(MIDecl (mkMetaDecl (mkSpan (mkPtok 26 "int32" 13 18 45) (mkPtok 40 "," 13 31 47)) (TyBasic (mkSpan (mkPtok 26 "int32" 13 18 45) (mkPtok 26 "int32" 13 18 45)) (mkBasicType (mkSpan (mkPtok 26 "int32" 13 18 45) (mkPtok 26 "int32" 13 18 45)) (mkPtok 26 "int32" 13 18 45))) (mkPtok 42 "Header" 13 24 46) None (mkPtok 40 "," 13 31 47))); (MIDecl (mkMetaDecl (mkSpan (mkPtok 24 "i8" 13 33 48) (mkPtok 40 "," 14 5 51)) (TyBasic (mkSpan (mkPtok 24 "i8" 13 33 48) (mkPtok 24 "i8" 13 33 48)) (mkBasicType (mkSpan (mkPtok 24 "i8" 13 33 48) (mkPtok 24 "i8" 13 33 48)) (mkPtok 24 "i8" 13 33 48))) (mkPtok 42 "i64_" 14 0 50) None (mkPtok 40 "," 14 5 51))); (MIRef (mkRefMetaDecl (mkSpan (mkPtok 42 "x_y_z" 14 7 52) (mkPtok 40 "," 14 16 54)) (mkPtok 42 "x_y_z" 14 7 52) (mkPtok 42 "a1" 14 13 53) None (mkPtok 40 "," 14 16 54))); (MIRef (mkRefMetaDecl (mkSpan (mkPtok 42 "trueish" 14 18 55) (mkPtok 40 "," 15 6 58)) (mkPtok 42 "trueish" 14 18 55) (mkPtok 42 "pack" 14 26 56) (Some (mkPtok 43 (string_of_bytes [96; 99; 114; 108; 102; 13; 10; 108; 105; 110; 101; 96]%N) 14 31 57)) (mkPtok 40 "," 15 6 58))); (MIDecl (mkMetaDecl (mkSpan (mkPtok 12 "char[" 15 8 59) (mkPtok 40 "," 15 26 63)) (TyFixed (mkSpan (mkPtok 12 "char[" 15 8 59) (mkPtok 13 "]" 15 15 61)) (mkFixedString (mkSpan (mkPtok 12 "char[" 15 8 59) (mkPtok 13 "]" 15 15 61)) (mkPtok 12 "char[" 15 8 59) (mkPtok 30 "1" 15 14 60) (mkPtok 13 "]" 15 15 61))) (mkPtok 42 "lengthOf" 15 17 62) None (mkPtok 40 "," 15 26 63))); (MIRef (mkRefMetaDecl (mkSpan (mkPtok 42 "_x" 15 28 64) (mkPtok 40 "," 15 41 66)) (mkPtok 42 "_x" 15 28 64) (mkPtok 42 "BodyLength" 15 31 65) None (mkPtok 40 "," 15 41 66)))] (mkPtok 3 "}" 15 43 67))); (DPacket (mkPacketDef (mkSpan (mkPtok 35 "packet" 15 45 68) (mkPtok 3 "}" 26 16 105)) None (mkPtok 35 "packet" 15 45 68) (mkPtok 42 "asx" 15 52 69) (mkPtok 2 "{" 16 4 70) [(mkFieldWithAttr (mkSpan (mkPtok 36 "repeat" 16 6 71) (mkPtok 40 "," 17 0 73)) [] (ObjectField (mkSpan (mkPtok 36 "repeat" 16 6 71) (mkPtok 40 "," 17 0 73)) (Some (mkPtok 36 "repeat" 16 6 71)) (mkPtok 42 "body" 16 13 72) None None (mkPtok 40 "," 17 0 73))); (mkFieldWithAttr (mkSpan (mkPtok 9 "@tag(" 17 2 74) (mkPtok 40 "," 21 4 85)) [(FATag (mkSpan (mkPtok 9 "@tag(" 17 2 74) (mkPtok 6 ")" 17 12 76)) (mkTagAttr (mkSpan (mkPtok 9 "@tag(" 17 2 74) (mkPtok 6 ")" 17 12 76)) (mkPtok 9 "@tag(" 17 2 74) (mkPtok 30 "255" 17 8 75) (mkPtok 6 ")" 17 12 76)))] (MetaField (mkSpan (mkPtok 36 "repeat" 17 13 77) (mkPtok 40 "," 21 4 85)) (Some (mkPtok 36 "repeat" 17 13 77)) (mkMetaDecl (mkSpan (mkPtok 12 "char[" 18 0 79) (mkPtok 40 "," 21 4 85)) (TyFixed (mkSpan (mkPtok 12 "char[" 18 0 79) (mkPtok 13 "]" 18 8 81)) (mkFixedString (mkSpan (mkPtok 12 "char[" 18 0 79) (mkPtok 13 "]" 18 8 81)) (mkPtok 12 "char[" 18 0 79) (mkPtok 30 "3" 18 6 80) (mkPtok 13 "]" 18 8 81))) (mkPtok 42 "charz" 19 0 82) (Some (mkPtok 43 "`it's`" 19 6 83)) (mkPtok 40 "," 21 4 85)))); (mkFieldWithAttr (mkSpan (mkPtok 42 "o" 24 0 88) (mkPtok 40 "," 24 23 92)) [] (LengthField (mkSpan (mkPtok 42 "o" 24 0 88) (mkPtok 40 "," 24 23 92)) (mkLengthFieldDecl (mkSpan (mkPtok 42 "o" 24 0 88) (mkPtok 40 "," 24 23 92)) None (mkPtok 42 "o" 24 0 88) (mkLengthOf (mkSpan (mkPtok 7 "@lengthOf(" 24 2 89) (mkPtok 6 ")" 24 20 91)) (mkPtok 7 "@lengthOf(" 24 2 89) (mkPtok 42 "leftPad" 24 12 90) (mkPtok 6 ")" 24 20 91)) None (mkPtok 40 "," 24 23 92)))); (mkFieldWithAttr (mkSpan (mkPtok 14 "zchar[" 24 26 93) (mkPtok 40 "," 24 49 97)) [] (MetaField (mkSpan (mkPtok 14 "zchar[" 24 26 93) (mkPtok 40 "," 24 49 97)) None (mkMetaDecl (mkSpan (mkPtok 14 "zchar[" 24 26 93) (mkPtok 40 "," 24 49 97)) (TyFixed (mkSpan (mkPtok 14 "zchar[" 24 26 93) (mkPtok 13 "]" 24 43 95)) (mkFixedString (mkSpan (mkPtok 14 "zchar[" 24 26 93) (mkPtok 13 "]" 24 43 95)) (mkPtok 14 "zchar[" 24 26 93) (mkPtok 30 "4294967296" 24 32 94) (mkPtok 13 "]" 24 43 95))) (mkPtok 42 "body" 24 45 96) None (mkPtok 40 "," 24 49 97)))); (mkFieldWithAttr (mkSpan (mkPtok 32 "@leftPad" 24 50 98) (mkPtok 40 "," 26 15 104)) [(FAPadding (mkSpan (mkPtok 32 "@leftPad" 24 50 98) (mkPtok 6 ")" 26 4 101)) (mkPaddingAttr (mkSpan (mkPtok 32 "@leftPad" 24 50 98) (mkPtok 6 ")" 26 4 101)) (mkPtok 32 "@leftPad" 24 50 98) (mkPtok 8 "(" 24 59 99) (Some (mkPtok 33 "'\x00'" 25 0 100)) (mkPtok 6 ")" 26 4 101)))] (MetaField (mkSpan (mkPtok 19 "char" 26 5 102) (mkPtok 40 "," 26 15 104)) None (mkMetaDecl (mkSpan (mkPtok 19 "char" 26 5 102) (mkPtok 40 "," 26 15 104)) (TyBasic (mkSpan (mkPtok 19 "char" 26 5 102) (mkPtok 19 "char" 26 5 102)) (mkBasicType (mkSpan (mkPtok 19 "char" 26 5 102) (mkPtok 19 "char" 26 5 102)) (mkPtok 19 "char" 26 5 102))) (mkPtok 42 "u128" 26 10 103) None (mkPtok 40 "," 26 15 104))))] (mkPtok 3 "}" 26 16 105))); (DPacket (mkPacketDef (mkSpan (mkPtok 35 "packet" 27 0 106) (mkPtok 3 "}" 27 14 109)) None (mkPtok 35 "packet" 27 0 106) (mkPtok 42 "chars" 27 7 107) (mkPtok 2 "{" 27 12 108) [] (mkPtok 3 "}" 27 14 109))); (DPacket (mkPacketDef (mkSpan (mkPtok 35 "packet" 27 16 110) (mkPtok 3 "}" 28 2 114)) None (mkPtok 35 "packet" 27 16 110) (mkPtok 42 "float" 27 23 111) (mkPtok 2 "{" 28 0 113) [] (mkPtok 3 "}" 28 2 114)))])).
+Eval vm_compute in ("<<<M346>>>" ++ check (runes_of_ascii "
+packet
+//
 // " ++ [128512]%N ++ runes_of_ascii " emoji
-f32a
-f32a ,
+T {
+char[] repeatCount @lengthOf( a1 ) `u8 x,`
+, /// triple
 }
-root // packet A { u8 x, }
-packet
-stringy{@lengthOf(
-leftPad ) match trueish as rootA { """ ++ [128512]%N ++ runes_of_ascii """ :  falsey} ,
-}	root packet  Pad { @lengthOf(tag) u16
-// a // b
-// packet A { u8 x, }
-rootA `// not a comment`
-    //	t
-    ,	int64
-    u8x	, @calculatedFrom( ""{,}""
-    ) char
-matchKey // " ++ [27880; 37322]%N ++ runes_of_ascii "
-`crlf
-line`, Packet
-    { Packet @calculatedFrom( ""x y"" )
-, repeat uint64 Foo ,}  , Z9_
-    /// triple
-    @calculatedFrom(
-    ""\n""
-    )	`it's` ,  u128 calculatedFrom , i16 len@calculatedFrom(
-""\n"" )`two words`
-    /// triple
-    ,}")).
-Eval vm_compute in ("<<<M1722>>>" ++ check (runes_of_ascii "//x
-options {
-    zchar
-=
-// " ++ [128512]%N ++ runes_of_ascii " emoji
-// `tick` ""quote"" 'q'
-""a	b"" ;
-    As  =
-' '	f32a
-//x
-// " ++ [128512]%N ++ runes_of_ascii " emoji
-= 4294967296 ; } 	 ")).
-Eval vm_compute in ("<<<M1754>>>" ++ check (runes_of_ascii "MetaData options1
-{
-    u8 pack `it's`
-    // `tick` ""quote"" 'q'
-    ,char[]
-A
-    /// triple
-    ,
-zchar[ 42 ] msg_type // packet A { u8 x, }
-,
-    }options { Foo=42
-; lengthOf =//
-true matchKey = true ; msg_type
-= ""1"" } MetaData  lengthOf
-    // " ++ [128512]%N ++ runes_of_ascii " emoji
-    { trueish packetx,
-}options {
-    Z9_ = ""abc"" ; /// triple
-stringy
-=""" ++ [128512]%N ++ runes_of_ascii """
-body
-// packet A { u8 x, }
-// packet A { u8 x, }
-=""it's""
-;
-    } 	 ")).
-Eval vm_compute in ("<<<M1786>>>" ++ check (runes_of_ascii "root packet _x
-{ @leftPad(
-'\x00' )	float32 x_y_z	`crlf
-line` ,
-    x_y_z@calculatedFrom( ""a	b""
-    ) ``, char[ 42 ]
-    u128	, repeat /// triple
-float64 roots	,f32a // " ++ [27880; 37322]%N ++ runes_of_ascii "
-, i8i8 @lengthOf( charz ) , // packet A { u8 x, }
-falsey
-    @calculatedFrom( ""x y"" ) , string
-Foo, } //x")).
-Eval vm_compute in ("<<<M1818>>>" ++ check (runes_of_ascii "packet  leftPad
-    { repeatCount @calculatedFrom(
-    """ ++ [28040; 24687]%N ++ runes_of_ascii """) , @tag(
-10 ) @leftPad//x
-('0' // " ++ [128512]%N ++ runes_of_ascii " emoji
-) repeat
-uint64 Z9_ `{ , }`,	repeat i64_
-    len ,}options {msg_type =
-    char[4294967296 ] ;i8i8 = int16 string_ = zchar[ 007] ;f32a
-=""a	b"" f32a =
-""\" ++ [233]%N ++ runes_of_ascii """ ; } // a // b")).
-Eval vm_compute in ("<<<M1850>>>" ++ check (runes_of_ascii "// packet A { u8 x, }
-packet
-    stringy //
-{
-T // @lengthOf(
-{	repeat int16
-    //
-    asx `u8 x,`  , }
-,@lengthOf(
-    pack  ) @lengthOf(
-trueish ) @calculatedFrom( ""{,}"" )repeat char[] zchar ,stringy asx , } packet Pad { @calculatedFrom(""a	b"" ) @calculatedFrom(
-""{,}""
-) float
-@lengthOf(
-    metadata
-) , As , @calculatedFrom(""a\""b""
-)
-    u8 Z9_ `a\` ,
-    chars asx , int
-{uint64 Foo @lengthOf( lengthOf )`it's`
-,
-    repeat string stringy , }, zchar[	1 ] Z9_ // @lengthOf(
-@lengthOf(rootA
-    ) `line1
-line2`//	t
-, @tag(00
-) repeat metadata  { uint8x@lengthOf(int )
-    `{ , }`
-, } //x
-, @tag(
-0)pack {match // trailing space 
-u as
-    Logon {
-65535 :
-float , [ """ ++ [28040; 24687]%N ++ runes_of_ascii """ ] : chars, }
-    ,i8i8
-    @calculatedFrom( // " ++ [27880; 37322]%N ++ runes_of_ascii "
-""it's"" )`two words` ,	msg_type
-@lengthOf(
-asx
-)
-    ,
-    } , } 	 ")).
-Eval vm_compute in ("<<<M1882>>>" ++ check (runes_of_ascii "MetaData	zchar{ u16 chars ,	} MetaData int
-{ MetaDataX asx `doc` ,char[ 3
-] a1, uint8	BodyLength `" ++ [28040; 24687; 31867; 22411]%N ++ runes_of_ascii "` , zchar[
-0123456789]// c
-As, //x
-charz Packet , char[] matchKey `crlf
-line`,}
-MetaData  A
-{
-    i16
-chars
-// @lengthOf(
-// `tick` ""quote"" 'q'
-``
-    ,
-body u8x `" ++ [28040; 24687; 31867; 22411]%N ++ runes_of_ascii "` ,
-// @lengthOf(
-// @lengthOf(
-char[]
-// `tick` ""quote"" 'q'
-/// triple
-u128
-    //	t
-    `a\` ,
-    }
 ")).
-Eval vm_compute in ("<<<T1882>>>" ++ terms [mkTok 37 "MetaData" 1 0 false; mkTok 42 "zchar" 1 9 false; mkTok 2 "{" 1 14 false; mkTok 21 "u16" 1 16 false; mkTok 42 "chars" 1 20 false; mkTok 40 "," 1 26 false; mkTok 3 "}" 1 28 false; mkTok 37 "MetaData" 1 30 false; mkTok 42 "int" 1 39 false; mkTok 2 "{" 2 0 false; mkTok 42 "MetaDataX" 2 2 false; mkTok 42 "asx" 2 12 false; mkTok 43 "`doc`" 2 16 false; mkTok 40 "," 2 22 false; mkTok 12 "char[" 2 23 false; mkTok 30 "3" 2 29 false; mkTok 13 "]" 3 0 false; mkTok 42 "a1" 3 2 false; mkTok 40 "," 3 4 false; mkTok 20 "uint8" 3 6 false; mkTok 42 "BodyLength" 3 12 false; mkTok 43 (string_of_bytes [96; 230; 182; 136; 230; 129; 175; 231; 177; 187; 229; 158; 139; 96]%N) 3 23 false; mkTok 40 "," 3 30 false; mkTok 14 "zchar[" 3 32 false; mkTok 30 "0123456789" 4 0 false; mkTok 13 "]" 4 10 false; mkTok 44 "// c" 4 11 true; mkTok 42 "As" 5 0 false; mkTok 40 "," 5 2 false; mkTok 44 "//x" 5 4 true; mkTok 42 "charz" 6 0 false; mkTok 42 "Packet" 6 6 false; mkTok 40 "," 6 13 false; mkTok 16 "char[]" 6 15 false; mkTok 42 "matchKey" 6 22 false; mkTok 43 (string_of_bytes [96; 99; 114; 108; 102; 13; 10; 108; 105; 110; 101; 96]%N) 6 31 false; mkTok 40 "," 7 5 false; mkTok 3 "}" 7 6 false; mkTok 37 "MetaData" 8 0 false; mkTok 42 "A" 8 10 false; mkTok 2 "{" 9 0 false; mkTok 25 "i16" 10 4 false; mkTok 42 "chars" 11 0 false; mkTok 44 "// @lengthOf(" 12 0 true; mkTok 44 "// `tick` ""quote"" 'q'" 13 0 true; mkTok 43 "``" 14 0 false; mkTok 40 "," 15 4 false; mkTok 42 "body" 16 0 false; mkTok 42 "u8x" 16 5 false; mkTok 43 (string_of_bytes [96; 230; 182; 136; 230; 129; 175; 231; 177; 187; 229; 158; 139; 96]%N) 16 9 false; mkTok 40 "," 16 16 false; mkTok 44 "// @lengthOf(" 17 0 true; mkTok 44 "// @lengthOf(" 18 0 true; mkTok 16 "char[]" 19 0 false; mkTok 44 "// `tick` ""quote"" 'q'" 20 0 true; mkTok 44 "/// triple" 21 0 true; mkTok 42 "u128" 22 0 false; mkTok 44 (string_of_bytes [47; 47; 9; 116]%N) 23 4 true; mkTok 43 "`a\`" 24 4 false; mkTok 40 "," 24 9 false; mkTok 3 "}" 25 4 false; mkTok 0 "<EOF>" 26 0 false] (mkPacket (mkPtok 37 "MetaData" 1 0 0) (Some (mkPtok 3 "}" 25 4 60)) [(DMeta (mkMetaDef (mkSpan (mkPtok 37 "MetaData" 1 0 0) (mkPtok 3 "}" 1 28 6)) (mkPtok 37 "MetaData" 1 0 0) (mkPtok 42 "zchar" 1 9 1) (mkPtok 2 "{" 1 14 2) [(MIDecl (mkMetaDecl (mkSpan (mkPtok 21 "u16" 1 16 3) (mkPtok 40 "," 1 26 5)) (TyBasic (mkSpan (mkPtok 21 "u16" 1 16 3) (mkPtok 21 "u16" 1 16 3)) (mkBasicType (mkSpan (mkPtok 21 "u16" 1 16 3) (mkPtok 21 "u16" 1 16 3)) (mkPtok 21 "u16" 1 16 3))) (mkPtok 42 "chars" 1 20 4) None (mkPtok 40 "," 1 26 5)))] (mkPtok 3 "}" 1 28 6))); (DMeta (mkMetaDef (mkSpan (mkPtok 37 "MetaData" 1 30 7) (mkPtok 3 "}" 7 6 37)) (mkPtok 37 "MetaData" 1 30 7) (mkPtok 42 "int" 1 39 8) (mkPtok 2 "{" 2 0 9) [(MIRef (mkRefMetaDecl (mkSpan (mkPtok 42 "MetaDataX" 2 2 10) (mkPtok 40 "," 2 22 13)) (mkPtok 42 "MetaDataX" 2 2 10) (mkPtok 42 "asx" 2 12 11) (Some (mkPtok 43 "`doc`" 2 16 12)) (mkPtok 40 "," 2 22 13))); (MIDecl (mkMetaDecl (mkSpan (mkPtok 12 "char[" 2 23 14) (mkPtok 40 "," 3 4 18)) (TyFixed (mkSpan (mkPtok 12 "char[" 2 23 14) (mkPtok 13 "]" 3 0 16)) (mkFixedString (mkSpan (mkPtok 12 "char[" 2 23 14) (mkPtok 13 "]" 3 0 16)) (mkPtok 12 "char[" 2 23 14) (mkPtok 30 "3" 2 29 15) (mkPtok 13 "]" 3 0 16))) (mkPtok 42 "a1" 3 2 17) None (mkPtok 40 "," 3 4 18))); (MIDecl (mkMetaDecl (mkSpan (mkPtok 20 "uint8" 3 6 19) (mkPtok 40 "," 3 30 22)) (TyBasic (mkSpan (mkPtok 20 "uint8" 3 6 19) (mkPtok 20 "uint8" 3 6 19)) (mkBasicType (mkSpan (mkPtok 20 "uint8" 3 6 19) (mkPtok 20 "uint8" 3 6 19)) (mkPtok 20 "uint8" 3 6 19))) (mkPtok 42 "BodyLength" 3 12 20) (Some (mkPtok 43 (string_of_bytes [96; 230; 182; 136; 230; 129; 175; 231; 177; 187; 229; 158; 139; 96]%N) 3 23 21)) (mkPtok 40 "," 3 30 22))); (MIDecl (mkMetaDecl (mkSpan (mkPtok 14 "zchar[" 3 32 23) (mkPtok 40 "," 5 2 28)) (TyFixed (mkSpan (mkPtok 14 "zchar[" 3 32 23) (mkPtok 13 "]" 4 10 25)) (mkFixedString (mkSpan (mkPtok 14 "zchar[" 3 32 23) (mkPtok 13 "]" 4 10 25)) (mkPtok 14 "zchar[" 3 32 23) (mkPtok 30 "0123456789" 4 0 24) (mkPtok 13 "]" 4 10 25))) (mkPtok 42 "As" 5 0 27) None (mkPtok 40 "," 5 2 28))); (MIRef (mkRefMetaDecl (mkSpan (mkPtok 42 "charz" 6 0 30) (mkPtok 40 "," 6 13 32)) (mkPtok 42 "charz" 6 0 30) (mkPtok 42 "Packet" 6 6 31) None (mkPtok 40 "," 6 13 32))); (MIDecl (mkMetaDecl (mkSpan (mkPtok 16 "char[]" 6 15 33) (mkPtok 40 "," 7 5 36)) (TyDynamic (mkSpan (mkPtok 16 "char[]" 6 15 33) (mkPtok 16 "char[]" 6 15 33)) (mkDynamicString (mkSpan (mkPtok 16 "char[]" 6 15 33) (mkPtok 16 "char[]" 6 15 33)) (mkPtok 16 "char[]" 6 15 33))) (mkPtok 42 "matchKey" 6 22 34) (Some (mkPtok 43 (string_of_bytes [96; 99; 114; 108; 102; 13; 10; 108; 105; 110; 101; 96]%N) 6 31 35)) (mkPtok 40 "," 7 5 36)))] (mkPtok 3 "}" 7 6 37))); (DMeta (mkMetaDef (mkSpan (mkPtok 37 "MetaData" 8 0 38) (mkPtok 3 "}" 25 4 60)) (mkPtok 37 "MetaData" 8 0 38) (mkPtok 42 "A" 8 10 39) (mkPtok 2 "{" 9 0 40) [(MIDecl (mkMetaDecl (mkSpan (mkPtok 25 "i16" 10 4 41) (mkPtok 40 "," 15 4 46)) (TyBasic (mkSpan (mkPtok 25 "i16" 10 4 41) (mkPtok 25 "i16" 10 4 41)) (mkBasicType (mkSpan (mkPtok 25 "i16" 10 4 41) (mkPtok 25 "i16" 10 4 41)) (mkPtok 25 "i16" 10 4 41))) (mkPtok 42 "chars" 11 0 42) (Some (mkPtok 43 "``" 14 0 45)) (mkPtok 40 "," 15 4 46))); (MIRef (mkRefMetaDecl (mkSpan (mkPtok 42 "body" 16 0 47) (mkPtok 40 "," 16 16 50)) (mkPtok 42 "body" 16 0 47) (mkPtok 42 "u8x" 16 5 48) (Some (mkPtok 43 (string_of_bytes [96; 230; 182; 136; 230; 129; 175; 231; 177; 187; 229; 158; 139; 96]%N) 16 9 49)) (mkPtok 40 "," 16 16 50))); (MIDecl (mkMetaDecl (mkSpan (mkPtok 16 "char[]" 19 0 53) (mkPtok 40 "," 24 9 59)) (TyDynamic (mkSpan (mkPtok 16 "char[]" 19 0 53) (mkPtok 16 "char[]" 19 0 53)) (mkDynamicString (mkSpan (mkPtok 16 "char[]" 19 0 53) (mkPtok 16 "char[]" 19 0 53)) (mkPtok 16 "char[]" 19 0 53))) (mkPtok 42 "u128" 22 0 56) (Some (mkPtok 43 "`a\`" 24 4 58)) (mkPtok 40 "," 24 9 59)))] (mkPtok 3 "}" 25 4 60)))])).
-Eval vm_compute in ("<<<M1914>>>" ++ check (runes_of_ascii "
-packet zchar{  @lengthOf(
-int ) i16
-    Logon
-    @lengthOf(	len
-)//x
-`say ""hi""`
+Eval vm_compute in ("<<<M378>>>" ++ check (runes_of_ascii "root packet leftPad { @calculatedFrom( ""1""
+    // " ++ [128512]%N ++ runes_of_ascii " emoji
+    )
+@lengthOf(	stringy) @calculatedFrom(
+""it's"" )x @lengthOf(u)
+    `doc` , @leftPad() repeat i64_ {packetx `{ , }`  ,
+    }	,
+repeat u128
+    { repeat matchKey
+, zchar[ 7 // trailing space 
+]matchKey
+, // " ++ [27880; 37322]%N ++ runes_of_ascii "
+i8
+Packet@calculatedFrom( ""1""  ),
+} , // c
+char[]
+int
+    @lengthOf(
+x_y_z  ) , // a // b
+}MetaData
+Logon { u64 falsey
+,char[ 3 ] T , stringy float , char[ 7] Pad
+    , zchar[0
+]
+    // @lengthOf(
+    BodyLength ,}
+
+")).
+Eval vm_compute in ("<<<M410>>>" ++ check (runes_of_ascii "options
+    { }
+
+")).
+Eval vm_compute in ("<<<M442>>>" ++ check (runes_of_ascii " 	 ")).
+Eval vm_compute in ("<<<M474>>>" ++ check (runes_of_ascii "
+root
+    packet metadata
+{ }
+
+")).
+Eval vm_compute in ("<<<M506>>>" ++ check (runes_of_ascii "packet tag {
+    @tag(
+65535
+) calculatedFrom @calculatedFrom( ""abc"" )`crlf
+line`,
+@calculatedFrom(""\n"" )_x @calculatedFrom( ""CRC32"" )
+,
+u16  body @calculatedFrom(
+""\" ++ [233]%N ++ runes_of_ascii """
+    // c
+    ) ,
+zchar[ 0
+// `tick` ""quote"" 'q'
+// c
+] Header
+@calculatedFrom(  """ ++ [128512]%N ++ runes_of_ascii """// 50% %s
+) `// not a comment`
+    // a // b
+    , repeat lengthOf ,	repeat char[] uint8x `line1
+line2`
+    //
+    , @tag(4294967296)match lengthOf as crc{[
+0
+] :Logon """ ++ [128512]%N ++ runes_of_ascii """ :
+//	t
+//x
+Foo , // " ++ [27880; 37322]%N ++ runes_of_ascii "
+""packet"" :
+    calculatedFrom, }, int64 leftPad , }packet x { match
+roots
+as u8x{
+65535: trueish, ""a	b""
+: zchar
+    ,
+255	: Logon ,1 : string_ ,
+    } , repeat i8i8  { string Logon
+,
+    metadata , repeat T	, }
+    , repeat //
+Header`" ++ [233]%N ++ runes_of_ascii "` , metadata trueish `{ , }`
+// packet A { u8 x, }
+// a // b
+,
+    leftPad _x `it's` , @tag( 7
+    )// packet A { u8 x, }
+char[] Packet @lengthOf( //x
+leftPad )
+`" ++ [233]%N ++ runes_of_ascii "`  , match Logon
+as options1 { [ ""abc"" // 50% %s
+] : pack
+""" ++ [233]%N ++ runes_of_ascii "t" ++ [233]%N ++ runes_of_ascii """
+// `tick` ""quote"" 'q'
+// c
+:metadata
+    ,
+    ""a\\"" :
+    _x , } , } packet
+string_
+{Pad  @calculatedFrom( """"
+    ) `tab	here`, @lengthOf( u  ) len  @calculatedFrom(
+//x
+//x
+""// no comment"" )
+`{ , }`  ,
+@leftPad/// triple
+( '0' )
+    tag
+@lengthOf( calculatedFrom )
+,
+    repeat uint64 metadata `u8 x,`
+    // " ++ [128512]%N ++ runes_of_ascii " emoji
+    , } root packet
+T // trailing space 
+{ @rightPad
+// " ++ [27880; 37322]%N ++ runes_of_ascii "
+//
+(  ' ' )
+    repeat float chars , repeat
+char[] //
+options1, }
+")).
+Eval vm_compute in ("<<<M538>>>" ++ check (runes_of_ascii "// " ++ [27880; 37322]%N ++ runes_of_ascii "
+packet //x
+float
+    { }options
+{ Logon =
+    """ ++ [233]%N ++ runes_of_ascii "t" ++ [233]%N ++ runes_of_ascii """
+    ; body = ""abc"" ; falsey= ""{,}""
+    /// triple
+    } packet matchKey { packetx@lengthOf(i64_ ) , @calculatedFrom( ""\" ++ [233]%N ++ runes_of_ascii """ )
+u64
+//x
+// c
+MetaDataX @lengthOf(
+    Foo
+)
+    , repeat pack
+{	u
+    //	t
+    msg_type , } , match u as
+    calculatedFrom {""1"": MetaDataX , """ ++ [233]%N ++ runes_of_ascii "t" ++ [233]%N ++ runes_of_ascii """
+    :len	,} ,
+@leftPad(
+'\x00' ) @calculatedFrom(""\n"" // trailing space 
+) falsey
+    ,
+    @lengthOf(
+charz ) i64 crc`
+`	,// @lengthOf(
+} packet charz
+    { }
+
+")).
+Eval vm_compute in ("<<<T538>>>" ++ terms [mkTok 44 (string_of_bytes [47; 47; 32; 230; 179; 168; 233; 135; 138]%N) 1 0 true; mkTok 35 "packet" 2 0 false; mkTok 44 "//x" 2 7 true; mkTok 42 "float" 3 0 false; mkTok 2 "{" 4 4 false; mkTok 3 "}" 4 6 false; mkTok 1 "options" 4 7 false; mkTok 2 "{" 5 0 false; mkTok 42 "Logon" 5 2 false; mkTok 4 "=" 5 8 false; mkTok 31 (string_of_bytes [34; 195; 169; 116; 195; 169; 34]%N) 6 4 false; mkTok 41 ";" 7 4 false; mkTok 42 "body" 7 6 false; mkTok 4 "=" 7 11 false; mkTok 31 """abc""" 7 13 false; mkTok 41 ";" 7 19 false; mkTok 42 "falsey" 7 21 false; mkTok 4 "=" 7 27 false; mkTok 31 """{,}""" 7 29 false; mkTok 44 "/// triple" 8 4 true; mkTok 3 "}" 9 4 false; mkTok 35 "packet" 9 6 false; mkTok 42 "matchKey" 9 13 false; mkTok 2 "{" 9 22 false; mkTok 42 "packetx" 9 24 false; mkTok 7 "@lengthOf(" 9 31 false; mkTok 42 "i64_" 9 41 false; mkTok 6 ")" 9 46 false; mkTok 40 "," 9 48 false; mkTok 5 "@calculatedFrom(" 9 50 false; mkTok 31 (string_of_bytes [34; 92; 195; 169; 34]%N) 9 67 false; mkTok 6 ")" 9 72 false; mkTok 23 "u64" 10 0 false; mkTok 44 "//x" 11 0 true; mkTok 44 "// c" 12 0 true; mkTok 42 "MetaDataX" 13 0 false; mkTok 7 "@lengthOf(" 13 10 false; mkTok 42 "Foo" 14 4 false; mkTok 6 ")" 15 0 false; mkTok 40 "," 16 4 false; mkTok 36 "repeat" 16 6 false; mkTok 42 "pack" 16 13 false; mkTok 2 "{" 17 0 false; mkTok 42 "u" 17 2 false; mkTok 44 (string_of_bytes [47; 47; 9; 116]%N) 18 4 true; mkTok 42 "msg_type" 19 4 false; mkTok 40 "," 19 13 false; mkTok 3 "}" 19 15 false; mkTok 40 "," 19 17 false; mkTok 38 "match" 19 19 false; mkTok 42 "u" 19 25 false; mkTok 17 "as" 19 27 false; mkTok 42 "calculatedFrom" 20 4 false; mkTok 2 "{" 20 19 false; mkTok 31 """1""" 20 20 false; mkTok 39 ":" 20 23 false; mkTok 42 "MetaDataX" 20 25 false; mkTok 40 "," 20 35 false; mkTok 31 (string_of_bytes [34; 195; 169; 116; 195; 169; 34]%N) 20 37 false; mkTok 39 ":" 21 4 false; mkTok 42 "len" 21 5 false; mkTok 40 "," 21 9 false; mkTok 3 "}" 21 10 false; mkTok 40 "," 21 12 false; mkTok 32 "@leftPad" 22 0 false; mkTok 8 "(" 22 8 false; mkTok 33 "'\x00'" 23 0 false; mkTok 6 ")" 23 7 false; mkTok 5 "@calculatedFrom(" 23 9 false; mkTok 31 """\n""" 23 25 false; mkTok 44 "// trailing space " 23 30 true; mkTok 6 ")" 24 0 false; mkTok 42 "falsey" 24 2 false; mkTok 40 "," 25 4 false; mkTok 7 "@lengthOf(" 26 4 false; mkTok 42 "charz" 27 0 false; mkTok 6 ")" 27 6 false; mkTok 27 "i64" 27 8 false; mkTok 42 "crc" 27 12 false; mkTok 43 (string_of_bytes [96; 10; 96]%N) 27 15 false; mkTok 40 "," 28 2 false; mkTok 44 "// @lengthOf(" 28 3 true; mkTok 3 "}" 29 0 false; mkTok 35 "packet" 29 2 false; mkTok 42 "charz" 29 9 false; mkTok 2 "{" 30 4 false; mkTok 3 "}" 30 6 false; mkTok 0 "<EOF>" 32 0 false] (mkPacket (mkPtok 35 "packet" 2 0 1) (Some (mkPtok 3 "}" 30 6 86)) [(DPacket (mkPacketDef (mkSpan (mkPtok 35 "packet" 2 0 1) (mkPtok 3 "}" 4 6 5)) None (mkPtok 35 "packet" 2 0 1) (mkPtok 42 "float" 3 0 3) (mkPtok 2 "{" 4 4 4) [] (mkPtok 3 "}" 4 6 5))); (DOption (mkOptionDef (mkSpan (mkPtok 1 "options" 4 7 6) (mkPtok 3 "}" 9 4 20)) (mkPtok 1 "options" 4 7 6) (mkPtok 2 "{" 5 0 7) [(mkOptionDecl (mkSpan (mkPtok 42 "Logon" 5 2 8) (mkPtok 41 ";" 7 4 11)) (mkPtok 42 "Logon" 5 2 8) (mkPtok 4 "=" 5 8 9) (VString (mkSpan (mkPtok 31 (string_of_bytes [34; 195; 169; 116; 195; 169; 34]%N) 6 4 10) (mkPtok 31 (string_of_bytes [34; 195; 169; 116; 195; 169; 34]%N) 6 4 10)) (mkPtok 31 (string_of_bytes [34; 195; 169; 116; 195; 169; 34]%N) 6 4 10)) (Some (mkPtok 41 ";" 7 4 11))); (mkOptionDecl (mkSpan (mkPtok 42 "body" 7 6 12) (mkPtok 41 ";" 7 19 15)) (mkPtok 42 "body" 7 6 12) (mkPtok 4 "=" 7 11 13) (VString (mkSpan (mkPtok 31 """abc""" 7 13 14) (mkPtok 31 """abc""" 7 13 14)) (mkPtok 31 """abc""" 7 13 14)) (Some (mkPtok 41 ";" 7 19 15))); (mkOptionDecl (mkSpan (mkPtok 42 "falsey" 7 21 16) (mkPtok 31 """{,}""" 7 29 18)) (mkPtok 42 "falsey" 7 21 16) (mkPtok 4 "=" 7 27 17) (VString (mkSpan (mkPtok 31 """{,}""" 7 29 18) (mkPtok 31 """{,}""" 7 29 18)) (mkPtok 31 """{,}""" 7 29 18)) None)] (mkPtok 3 "}" 9 4 20))); (DPacket (mkPacketDef (mkSpan (mkPtok 35 "packet" 9 6 21) (mkPtok 3 "}" 29 0 82)) None (mkPtok 35 "packet" 9 6 21) (mkPtok 42 "matchKey" 9 13 22) (mkPtok 2 "{" 9 22 23) [(mkFieldWithAttr (mkSpan (mkPtok 42 "packetx" 9 24 24) (mkPtok 40 "," 9 48 28)) [] (LengthField (mkSpan (mkPtok 42 "packetx" 9 24 24) (mkPtok 40 "," 9 48 28)) (mkLengthFieldDecl (mkSpan (mkPtok 42 "packetx" 9 24 24) (mkPtok 40 "," 9 48 28)) None (mkPtok 42 "packetx" 9 24 24) (mkLengthOf (mkSpan (mkPtok 7 "@lengthOf(" 9 31 25) (mkPtok 6 ")" 9 46 27)) (mkPtok 7 "@lengthOf(" 9 31 25) (mkPtok 42 "i64_" 9 41 26) (mkPtok 6 ")" 9 46 27)) None (mkPtok 40 "," 9 48 28)))); (mkFieldWithAttr (mkSpan (mkPtok 5 "@calculatedFrom(" 9 50 29) (mkPtok 40 "," 16 4 39)) [(FACalculatedFrom (mkSpan (mkPtok 5 "@calculatedFrom(" 9 50 29) (mkPtok 6 ")" 9 72 31)) (mkCalculatedFrom (mkSpan (mkPtok 5 "@calculatedFrom(" 9 50 29) (mkPtok 6 ")" 9 72 31)) (mkPtok 5 "@calculatedFrom(" 9 50 29) (mkPtok 31 (string_of_bytes [34; 92; 195; 169; 34]%N) 9 67 30) (mkPtok 6 ")" 9 72 31)))] (LengthField (mkSpan (mkPtok 23 "u64" 10 0 32) (mkPtok 40 "," 16 4 39)) (mkLengthFieldDecl (mkSpan (mkPtok 23 "u64" 10 0 32) (mkPtok 40 "," 16 4 39)) (Some (TyBasic (mkSpan (mkPtok 23 "u64" 10 0 32) (mkPtok 23 "u64" 10 0 32)) (mkBasicType (mkSpan (mkPtok 23 "u64" 10 0 32) (mkPtok 23 "u64" 10 0 32)) (mkPtok 23 "u64" 10 0 32)))) (mkPtok 42 "MetaDataX" 13 0 35) (mkLengthOf (mkSpan (mkPtok 7 "@lengthOf(" 13 10 36) (mkPtok 6 ")" 15 0 38)) (mkPtok 7 "@lengthOf(" 13 10 36) (mkPtok 42 "Foo" 14 4 37) (mkPtok 6 ")" 15 0 38)) None (mkPtok 40 "," 16 4 39)))); (mkFieldWithAttr (mkSpan (mkPtok 36 "repeat" 16 6 40) (mkPtok 40 "," 19 17 48)) [] (InerObjectField (mkSpan (mkPtok 36 "repeat" 16 6 40) (mkPtok 40 "," 19 17 48)) (Some (mkPtok 36 "repeat" 16 6 40)) (InerObjectDecl (mkSpan (mkPtok 42 "pack" 16 13 41) (mkPtok 3 "}" 19 15 47)) (mkPtok 42 "pack" 16 13 41) (mkPtok 2 "{" 17 0 42) [(ObjectField (mkSpan (mkPtok 42 "u" 17 2 43) (mkPtok 40 "," 19 13 46)) None (mkPtok 42 "u" 17 2 43) (Some (mkPtok 42 "msg_type" 19 4 45)) None (mkPtok 40 "," 19 13 46))] (mkPtok 3 "}" 19 15 47)) (mkPtok 40 "," 19 17 48))); (mkFieldWithAttr (mkSpan (mkPtok 38 "match" 19 19 49) (mkPtok 40 "," 21 12 63)) [] (MatchField (mkSpan (mkPtok 38 "match" 19 19 49) (mkPtok 40 "," 21 12 63)) (mkMatchFieldDecl (mkSpan (mkPtok 38 "match" 19 19 49) (mkPtok 3 "}" 21 10 62)) (mkPtok 38 "match" 19 19 49) (mkPtok 42 "u" 19 25 50) (mkPtok 17 "as" 19 27 51) (mkPtok 42 "calculatedFrom" 20 4 52) (mkPtok 2 "{" 20 19 53) [(mkMatchPair (mkSpan (mkPtok 31 """1""" 20 20 54) (mkPtok 40 "," 20 35 57)) (MKString (mkPtok 31 """1""" 20 20 54)) (mkPtok 39 ":" 20 23 55) (mkPtok 42 "MetaDataX" 20 25 56) (Some (mkPtok 40 "," 20 35 57))); (mkMatchPair (mkSpan (mkPtok 31 (string_of_bytes [34; 195; 169; 116; 195; 169; 34]%N) 20 37 58) (mkPtok 40 "," 21 9 61)) (MKString (mkPtok 31 (string_of_bytes [34; 195; 169; 116; 195; 169; 34]%N) 20 37 58)) (mkPtok 39 ":" 21 4 59) (mkPtok 42 "len" 21 5 60) (Some (mkPtok 40 "," 21 9 61)))] (mkPtok 3 "}" 21 10 62)) (mkPtok 40 "," 21 12 63))); (mkFieldWithAttr (mkSpan (mkPtok 32 "@leftPad" 22 0 64) (mkPtok 40 "," 25 4 73)) [(FAPadding (mkSpan (mkPtok 32 "@leftPad" 22 0 64) (mkPtok 6 ")" 23 7 67)) (mkPaddingAttr (mkSpan (mkPtok 32 "@leftPad" 22 0 64) (mkPtok 6 ")" 23 7 67)) (mkPtok 32 "@leftPad" 22 0 64) (mkPtok 8 "(" 22 8 65) (Some (mkPtok 33 "'\x00'" 23 0 66)) (mkPtok 6 ")" 23 7 67))); (FACalculatedFrom (mkSpan (mkPtok 5 "@calculatedFrom(" 23 9 68) (mkPtok 6 ")" 24 0 71)) (mkCalculatedFrom (mkSpan (mkPtok 5 "@calculatedFrom(" 23 9 68) (mkPtok 6 ")" 24 0 71)) (mkPtok 5 "@calculatedFrom(" 23 9 68) (mkPtok 31 """\n""" 23 25 69) (mkPtok 6 ")" 24 0 71)))] (ObjectField (mkSpan (mkPtok 42 "falsey" 24 2 72) (mkPtok 40 "," 25 4 73)) None (mkPtok 42 "falsey" 24 2 72) None None (mkPtok 40 "," 25 4 73))); (mkFieldWithAttr (mkSpan (mkPtok 7 "@lengthOf(" 26 4 74) (mkPtok 40 "," 28 2 80)) [(FALengthOf (mkSpan (mkPtok 7 "@lengthOf(" 26 4 74) (mkPtok 6 ")" 27 6 76)) (mkLengthOf (mkSpan (mkPtok 7 "@lengthOf(" 26 4 74) (mkPtok 6 ")" 27 6 76)) (mkPtok 7 "@lengthOf(" 26 4 74) (mkPtok 42 "charz" 27 0 75) (mkPtok 6 ")" 27 6 76)))] (MetaField (mkSpan (mkPtok 27 "i64" 27 8 77) (mkPtok 40 "," 28 2 80)) None (mkMetaDecl (mkSpan (mkPtok 27 "i64" 27 8 77) (mkPtok 40 "," 28 2 80)) (TyBasic (mkSpan (mkPtok 27 "i64" 27 8 77) (mkPtok 27 "i64" 27 8 77)) (mkBasicType (mkSpan (mkPtok 27 "i64" 27 8 77) (mkPtok 27 "i64" 27 8 77)) (mkPtok 27 "i64" 27 8 77))) (mkPtok 42 "crc" 27 12 78) (Some (mkPtok 43 (string_of_bytes [96; 10; 96]%N) 27 15 79)) (mkPtok 40 "," 28 2 80))))] (mkPtok 3 "}" 29 0 82))); (DPacket (mkPacketDef (mkSpan (mkPtok 35 "packet" 29 2 83) (mkPtok 3 "}" 30 6 86)) None (mkPtok 35 "packet" 29 2 83) (mkPtok 42 "charz" 29 9 84) (mkPtok 2 "{" 30 4 85) [] (mkPtok 3 "}" 30 6 86)))])).
+Eval vm_compute in ("<<<M570>>>" ++ check (runes_of_ascii "root packet lengthOf// packet A { u8 x, }
+{  repeat float
+{
+int32 crc
+    // 50% %s
+    @calculatedFrom( ""{,}"" ) ,match chars//x
+as _x
+    { 00: crc , [	""a\""b"" , 10, 255 ] :chars
+, 0123456789 : crc
+, } , //x
+match Foo
+as
+roots { ""a\\""
+: string_ 007:
+u8x
+    [
+""" ++ [128512]%N ++ runes_of_ascii """ ,""it's"" ]
+    : MetaDataX ,[4294967296 ,0123456789 , 10 // 50% %s
+]
+:crc , [
+""a\\"" ,7 ]	: trueish ,[	10
+,	1
+] :	string_ ,
+    }, }
+    // trailing space 
+    ,}	packet
+    // c
+    f32a{
+    // @lengthOf(
+    @leftPad	(
+/// triple
+// 50% %s
+) @tag(
+    // @lengthOf(
+    7 ) @lengthOf( T )
+repeat
+packetx x_y_z, }")).
+Eval vm_compute in ("<<<M602>>>" ++ check (runes_of_ascii "root
+    packet crc {}
+root	packet //x
+uint8x { match
+// `tick` ""quote"" 'q'
+// `tick` ""quote"" 'q'
+u8x as
+    matchKey { /// triple
+0 : // " ++ [128512]%N ++ runes_of_ascii " emoji
+options1 3
+:
+    /// triple
+    charz ,
+    [ ""\n"" , """"
+    , ""abc"",
+""a\""b"" , ""abc""
+,	42
+    ,""" ++ [128512]%N ++ runes_of_ascii """
+] : lengthOf },
+}packet o
+{ @calculatedFrom(
+""a\\"" //	t
+)	match o as asx {
+65535
+    : zchar, }
+,
+    //
+    Header @calculatedFrom(  """ ++ [128512]%N ++ runes_of_ascii """) ,
+    msg_type
+charz , repeat
+crc { repeat x_y_z `doc` , char[0123456789 ] Foo  ,	repeat i16 x`` , // packet A { u8 x, }
+zchar[ 7 ]
+o @calculatedFrom( ""abc"" )
+, } ,@calculatedFrom(
+    // c
+    ""// no comment"" )
+    repeat
+u32 Pad // " ++ [128512]%N ++ runes_of_ascii " emoji
+,
+repeat int64 u128 `100% of %d` ,
+    repeat uint8x {uint64  leftPad
+    `line1
+line2` , i64_ // " ++ [27880; 37322]%N ++ runes_of_ascii "
+`doc`
+, }
+    // @lengthOf(
+    ,
+} root
+packet metadata {}
+")).
+Eval vm_compute in ("<<<M634>>>" ++ check (runes_of_ascii "packet
+    u8x {
+pack	@calculatedFrom( ""a	b"") , }packet u // @lengthOf(
+{ calculatedFrom @calculatedFrom(
+""\" ++ [233]%N ++ runes_of_ascii """ )  `say ""hi""`
+    , trueish @lengthOf( calculatedFrom
+), u8 trueish `` ,
+    zchar[
+    0123456789 ]
+int @calculatedFrom(
+""packet"")
+    ,	@leftPad (
+'0'
+    )
+// trailing space 
+/// triple
+@tag( 007 ) match matchKey // " ++ [27880; 37322]%N ++ runes_of_ascii "
+as _x{ ""packet"" : Header , } , char[]
+    asx@lengthOf(	f32a ) , options1@lengthOf(
+matchKey )// c
+`a\`
+    ,
+} // " ++ [128512]%N ++ runes_of_ascii " emoji")).
+Eval vm_compute in ("<<<M666>>>" ++ check (runes_of_ascii "options { i64_
+// " ++ [27880; 37322]%N ++ runes_of_ascii "
+// @lengthOf(
+=
+char body
+=// " ++ [128512]%N ++ runes_of_ascii " emoji
+true
+    ;
+    } root packet //	t
+BodyLength { }
+packet asx {
+}
+")).
+Eval vm_compute in ("<<<M698>>>" ++ check (runes_of_ascii "packet
+Z9_	{ char[] msg_type ,
+int
+    chars `{ , }` , @leftPad() match options1 as
+A { // `tick` ""quote"" 'q'
+""it's"" : len,[ """"	] : T ,  [
+00	] : calculatedFrom , 1
+:MetaDataX,
+    //
+    4294967296 : // a // b
+u
+,
+} ,
+repeat uint32 rootA
+    , f32
+    f32a `tab	here` , int
+    //x
+    ,}
+")).
+Eval vm_compute in ("<<<M730>>>" ++ check (runes_of_ascii "packet packetx {zchar[
+// a // b
+//	t
+10
+]options1 , } // " ++ [128512]%N ++ runes_of_ascii " emoji
+options{ // a // b
+a1=//
+char[ 0123456789 ]	; f32a=
+char[]} MetaData MetaDataX { zchar[65535 ]x,	}
+")).
+Eval vm_compute in ("<<<M762>>>" ++ check (runes_of_ascii "packet calculatedFrom
+    {@lengthOf(pack )
+    zchar @lengthOf( Z9_) `a\` , // 50% %s
+@calculatedFrom( ""it's"") leftPad ,trueish , // " ++ [128512]%N ++ runes_of_ascii " emoji
+@calculatedFrom(
+    ""{,}""
+)
+float32 string_ @calculatedFrom( ""1"" ) `tab	here` ,} packet
+u8x{
+match Header as
+roots { [
+""" ++ [28040; 24687]%N ++ runes_of_ascii """ ,""\" ++ [233]%N ++ runes_of_ascii """  , 65535 ,0, 10,//	t
+65535 , ""\n""
+    ]:
+    metadata [
+    /// triple
+    ""// no comment""
+// " ++ [27880; 37322]%N ++ runes_of_ascii "
+//	t
+,
+""{,}""
+, 0
+    ,
+    ""\n"", 3	]//	t
+: i8i8 ,
+    }
+// a // b
+//	t
+, match trueish as stringy { ""CRC32""//
+:repeatCount ,
+// a // b
+//	t
+[""1"", ""a\\"" ,
+""a\\""
+,
+007, 10	,""1""
+,007
+]: repeatCount ""\" ++ [233]%N ++ runes_of_ascii """
+    :
+    msg_type , }
 ,}
 ")).
-Eval vm_compute in ("<<<M1946>>>" ++ check (runes_of_ascii "  
+Eval vm_compute in ("<<<T762>>>" ++ terms [mkTok 35 "packet" 1 0 false; mkTok 42 "calculatedFrom" 1 7 false; mkTok 2 "{" 2 4 false; mkTok 7 "@lengthOf(" 2 5 false; mkTok 42 "pack" 2 15 false; mkTok 6 ")" 2 20 false; mkTok 42 "zchar" 3 4 false; mkTok 7 "@lengthOf(" 3 10 false; mkTok 42 "Z9_" 3 21 false; mkTok 6 ")" 3 24 false; mkTok 43 "`a\`" 3 26 false; mkTok 40 "," 3 31 false; mkTok 44 "// 50% %s" 3 33 true; mkTok 5 "@calculatedFrom(" 4 0 false; mkTok 31 """it's""" 4 17 false; mkTok 6 ")" 4 23 false; mkTok 42 "leftPad" 4 25 false; mkTok 40 "," 4 33 false; mkTok 42 "trueish" 4 34 false; mkTok 40 "," 4 42 false; mkTok 44 (string_of_bytes [47; 47; 32; 240; 159; 152; 128; 32; 101; 109; 111; 106; 105]%N) 4 44 true; mkTok 5 "@calculatedFrom(" 5 0 false; mkTok 31 """{,}""" 6 4 false; mkTok 6 ")" 7 0 false; mkTok 28 "float32" 8 0 false; mkTok 42 "string_" 8 8 false; mkTok 5 "@calculatedFrom(" 8 16 false; mkTok 31 """1""" 8 33 false; mkTok 6 ")" 8 37 false; mkTok 43 (string_of_bytes [96; 116; 97; 98; 9; 104; 101; 114; 101; 96]%N) 8 39 false; mkTok 40 "," 8 50 false; mkTok 3 "}" 8 51 false; mkTok 35 "packet" 8 53 false; mkTok 42 "u8x" 9 0 false; mkTok 2 "{" 9 3 false; mkTok 38 "match" 10 0 false; mkTok 42 "Header" 10 6 false; mkTok 17 "as" 10 13 false; mkTok 42 "roots" 11 0 false; mkTok 2 "{" 11 6 false; mkTok 18 "[" 11 8 false; mkTok 31 (string_of_bytes [34; 230; 182; 136; 230; 129; 175; 34]%N) 12 0 false; mkTok 40 "," 12 5 false; mkTok 31 (string_of_bytes [34; 92; 195; 169; 34]%N) 12 6 false; mkTok 40 "," 12 12 false; mkTok 30 "65535" 12 14 false; mkTok 40 "," 12 20 false; mkTok 30 "0" 12 21 false; mkTok 40 "," 12 22 false; mkTok 30 "10" 12 24 false; mkTok 40 "," 12 26 false; mkTok 44 (string_of_bytes [47; 47; 9; 116]%N) 12 27 true; mkTok 30 "65535" 13 0 false; mkTok 40 "," 13 6 false; mkTok 31 """\n""" 13 8 false; mkTok 13 "]" 14 4 false; mkTok 39 ":" 14 5 false; mkTok 42 "metadata" 15 4 false; mkTok 18 "[" 15 13 false; mkTok 44 "/// triple" 16 4 true; mkTok 31 """// no comment""" 17 4 false; mkTok 44 (string_of_bytes [47; 47; 32; 230; 179; 168; 233; 135; 138]%N) 18 0 true; mkTok 44 (string_of_bytes [47; 47; 9; 116]%N) 19 0 true; mkTok 40 "," 20 0 false; mkTok 31 """{,}""" 21 0 false; mkTok 40 "," 22 0 false; mkTok 30 "0" 22 2 false; mkTok 40 "," 23 4 false; mkTok 31 """\n""" 24 4 false; mkTok 40 "," 24 8 false; mkTok 30 "3" 24 10 false; mkTok 13 "]" 24 12 false; mkTok 44 (string_of_bytes [47; 47; 9; 116]%N) 24 13 true; mkTok 39 ":" 25 0 false; mkTok 42 "i8i8" 25 2 false; mkTok 40 "," 25 7 false; mkTok 3 "}" 26 4 false; mkTok 44 "// a // b" 27 0 true; mkTok 44 (string_of_bytes [47; 47; 9; 116]%N) 28 0 true; mkTok 40 "," 29 0 false; mkTok 38 "match" 29 2 false; mkTok 42 "trueish" 29 8 false; mkTok 17 "as" 29 16 false; mkTok 42 "stringy" 29 19 false; mkTok 2 "{" 29 27 false; mkTok 31 """CRC32""" 29 29 false; mkTok 44 "//" 29 36 true; mkTok 39 ":" 30 0 false; mkTok 42 "repeatCount" 30 1 false; mkTok 40 "," 30 13 false; mkTok 44 "// a // b" 31 0 true; mkTok 44 (string_of_bytes [47; 47; 9; 116]%N) 32 0 true; mkTok 18 "[" 33 0 false; mkTok 31 """1""" 33 1 false; mkTok 40 "," 33 4 false; mkTok 31 """a\\""" 33 6 false; mkTok 40 "," 33 12 false; mkTok 31 """a\\""" 34 0 false; mkTok 40 "," 35 0 false; mkTok 30 "007" 36 0 false; mkTok 40 "," 36 3 false; mkTok 30 "10" 36 5 false; mkTok 40 "," 36 8 false; mkTok 31 """1""" 36 9 false; mkTok 40 "," 37 0 false; mkTok 30 "007" 37 1 false; mkTok 13 "]" 38 0 false; mkTok 39 ":" 38 1 false; mkTok 42 "repeatCount" 38 3 false; mkTok 31 (string_of_bytes [34; 92; 195; 169; 34]%N) 38 15 false; mkTok 39 ":" 39 4 false; mkTok 42 "msg_type" 40 4 false; mkTok 40 "," 40 13 false; mkTok 3 "}" 40 15 false; mkTok 40 "," 41 0 false; mkTok 3 "}" 41 1 false; mkTok 0 "<EOF>" 42 0 false] (mkPacket (mkPtok 35 "packet" 1 0 0) (Some (mkPtok 3 "}" 41 1 115)) [(DPacket (mkPacketDef (mkSpan (mkPtok 35 "packet" 1 0 0) (mkPtok 3 "}" 8 51 31)) None (mkPtok 35 "packet" 1 0 0) (mkPtok 42 "calculatedFrom" 1 7 1) (mkPtok 2 "{" 2 4 2) [(mkFieldWithAttr (mkSpan (mkPtok 7 "@lengthOf(" 2 5 3) (mkPtok 40 "," 3 31 11)) [(FALengthOf (mkSpan (mkPtok 7 "@lengthOf(" 2 5 3) (mkPtok 6 ")" 2 20 5)) (mkLengthOf (mkSpan (mkPtok 7 "@lengthOf(" 2 5 3) (mkPtok 6 ")" 2 20 5)) (mkPtok 7 "@lengthOf(" 2 5 3) (mkPtok 42 "pack" 2 15 4) (mkPtok 6 ")" 2 20 5)))] (LengthField (mkSpan (mkPtok 42 "zchar" 3 4 6) (mkPtok 40 "," 3 31 11)) (mkLengthFieldDecl (mkSpan (mkPtok 42 "zchar" 3 4 6) (mkPtok 40 "," 3 31 11)) None (mkPtok 42 "zchar" 3 4 6) (mkLengthOf (mkSpan (mkPtok 7 "@lengthOf(" 3 10 7) (mkPtok 6 ")" 3 24 9)) (mkPtok 7 "@lengthOf(" 3 10 7) (mkPtok 42 "Z9_" 3 21 8) (mkPtok 6 ")" 3 24 9)) (Some (mkPtok 43 "`a\`" 3 26 10)) (mkPtok 40 "," 3 31 11)))); (mkFieldWithAttr (mkSpan (mkPtok 5 "@calculatedFrom(" 4 0 13) (mkPtok 40 "," 4 33 17)) [(FACalculatedFrom (mkSpan (mkPtok 5 "@calculatedFrom(" 4 0 13) (mkPtok 6 ")" 4 23 15)) (mkCalculatedFrom (mkSpan (mkPtok 5 "@calculatedFrom(" 4 0 13) (mkPtok 6 ")" 4 23 15)) (mkPtok 5 "@calculatedFrom(" 4 0 13) (mkPtok 31 """it's""" 4 17 14) (mkPtok 6 ")" 4 23 15)))] (ObjectField (mkSpan (mkPtok 42 "leftPad" 4 25 16) (mkPtok 40 "," 4 33 17)) None (mkPtok 42 "leftPad" 4 25 16) None None (mkPtok 40 "," 4 33 17))); (mkFieldWithAttr (mkSpan (mkPtok 42 "trueish" 4 34 18) (mkPtok 40 "," 4 42 19)) [] (ObjectField (mkSpan (mkPtok 42 "trueish" 4 34 18) (mkPtok 40 "," 4 42 19)) None (mkPtok 42 "trueish" 4 34 18) None None (mkPtok 40 "," 4 42 19))); (mkFieldWithAttr (mkSpan (mkPtok 5 "@calculatedFrom(" 5 0 21) (mkPtok 40 "," 8 50 30)) [(FACalculatedFrom (mkSpan (mkPtok 5 "@calculatedFrom(" 5 0 21) (mkPtok 6 ")" 7 0 23)) (mkCalculatedFrom (mkSpan (mkPtok 5 "@calculatedFrom(" 5 0 21) (mkPtok 6 ")" 7 0 23)) (mkPtok 5 "@calculatedFrom(" 5 0 21) (mkPtok 31 """{,}""" 6 4 22) (mkPtok 6 ")" 7 0 23)))] (CheckSumField (mkSpan (mkPtok 28 "float32" 8 0 24) (mkPtok 40 "," 8 50 30)) (mkChecksumFieldDecl (mkSpan (mkPtok 28 "float32" 8 0 24) (mkPtok 40 "," 8 50 30)) (Some (TyBasic (mkSpan (mkPtok 28 "float32" 8 0 24) (mkPtok 28 "float32" 8 0 24)) (mkBasicType (mkSpan (mkPtok 28 "float32" 8 0 24) (mkPtok 28 "float32" 8 0 24)) (mkPtok 28 "float32" 8 0 24)))) (mkPtok 42 "string_" 8 8 25) (mkCalculatedFrom (mkSpan (mkPtok 5 "@calculatedFrom(" 8 16 26) (mkPtok 6 ")" 8 37 28)) (mkPtok 5 "@calculatedFrom(" 8 16 26) (mkPtok 31 """1""" 8 33 27) (mkPtok 6 ")" 8 37 28)) (Some (mkPtok 43 (string_of_bytes [96; 116; 97; 98; 9; 104; 101; 114; 101; 96]%N) 8 39 29)) (mkPtok 40 "," 8 50 30))))] (mkPtok 3 "}" 8 51 31))); (DPacket (mkPacketDef (mkSpan (mkPtok 35 "packet" 8 53 32) (mkPtok 3 "}" 41 1 115)) None (mkPtok 35 "packet" 8 53 32) (mkPtok 42 "u8x" 9 0 33) (mkPtok 2 "{" 9 3 34) [(mkFieldWithAttr (mkSpan (mkPtok 38 "match" 10 0 35) (mkPtok 40 "," 29 0 79)) [] (MatchField (mkSpan (mkPtok 38 "match" 10 0 35) (mkPtok 40 "," 29 0 79)) (mkMatchFieldDecl (mkSpan (mkPtok 38 "match" 10 0 35) (mkPtok 3 "}" 26 4 76)) (mkPtok 38 "match" 10 0 35) (mkPtok 42 "Header" 10 6 36) (mkPtok 17 "as" 10 13 37) (mkPtok 42 "roots" 11 0 38) (mkPtok 2 "{" 11 6 39) [(mkMatchPair (mkSpan (mkPtok 18 "[" 11 8 40) (mkPtok 42 "metadata" 15 4 57)) (MKList (mkKeyList (mkSpan (mkPtok 18 "[" 11 8 40) (mkPtok 13 "]" 14 4 55)) (mkPtok 18 "[" 11 8 40) (mkPtok 31 (string_of_bytes [34; 230; 182; 136; 230; 129; 175; 34]%N) 12 0 41) [((mkPtok 40 "," 12 5 42), (mkPtok 31 (string_of_bytes [34; 92; 195; 169; 34]%N) 12 6 43)); ((mkPtok 40 "," 12 12 44), (mkPtok 30 "65535" 12 14 45)); ((mkPtok 40 "," 12 20 46), (mkPtok 30 "0" 12 21 47)); ((mkPtok 40 "," 12 22 48), (mkPtok 30 "10" 12 24 49)); ((mkPtok 40 "," 12 26 50), (mkPtok 30 "65535" 13 0 52)); ((mkPtok 40 "," 13 6 53), (mkPtok 31 """\n""" 13 8 54))] (mkPtok 13 "]" 14 4 55))) (mkPtok 39 ":" 14 5 56) (mkPtok 42 "metadata" 15 4 57) None); (mkMatchPair (mkSpan (mkPtok 18 "[" 15 13 58) (mkPtok 40 "," 25 7 75)) (MKList (mkKeyList (mkSpan (mkPtok 18 "[" 15 13 58) (mkPtok 13 "]" 24 12 71)) (mkPtok 18 "[" 15 13 58) (mkPtok 31 """// no comment""" 17 4 60) [((mkPtok 40 "," 20 0 63), (mkPtok 31 """{,}""" 21 0 64)); ((mkPtok 40 "," 22 0 65), (mkPtok 30 "0" 22 2 66)); ((mkPtok 40 "," 23 4 67), (mkPtok 31 """\n""" 24 4 68)); ((mkPtok 40 "," 24 8 69), (mkPtok 30 "3" 24 10 70))] (mkPtok 13 "]" 24 12 71))) (mkPtok 39 ":" 25 0 73) (mkPtok 42 "i8i8" 25 2 74) (Some (mkPtok 40 "," 25 7 75)))] (mkPtok 3 "}" 26 4 76)) (mkPtok 40 "," 29 0 79))); (mkFieldWithAttr (mkSpan (mkPtok 38 "match" 29 2 80) (mkPtok 40 "," 41 0 114)) [] (MatchField (mkSpan (mkPtok 38 "match" 29 2 80) (mkPtok 40 "," 41 0 114)) (mkMatchFieldDecl (mkSpan (mkPtok 38 "match" 29 2 80) (mkPtok 3 "}" 40 15 113)) (mkPtok 38 "match" 29 2 80) (mkPtok 42 "trueish" 29 8 81) (mkPtok 17 "as" 29 16 82) (mkPtok 42 "stringy" 29 19 83) (mkPtok 2 "{" 29 27 84) [(mkMatchPair (mkSpan (mkPtok 31 """CRC32""" 29 29 85) (mkPtok 40 "," 30 13 89)) (MKString (mkPtok 31 """CRC32""" 29 29 85)) (mkPtok 39 ":" 30 0 87) (mkPtok 42 "repeatCount" 30 1 88) (Some (mkPtok 40 "," 30 13 89))); (mkMatchPair (mkSpan (mkPtok 18 "[" 33 0 92) (mkPtok 42 "repeatCount" 38 3 108)) (MKList (mkKeyList (mkSpan (mkPtok 18 "[" 33 0 92) (mkPtok 13 "]" 38 0 106)) (mkPtok 18 "[" 33 0 92) (mkPtok 31 """1""" 33 1 93) [((mkPtok 40 "," 33 4 94), (mkPtok 31 """a\\""" 33 6 95)); ((mkPtok 40 "," 33 12 96), (mkPtok 31 """a\\""" 34 0 97)); ((mkPtok 40 "," 35 0 98), (mkPtok 30 "007" 36 0 99)); ((mkPtok 40 "," 36 3 100), (mkPtok 30 "10" 36 5 101)); ((mkPtok 40 "," 36 8 102), (mkPtok 31 """1""" 36 9 103)); ((mkPtok 40 "," 37 0 104), (mkPtok 30 "007" 37 1 105))] (mkPtok 13 "]" 38 0 106))) (mkPtok 39 ":" 38 1 107) (mkPtok 42 "repeatCount" 38 3 108) None); (mkMatchPair (mkSpan (mkPtok 31 (string_of_bytes [34; 92; 195; 169; 34]%N) 38 15 109) (mkPtok 40 "," 40 13 112)) (MKString (mkPtok 31 (string_of_bytes [34; 92; 195; 169; 34]%N) 38 15 109)) (mkPtok 39 ":" 39 4 110) (mkPtok 42 "msg_type" 40 4 111) (Some (mkPtok 40 "," 40 13 112)))] (mkPtok 3 "}" 40 15 113)) (mkPtok 40 "," 41 0 114)))] (mkPtok 3 "}" 41 1 115)))])).
+Eval vm_compute in ("<<<M794>>>" ++ check (runes_of_ascii "MetaData // " ++ [128512]%N ++ runes_of_ascii " emoji
+MetaDataX
+    { }
+    options { } options { Pad =
+42;
+    //x
+    }
+    // trailing space 
+    packet calculatedFrom {
+repeat o
+{ // trailing space 
+o  { zchar[ // 50% %s
+007 ] x
+`100% of %d`,
+    } , } , }
+root packet uint8x{
+@calculatedFrom( ""a\\""
+    //
+    )
+// `tick` ""quote"" 'q'
+// trailing space 
+uint16	pack@calculatedFrom(
+    //x
+    ""\n""
+    // trailing space 
+    ),
+} // c")).
+Eval vm_compute in ("<<<M826>>>" ++ check (runes_of_ascii "  packet stringy
+    //	t
+    { @calculatedFrom( ""abc"" ) @calculatedFrom(
+    ""abc""
+    )	repeat char[
+1] charz
+, @lengthOf( float
+    )
+@tag( 00 ) @calculatedFrom(
+""{,}"" ) // `tick` ""quote"" 'q'
+match int as// 50% %s
+body
+{ [ """"
+    ,
+4294967296 , 0
+]
+: float
+// 50% %s
+// packet A { u8 x, }
+, } , }	packet crc { @rightPad ( ' ' ) @calculatedFrom(""" ++ [128512]%N ++ runes_of_ascii """
+    ) @tag(
+// `tick` ""quote"" 'q'
+//	t
+00
+    )
+int16 falsey  `u8 x,` // `tick` ""quote"" 'q'
+, // c
+@leftPad ( '\x00'	)
+string_
+    ,	@lengthOf(
+repeatCount )f64
+f32a
+    // " ++ [128512]%N ++ runes_of_ascii " emoji
+    @lengthOf( u8x)
+    // @lengthOf(
+    , char[] falsey
+, @tag(
+42
+)
+@tag( 10 )zchar[
+//	t
+// " ++ [128512]%N ++ runes_of_ascii " emoji
+255
+    //x
+    ] body
+`
+`
+,
+@tag(65535 ) // " ++ [27880; 37322]%N ++ runes_of_ascii "
+crc @calculatedFrom( ""CRC32"" ),	} options // " ++ [128512]%N ++ runes_of_ascii " emoji
+{  repeatCount = // trailing space 
+'0'	}")).
+Eval vm_compute in ("<<<M858>>>" ++ check (runes_of_ascii "
+packet T { repeat asx `// not a comment`, @tag( 0 )
+    u128 { packetx	`line1
+line2` , }
+    , int16 As
+`u8 x,` , }
 ")).
-Eval vm_compute in ("<<<M1978>>>" ++ check (runes_of_ascii "packet u{
-    } root packet x
+Eval vm_compute in ("<<<M890>>>" ++ check (runes_of_ascii "packet
+repeatCount {// `tick` ""quote"" 'q'
+u {
+    /// triple
+    repeat char[] packetx ,x_y_z { repeat
+Foo Z9_
+, match asx // " ++ [128512]%N ++ runes_of_ascii " emoji
+as Logon
+{ 1 :stringy , [ ""abc""
+, 7	, ""abc"",
+    10
+    ,""1"" /// triple
+] : charz
+, }
+,
+    uint8x { MetaDataX roots
+// packet A { u8 x, }
+//x
+,// 50% %s
+u8  pack @calculatedFrom(
+""\n""
+)
+// c
+// @lengthOf(
+, }
+    ,x body ,
+    // " ++ [27880; 37322]%N ++ runes_of_ascii "
+    } ,}
+    , @lengthOf( tag ) asx /// triple
+,	zchar[
+    00  ]x_y_z @calculatedFrom(""\" ++ [233]%N ++ runes_of_ascii """  )// trailing space 
+`tab	here` , @calculatedFrom(
+""CRC32""
+    ) int32
+// @lengthOf(
+// @lengthOf(
+A , @calculatedFrom( ""it's"" )	@leftPad ( ' ')@rightPad ( '\x00'
+) match
+leftPad	as roots{
+    [ 255, 007
+    //	t
+    , 00//
+, ""packet""] // " ++ [128512]%N ++ runes_of_ascii " emoji
+:
+    trueish ,// " ++ [27880; 37322]%N ++ runes_of_ascii "
+}
+, @tag(
+    3 )string options1  @calculatedFrom( ""`tick`""
+)`100% of %d` // trailing space 
+, @leftPad (  '\x00'
+)string uint8x , @leftPad (	' ')
+    @calculatedFrom(""// no comment"") // " ++ [27880; 37322]%N ++ runes_of_ascii "
+@tag( 00 ) metadata	@calculatedFrom(""1"" ) , }
+    root packet a1 { chars
+@calculatedFrom( ""\" ++ [233]%N ++ runes_of_ascii """ ) , @tag(
+    0123456789
+    // packet A { u8 x, }
+    )
+repeatCount i64_ , repeat len { repeat
+zchar[ 255 ]
+A `" ++ [233]%N ++ runes_of_ascii "` ,  string
+calculatedFrom`100% of %d`, f32
+    asx, } ,
+@leftPad	(	) uint64 crc
+    `a\` ,
+@tag( 0123456789
+    // 50% %s
+    )
+string string_ ,
+T
+{
+char[ 255 ] T ,
+}, calculatedFrom string_  ,
+}MetaData leftPad {
+o f32a
+,
+//	t
+//	t
+}
+MetaData lengthOf
+    {string	charz , u64 len
+`{ , }`
 //x
 //	t
-{ @calculatedFrom( ""`tick`"" )
-@lengthOf(
-    f32a	)
-@tag( 7 ) repeat a1
-    // @lengthOf(
-    i8i8 , @leftPad ( '0' )@tag(	1)  @tag(10 ) match packetx as BodyLength { 10 :
-    //	t
-    stringy , [ 7 , 7 ]:
-x_y_z }
-// @lengthOf(
-//
-,	_x
-{calculatedFrom	i64_ // @lengthOf(
-, repeat
-string MetaDataX `" ++ [28040; 24687; 31867; 22411]%N ++ runes_of_ascii "`, repeat
-asx
-{ repeat uint32 zchar// `tick` ""quote"" 'q'
-, /// triple
-zchar[
-    4294967296 ] leftPad , char[255 ]u8x// " ++ [128512]%N ++ runes_of_ascii " emoji
-@calculatedFrom( ""CRC32""	) , char[]i64_ , }
-// " ++ [128512]%N ++ runes_of_ascii " emoji
-// " ++ [128512]%N ++ runes_of_ascii " emoji
-,  } ,
-    // a // b
-    rootA // a // b
 ,
-    /// triple
-    uint8x
-    `" ++ [28040; 24687; 31867; 22411]%N ++ runes_of_ascii "` ,i64 Foo``
-    , @leftPad (
-'0'
-) repeat  chars
-    // " ++ [27880; 37322]%N ++ runes_of_ascii "
-    tag
-    ,
-@lengthOf( As	)
-uint32 tag @calculatedFrom( ""abc"" )`a\` , @calculatedFrom( ""a\\"" )  char[	007]
-    charz
-    @lengthOf(calculatedFrom )
-    ,
-    @calculatedFrom(
+u16 T `tab	here`, char[] Foo, }
+packet	f32a
     // `tick` ""quote"" 'q'
-    ""it's""	)
-    /// triple
-    repeat// " ++ [128512]%N ++ runes_of_ascii " emoji
-Z9_{ u32 o@calculatedFrom( ""it's"" ) `it's`, f32a
-{ falsey rootA/// triple
-, repeat
-msg_type ,	body
-    {string_	@calculatedFrom(
-""abc"" )  , }
-, repeat i8
-    zchar ,
-}
-,
-    A  {match roots as MetaDataX
-{
-    // trailing space 
-    ""a	b"" : A
-    65535 : body,""a\\"":
-packetx, ""packet""
-// a // b
-//
-: //	t
-rootA , 4294967296
-: // packet A { u8 x, }
-o,
-//x
-// c
-""x y""
-    :BodyLength	, // trailing space 
-} , } ,char[]
-// c
+    {
+match string_ as crc
+// @lengthOf(
 // `tick` ""quote"" 'q'
-body, }
-    , } packet f32a {
-    @lengthOf( rootA //x
-) @tag(1 )@rightPad (
-'0' ) Z9_
-`it's`
-, u8x @calculatedFrom( ""\" ++ [233]%N ++ runes_of_ascii """) // a // b
-`{ , }` ,
-    repeat// trailing space 
-int32 options1
-    , }options
-    { float =// " ++ [27880; 37322]%N ++ runes_of_ascii "
-false
-    // a // b
-    } //x")).
-Eval vm_compute in ("<<<M2010>>>" ++ check (runes_of_ascii "options options{ i64_ = string ; trueish =
-    '\x00'
-    leftPad = ""a\\"" /// triple
-; crc
-    = 255; uint8x
-=
-""abc""
-    ;}")).
-Eval vm_compute in ("<<<M2042>>>" ++ check (runes_of_ascii "options{ i64_ = string ; ) =
-    '\x00'
-    leftPad = ""a\\"" /// triple
-; crc
-    = 255; uint8x
-=
-""abc""
-    ;}")).
-Eval vm_compute in ("<<<M2074>>>" ++ check (runes_of_ascii "options{ i64_ = string ; trueish =
-    '\x00'
-    leftPad = ""a\\"" /// triple
-; 
-    = 255; uint8x
-=
-""abc""
-    ;}")).
-Eval vm_compute in ("<<<M2106>>>" ++ check (runes_of_ascii "options{ i64_ = string ; trueish =
-    '\x00'
-    leftPad = ""a\\"" /// triple
-; crc
-    = 255; uint8x
-=
-;
-    ""abc""}")).
-Eval vm_compute in ("<<<M2138>>>" ++ check (runes_of_ascii "options{ i64_ = string ; trueish =
-    '\x00'
-    " ++ [21517; 23383]%N ++ runes_of_ascii " = ""a\\"" /// triple
-; crc
-    = 255; uint8x
-=
-""abc""
-    ;}")).
-Eval vm_compute in ("<<<M2170>>>" ++ check (runes_of_ascii "  packet
-asx
-{
+{255 :
+Z9_,
+[
+    """ ++ [128512]%N ++ runes_of_ascii """
+, 7]
+    :
+leftPad,
+    // trailing space 
+    ""\n""
+:
+float """ ++ [233]%N ++ runes_of_ascii "t" ++ [233]%N ++ runes_of_ascii """	: f32a , }
+, repeat u128 { string int
 /// triple
-// @lengthOf(
-u32 stringy
-`" ++ [28040; 24687; 31867; 22411]%N ++ runes_of_ascii "` } MetaData
-    A {string  _x, zchar Header `a\`
-// @lengthOf(
-// packet A { u8 x, }
-, char[] MetaDataX
-,zchar[ 1 ]
-    matchKey
-    , char[] //
-u,	char[0123456789 ]
-    matchKey
-    `{ , }`, }
+//	t
+@lengthOf( rootA ) ,  }	, u , }
+
 ")).
-Eval vm_compute in ("<<<M2202>>>" ++ check (runes_of_ascii "  packet
-asx
-{
-/// triple
-// @lengthOf(
-u32 stringy
-`" ++ [28040; 24687; 31867; 22411]%N ++ runes_of_ascii "` ,} MetaData
-    A {string  ,_x zchar Header `a\`
-// @lengthOf(
-// packet A { u8 x, }
-, char[] MetaDataX
-,zchar[ 1 ]
-    matchKey
-    , char[] //
-u,	char[0123456789 ]
-    matchKey
-    `{ , }`, }
-")).
-Eval vm_compute in ("<<<M2234>>>" ++ check (runes_of_ascii "  packet
-asx
-{
-/// triple
-// @lengthOf(
-u32 stringy
-`" ++ [28040; 24687; 31867; 22411]%N ++ runes_of_ascii "` ,} MetaData
-    A {string  _x, zchar Header `a\`
-// @lengthOf(
-// packet A { u8 x, }
-,")).
-Eval vm_compute in ("<<<M2266>>>" ++ check (runes_of_ascii "  packet
-asx
-{
-/// triple
-// @lengthOf(
-u32 stringy
-`" ++ [28040; 24687; 31867; 22411]%N ++ runes_of_ascii "` ,} MetaData
-    A {string  _x, zchar Header `a\`
-// @lengthOf(
-// packet A { u8 x, }
-, char[] MetaDataX
-,zchar[ 1 ]
-    matchKey
-    , , char[] //
-u,	char[0123456789 ]
-    matchKey
-    `{ , }`, }
-")).
-Eval vm_compute in ("<<<M2298>>>" ++ check (runes_of_ascii "  packet
-asx
-{
-/// triple
-// @lengthOf(
-u32 stringy
-`" ++ [28040; 24687; 31867; 22411]%N ++ runes_of_ascii "` ,} MetaData
-    A {string  _x, zchar Header `a\`
-// @lengthOf(
-// packet A { u8 x, }
-, char[] MetaDataX
-,zchar[ 1 ]
-    matchKey
-    , char[] //
-u,	char[0123456789 f32
-    matchKey
-    `{ , }`, }
-")).
-Eval vm_compute in ("<<<M2330>>>" ++ check (runes_of_ascii "  packet
-asx
-{
-/// triple
-// @lengthOf(
-u32 stringy
-`" ++ [28040; 24687; 31867; 22411]%N ++ runes_of_ascii "` ,} MetaData
-    $A {string  _x, zchar Header `a\`
-// @lengthOf(
-// packet A { u8 x, }
-, char[] MetaDataX
-,zchar[ 1 ]
-    matchKey
-    , char[] //
-u,	char[0123456789 ]
-    matchKey
-    `{ , }`, }
-")).
-Eval vm_compute in ("<<<M2362>>>" ++ check (runes_of_ascii "root
-    packet
-Packet
-{ // trailing space 
-matchKey matchKey `tab	here` ,}")).
-Eval vm_compute in ("<<<M2394>>>" ++ check (runes_of_ascii "root''
-    packet
-Packet
-{ // trailing space 
-matchKey `tab	here` ,}")).
-Eval vm_compute in ("<<<M2426>>>" ++ check (runes_of_ascii "options{ falsey // a // b
-=")).
-Eval vm_compute in ("<<<M2458>>>" ++ check (runes_of_ascii "options{ falsey // a // b
-=
-    '0' } options { repeatCount =
-true ; ; string_// a // b
-=
-// c
+Eval vm_compute in ("<<<M922>>>" ++ check (runes_of_ascii "
+packet T {
+match matchKey as
+u8x { 7 :matchKey [ //
+""""
+] /// triple
+: Header , [ // trailing space 
+1  ,
+""packet""
+] :
+f32a ""\" ++ [233]%N ++ runes_of_ascii """	:
+calculatedFrom
+    ,
+255 : //	t
+metadata
+}
+    ,
+    @lengthOf(i8i8) @lengthOf(float	)
+@calculatedFrom(""a\\"" )  pack
+    // `tick` ""quote"" 'q'
+    @lengthOf(
+packetx) `crlf
+line`
+,
+match rootA
 // " ++ [27880; 37322]%N ++ runes_of_ascii "
-int64
-// trailing space 
-/// triple
-; } // @lengthOf(")).
-Eval vm_compute in ("<<<M2490>>>" ++ check (runes_of_ascii "options{ falsey // a // b
-=
-    '0' } options { repeatCount =
-true ; string_// a // b
-=
-// c
+// packet A { u8 x, }
+as Z9_
 // " ++ [27880; 37322]%N ++ runes_of_ascii "
-int64
+// a // b
+{ [""CRC32"" ] : o // @lengthOf(
+, ""it's"" :stringy
+    , 3
+: a1 ,""it's""
+:// @lengthOf(
+u8x
+    }, char
+    falsey
+,f32
+i64_
+// packet A { u8 x, }
+// a // b
+,@leftPad ( //x
+' ' )
+    i8i8
+{trueish @calculatedFrom( """ ++ [128512]%N ++ runes_of_ascii """	) , }
+    , @lengthOf(	As )
+    a1 leftPad,
+// `tick` ""quote"" 'q'
+// `tick` ""quote"" 'q'
+}")).
+Eval vm_compute in ("<<<M954>>>" ++ check (runes_of_ascii "
+packet body { @tag(
+255 ) int @lengthOf( float )
+,}
+")).
+Eval vm_compute in ("<<<M986>>>" ++ check (runes_of_ascii "packet
+body { repeat char[	0123456789]
+u128 `doc` ,
+    }  options {
+    chars =
+7 asx = ""abc"" T = char ;
+//	t
 // trailing space 
+a1 // `tick` ""quote"" 'q'
+= int8 tag =	""" ++ [128512]%N ++ runes_of_ascii """ ;
+}
+")).
+Eval vm_compute in ("<<<T986>>>" ++ terms [mkTok 35 "packet" 1 0 false; mkTok 42 "body" 2 0 false; mkTok 2 "{" 2 5 false; mkTok 36 "repeat" 2 7 false; mkTok 12 "char[" 2 14 false; mkTok 30 "0123456789" 2 20 false; mkTok 13 "]" 2 30 false; mkTok 42 "u128" 3 0 false; mkTok 43 "`doc`" 3 5 false; mkTok 40 "," 3 11 false; mkTok 3 "}" 4 4 false; mkTok 1 "options" 4 7 false; mkTok 2 "{" 4 15 false; mkTok 42 "chars" 5 4 false; mkTok 4 "=" 5 10 false; mkTok 30 "7" 6 0 false; mkTok 42 "asx" 6 2 false; mkTok 4 "=" 6 6 false; mkTok 31 """abc""" 6 8 false; mkTok 42 "T" 6 14 false; mkTok 4 "=" 6 16 false; mkTok 19 "char" 6 18 false; mkTok 41 ";" 6 23 false; mkTok 44 (string_of_bytes [47; 47; 9; 116]%N) 7 0 true; mkTok 44 "// trailing space " 8 0 true; mkTok 42 "a1" 9 0 false; mkTok 44 "// `tick` ""quote"" 'q'" 9 3 true; mkTok 4 "=" 10 0 false; mkTok 24 "int8" 10 2 false; mkTok 42 "tag" 10 7 false; mkTok 4 "=" 10 11 false; mkTok 31 (string_of_bytes [34; 240; 159; 152; 128; 34]%N) 10 13 false; mkTok 41 ";" 10 17 false; mkTok 3 "}" 11 0 false; mkTok 0 "<EOF>" 12 0 false] (mkPacket (mkPtok 35 "packet" 1 0 0) (Some (mkPtok 3 "}" 11 0 33)) [(DPacket (mkPacketDef (mkSpan (mkPtok 35 "packet" 1 0 0) (mkPtok 3 "}" 4 4 10)) None (mkPtok 35 "packet" 1 0 0) (mkPtok 42 "body" 2 0 1) (mkPtok 2 "{" 2 5 2) [(mkFieldWithAttr (mkSpan (mkPtok 36 "repeat" 2 7 3) (mkPtok 40 "," 3 11 9)) [] (MetaField (mkSpan (mkPtok 36 "repeat" 2 7 3) (mkPtok 40 "," 3 11 9)) (Some (mkPtok 36 "repeat" 2 7 3)) (mkMetaDecl (mkSpan (mkPtok 12 "char[" 2 14 4) (mkPtok 40 "," 3 11 9)) (TyFixed (mkSpan (mkPtok 12 "char[" 2 14 4) (mkPtok 13 "]" 2 30 6)) (mkFixedString (mkSpan (mkPtok 12 "char[" 2 14 4) (mkPtok 13 "]" 2 30 6)) (mkPtok 12 "char[" 2 14 4) (mkPtok 30 "0123456789" 2 20 5) (mkPtok 13 "]" 2 30 6))) (mkPtok 42 "u128" 3 0 7) (Some (mkPtok 43 "`doc`" 3 5 8)) (mkPtok 40 "," 3 11 9))))] (mkPtok 3 "}" 4 4 10))); (DOption (mkOptionDef (mkSpan (mkPtok 1 "options" 4 7 11) (mkPtok 3 "}" 11 0 33)) (mkPtok 1 "options" 4 7 11) (mkPtok 2 "{" 4 15 12) [(mkOptionDecl (mkSpan (mkPtok 42 "chars" 5 4 13) (mkPtok 30 "7" 6 0 15)) (mkPtok 42 "chars" 5 4 13) (mkPtok 4 "=" 5 10 14) (VDigits (mkSpan (mkPtok 30 "7" 6 0 15) (mkPtok 30 "7" 6 0 15)) (mkPtok 30 "7" 6 0 15)) None); (mkOptionDecl (mkSpan (mkPtok 42 "asx" 6 2 16) (mkPtok 31 """abc""" 6 8 18)) (mkPtok 42 "asx" 6 2 16) (mkPtok 4 "=" 6 6 17) (VString (mkSpan (mkPtok 31 """abc""" 6 8 18) (mkPtok 31 """abc""" 6 8 18)) (mkPtok 31 """abc""" 6 8 18)) None); (mkOptionDecl (mkSpan (mkPtok 42 "T" 6 14 19) (mkPtok 41 ";" 6 23 22)) (mkPtok 42 "T" 6 14 19) (mkPtok 4 "=" 6 16 20) (VType (mkSpan (mkPtok 19 "char" 6 18 21) (mkPtok 19 "char" 6 18 21)) (TyBasic (mkSpan (mkPtok 19 "char" 6 18 21) (mkPtok 19 "char" 6 18 21)) (mkBasicType (mkSpan (mkPtok 19 "char" 6 18 21) (mkPtok 19 "char" 6 18 21)) (mkPtok 19 "char" 6 18 21)))) (Some (mkPtok 41 ";" 6 23 22))); (mkOptionDecl (mkSpan (mkPtok 42 "a1" 9 0 25) (mkPtok 24 "int8" 10 2 28)) (mkPtok 42 "a1" 9 0 25) (mkPtok 4 "=" 10 0 27) (VType (mkSpan (mkPtok 24 "int8" 10 2 28) (mkPtok 24 "int8" 10 2 28)) (TyBasic (mkSpan (mkPtok 24 "int8" 10 2 28) (mkPtok 24 "int8" 10 2 28)) (mkBasicType (mkSpan (mkPtok 24 "int8" 10 2 28) (mkPtok 24 "int8" 10 2 28)) (mkPtok 24 "int8" 10 2 28)))) None); (mkOptionDecl (mkSpan (mkPtok 42 "tag" 10 7 29) (mkPtok 41 ";" 10 17 32)) (mkPtok 42 "tag" 10 7 29) (mkPtok 4 "=" 10 11 30) (VString (mkSpan (mkPtok 31 (string_of_bytes [34; 240; 159; 152; 128; 34]%N) 10 13 31) (mkPtok 31 (string_of_bytes [34; 240; 159; 152; 128; 34]%N) 10 13 31)) (mkPtok 31 (string_of_bytes [34; 240; 159; 152; 128; 34]%N) 10 13 31)) (Some (mkPtok 41 ";" 10 17 32)))] (mkPtok 3 "}" 11 0 33)))])).
+Eval vm_compute in ("<<<M1018>>>" ++ check (runes_of_ascii "
+")).
+Eval vm_compute in ("<<<M1050>>>" ++ check (runes_of_ascii "packet x_y_z {
+}
+")).
+Eval vm_compute in ("<<<M1082>>>" ++ check (runes_of_ascii "// `tick` ""quote"" 'q'
+packet Packet	{  char	Header
+    `crlf
+line`,	}
+    options
+{falsey
+    // trailing space 
+    =
+""a	b""
+; }
+    packet Pad
+    // c
+    { repeat
+charz{
+    int32
+    Pad
+    `a\`
+,
 /// triple
-; } // @length")).
-Eval vm_compute in ("<<<M2522>>>" ++ check (runes_of_ascii "options{")).
-Eval vm_compute in ("<<<M2554>>>" ++ check (runes_of_ascii "options{}root packet
-metadata {
-@lengthOf(x ) ) float32
-body ``, }
-    MetaData
-Z9_
-    {
-    string string_ , Logon x
-,
-uint32
+// 50% %s
+char[
+0123456789
     // packet A { u8 x, }
-    Z9_,asx
-_x
-    `tab	here` , }
-")).
-Eval vm_compute in ("<<<M2586>>>" ++ check (runes_of_ascii "options{}root packet
-metadata {
-@lengthOf(x ) float32
-body ``, }
-    @leftPad
-Z9_
-    {
-    string string_ , Logon x
-,
-uint32
-    // packet A { u8 x, }
-    Z9_,asx
-_x
-    `tab	here` , }
-")).
-Eval vm_compute in ("<<<M2618>>>" ++ check (runes_of_ascii "options{}root packet
-metadata {
-@lengthOf(x ) float32
-body ``, }
-    MetaData
-Z9_
-    {
-    string string_ , Logon 
-,
-uint32
-    // packet A { u8 x, }
-    Z9_,asx
-_x
-    `tab	here` , }
-")).
-Eval vm_compute in ("<<<M2650>>>" ++ check (runes_of_ascii "options{}root packet
-metadata {
-@lengthOf(x ) float32
-body ``, }
-    MetaData
-Z9_
-    {
-    string string_ , Logon x
-,
-uint32
-    // packet A { u8 x, }
-    Z9_,asx
+    ]
+// " ++ [128512]%N ++ runes_of_ascii " emoji
+// 50% %s
+u128 @calculatedFrom( ""packet"")`// not a comment`
+, // @lengthOf(
+_x//x
+i64_  , match o as
+    /// triple
+    tag {	[ 00 ] : pack} , }	,	@lengthOf(	stringy )
+f32 body
 `tab	here`
-    _x , }
+    ,
+repeat	string_, @lengthOf( lengthOf )rootA
+    @lengthOf( x ) , i8i8 Packet ,@tag(
+    3  )
+    zchar[  0123456789 ] A
+`// not a comment` ,	repeat char[] BodyLength	`{ , }`
+    /// triple
+    , A stringy , } root packet
+a1
+{ } MetaData msg_type { string_
+    A ,
+uint16 f32a
+,
+/// triple
+// @lengthOf(
+asx MetaDataX
+,zchar[ 00 ] msg_type// c
+, }")).
+Eval vm_compute in ("<<<M1114>>>" ++ check (runes_of_ascii "packet string_
+    {	}")).
+Eval vm_compute in ("<<<M1146>>>" ++ check (runes_of_ascii "options
+{leftPad // trailing space 
+=""x y"" // " ++ [27880; 37322]%N ++ runes_of_ascii "
+; } 	 ")).
+Eval vm_compute in ("<<<M1178>>>" ++ check (@nil rune)).
+Eval vm_compute in ("<<<M1210>>>" ++ check (runes_of_ascii "MetaData _x { char[
+255
+] MetaDataX // trailing space 
+`doc` , } options { f32a =
+    zchar[
+    // " ++ [27880; 37322]%N ++ runes_of_ascii "
+    42
+]
+    ; body = ""`tick`"" //x
+;
+As = // c
+true tag =3
+    ;packetx =
+    true } //	t")).
+Eval vm_compute in ("<<<T1210>>>" ++ terms [mkTok 37 "MetaData" 1 0 false; mkTok 42 "_x" 1 9 false; mkTok 2 "{" 1 12 false; mkTok 12 "char[" 1 14 false; mkTok 30 "255" 2 0 false; mkTok 13 "]" 3 0 false; mkTok 42 "MetaDataX" 3 2 false; mkTok 44 "// trailing space " 3 12 true; mkTok 43 "`doc`" 4 0 false; mkTok 40 "," 4 6 false; mkTok 3 "}" 4 8 false; mkTok 1 "options" 4 10 false; mkTok 2 "{" 4 18 false; mkTok 42 "f32a" 4 20 false; mkTok 4 "=" 4 25 false; mkTok 14 "zchar[" 5 4 false; mkTok 44 (string_of_bytes [47; 47; 32; 230; 179; 168; 233; 135; 138]%N) 6 4 true; mkTok 30 "42" 7 4 false; mkTok 13 "]" 8 0 false; mkTok 41 ";" 9 4 false; mkTok 42 "body" 9 6 false; mkTok 4 "=" 9 11 false; mkTok 31 """`tick`""" 9 13 false; mkTok 44 "//x" 9 22 true; mkTok 41 ";" 10 0 false; mkTok 42 "As" 11 0 false; mkTok 4 "=" 11 3 false; mkTok 44 "// c" 11 5 true; mkTok 10 "true" 12 0 false; mkTok 42 "tag" 12 5 false; mkTok 4 "=" 12 9 false; mkTok 30 "3" 12 10 false; mkTok 41 ";" 13 4 false; mkTok 42 "packetx" 13 5 false; mkTok 4 "=" 13 13 false; mkTok 10 "true" 14 4 false; mkTok 3 "}" 14 9 false; mkTok 44 (string_of_bytes [47; 47; 9; 116]%N) 14 11 true; mkTok 0 "<EOF>" 14 15 false] (mkPacket (mkPtok 37 "MetaData" 1 0 0) (Some (mkPtok 3 "}" 14 9 36)) [(DMeta (mkMetaDef (mkSpan (mkPtok 37 "MetaData" 1 0 0) (mkPtok 3 "}" 4 8 10)) (mkPtok 37 "MetaData" 1 0 0) (mkPtok 42 "_x" 1 9 1) (mkPtok 2 "{" 1 12 2) [(MIDecl (mkMetaDecl (mkSpan (mkPtok 12 "char[" 1 14 3) (mkPtok 40 "," 4 6 9)) (TyFixed (mkSpan (mkPtok 12 "char[" 1 14 3) (mkPtok 13 "]" 3 0 5)) (mkFixedString (mkSpan (mkPtok 12 "char[" 1 14 3) (mkPtok 13 "]" 3 0 5)) (mkPtok 12 "char[" 1 14 3) (mkPtok 30 "255" 2 0 4) (mkPtok 13 "]" 3 0 5))) (mkPtok 42 "MetaDataX" 3 2 6) (Some (mkPtok 43 "`doc`" 4 0 8)) (mkPtok 40 "," 4 6 9)))] (mkPtok 3 "}" 4 8 10))); (DOption (mkOptionDef (mkSpan (mkPtok 1 "options" 4 10 11) (mkPtok 3 "}" 14 9 36)) (mkPtok 1 "options" 4 10 11) (mkPtok 2 "{" 4 18 12) [(mkOptionDecl (mkSpan (mkPtok 42 "f32a" 4 20 13) (mkPtok 41 ";" 9 4 19)) (mkPtok 42 "f32a" 4 20 13) (mkPtok 4 "=" 4 25 14) (VType (mkSpan (mkPtok 14 "zchar[" 5 4 15) (mkPtok 13 "]" 8 0 18)) (TyFixed (mkSpan (mkPtok 14 "zchar[" 5 4 15) (mkPtok 13 "]" 8 0 18)) (mkFixedString (mkSpan (mkPtok 14 "zchar[" 5 4 15) (mkPtok 13 "]" 8 0 18)) (mkPtok 14 "zchar[" 5 4 15) (mkPtok 30 "42" 7 4 17) (mkPtok 13 "]" 8 0 18)))) (Some (mkPtok 41 ";" 9 4 19))); (mkOptionDecl (mkSpan (mkPtok 42 "body" 9 6 20) (mkPtok 41 ";" 10 0 24)) (mkPtok 42 "body" 9 6 20) (mkPtok 4 "=" 9 11 21) (VString (mkSpan (mkPtok 31 """`tick`""" 9 13 22) (mkPtok 31 """`tick`""" 9 13 22)) (mkPtok 31 """`tick`""" 9 13 22)) (Some (mkPtok 41 ";" 10 0 24))); (mkOptionDecl (mkSpan (mkPtok 42 "As" 11 0 25) (mkPtok 10 "true" 12 0 28)) (mkPtok 42 "As" 11 0 25) (mkPtok 4 "=" 11 3 26) (VTrue (mkSpan (mkPtok 10 "true" 12 0 28) (mkPtok 10 "true" 12 0 28)) (mkPtok 10 "true" 12 0 28)) None); (mkOptionDecl (mkSpan (mkPtok 42 "tag" 12 5 29) (mkPtok 41 ";" 13 4 32)) (mkPtok 42 "tag" 12 5 29) (mkPtok 4 "=" 12 9 30) (VDigits (mkSpan (mkPtok 30 "3" 12 10 31) (mkPtok 30 "3" 12 10 31)) (mkPtok 30 "3" 12 10 31)) (Some (mkPtok 41 ";" 13 4 32))); (mkOptionDecl (mkSpan (mkPtok 42 "packetx" 13 5 33) (mkPtok 10 "true" 14 4 35)) (mkPtok 42 "packetx" 13 5 33) (mkPtok 4 "=" 13 13 34) (VTrue (mkSpan (mkPtok 10 "true" 14 4 35) (mkPtok 10 "true" 14 4 35)) (mkPtok 10 "true" 14 4 35)) None)] (mkPtok 3 "}" 14 9 36)))])).
+Eval vm_compute in ("<<<M1242>>>" ++ check (runes_of_ascii " 	 ")).
+Eval vm_compute in ("<<<M1274>>>" ++ check (runes_of_ascii "
+root packet
+    packetx	{@calculatedFrom( ""abc"")
+    As@calculatedFrom( """ ++ [233]%N ++ runes_of_ascii "t" ++ [233]%N ++ runes_of_ascii """ ) ,
+@lengthOf(
+A  ) @rightPad ( '0')@calculatedFrom(
+""it's""	)
+    uint8 u // trailing space 
+@lengthOf( u8x ) ,  @leftPad (	'0'
+) @tag( 0
+) @lengthOf(Packet ) string_
+// 50% %s
+//
+,
+    // a // b
+    matchKey @calculatedFrom( ""abc"" )
+,}
 ")).
-Eval vm_compute in ("<<<M2682>>>" ++ check (runes_of_ascii "options{}root packet
-metadata {
-@lengthOf(x ) float32
-body ``, }
-    MetaData
+Eval vm_compute in ("<<<M1306>>>" ++ check (runes_of_ascii "packet o
+{repeat
+int8 o
+, }
+MetaData i8i8{ falsey _x , leftPad
+body
+,char[
+65535 ] float `two words`
+    , f32
+BodyLength , }
+MetaData a1 {
+    uint64 Header , packetx packetx `it's`, int16 lengthOf
+, x x_y_z, } packet roots //x
+{ @calculatedFrom(
+""// no comment""
+) x_y_z// packet A { u8 x, }
+, } options	{tag =
+string
+    ; pack =65535; leftPad	=char[65535 ]
 Z9_
-    {
-    string string_ , Logon x
+    = ""`tick`"" ;
+}
+
+")).
+Eval vm_compute in ("<<<M1338>>>" ++ check (runes_of_ascii "MetaData o { char[]	Header `
+`
+    ,stringy
+    trueish
+, Logon a1
+    `line1
+line2`
+// " ++ [128512]%N ++ runes_of_ascii " emoji
+//	t
+, } root packet// a // b
+uint8x
+    { @lengthOf(zchar	)	@tag( 4294967296	)
+@leftPad ( '\x00'	)repeat BodyLength ,}
+")).
+Eval vm_compute in ("<<<M1370>>>" ++ check (runes_of_ascii "packet
+tag { rootA @lengthOf(
+    // 50% %s
+    matchKey ) `{ , }` , @calculatedFrom( ""abc"")
+/// triple
+//	t
+T
+x
+`" ++ [233]%N ++ runes_of_ascii "`
+, @calculatedFrom( ""packet"" )
+char[// `tick` ""quote"" 'q'
+10 ] uint8x `tab	here`
+, crc float , @leftPad
+    (
+' '
+)
+    // trailing space 
+    repeat i8i8 {
+    // trailing space 
+    match len as packetx
+    {//x
+""\n""
+    //
+    : a1
+,4294967296 :	falsey , 65535:o ,} // `tick` ""quote"" 'q'
+,}// 50% %s
+, @leftPad (
+    '0')
+/// triple
+//
+u64 matchKey @lengthOf(lengthOf )  , }")).
+Eval vm_compute in ("<<<M1402>>>" ++ check (runes_of_ascii "options{
+    u =
+// 50% %s
+// trailing space 
+'\x00' ; zchar//x
+= true ; }
+")).
+Eval vm_compute in ("<<<M1434>>>" ++ check (runes_of_ascii "// a // b
+ // " ++ [128512]%N ++ runes_of_ascii " emoji")).
+Eval vm_compute in ("<<<T1434>>>" ++ terms [mkTok 44 "// a // b" 1 0 true; mkTok 44 (string_of_bytes [47; 47; 32; 240; 159; 152; 128; 32; 101; 109; 111; 106; 105]%N) 2 1 true; mkTok 0 "<EOF>" 2 11 false] (mkPacket (mkPtok 0 "<EOF>" 2 11 2) None [])).
+Eval vm_compute in ("<<<M1466>>>" ++ check (runes_of_ascii "packet x_y_z { @lengthOf( crc
+    ) match repeatCount as
+u8x	{
+    // 50% %s
+    """" :
+    string_// " ++ [128512]%N ++ runes_of_ascii " emoji
+, 4294967296
+    /// triple
+    :// a // b
+msg_type
+    ,// 50% %s
+} , @tag(
+    007) float { char[
+    // c
+    3
+    ]MetaDataX @lengthOf(
+u
+) , } // c
+,@leftPad
+    ( ' ' ) repeat
+    char[]trueish
+    `two words`
+, }
+    //x
+    root packet // " ++ [128512]%N ++ runes_of_ascii " emoji
+asx {zchar[ 10 // " ++ [27880; 37322]%N ++ runes_of_ascii "
+]f32a @calculatedFrom( ""x y"" ),	@calculatedFrom( ""abc"" ) zchar[ 10 ] u8x ,
+    repeat  _x
+{// " ++ [128512]%N ++ runes_of_ascii " emoji
+int8 charz `two words` ,i16 u128 ,
+} ,/// triple
+packetx  @lengthOf( Logon
+)
+// `tick` ""quote"" 'q'
+// `tick` ""quote"" 'q'
+`" ++ [28040; 24687; 31867; 22411]%N ++ runes_of_ascii "`
+, char[00 ]
+pack , @rightPad
+( ) match
+repeatCount as	packetx {
+""1"" : int , }, match stringy as
+    leftPad
+{ [ 00 , ""a	b"" ] // " ++ [128512]%N ++ runes_of_ascii " emoji
+:
+    As, }
+    ,
+f64 crc @lengthOf(
+    float) , @leftPad('\x00' )
+    // a // b
+    @rightPad (
+    ' ' )	repeat roots packetx
+    , @tag(
+65535
+//	t
+// " ++ [128512]%N ++ runes_of_ascii " emoji
+)  uint64 matchKey,}
+    // a // b
+    root packet Logon
+    { } MetaData Packet {
+    string asx `u8 x,`
+    , }
+")).
+Eval vm_compute in ("<<<M1498>>>" ++ check (runes_of_ascii "MetaData // c
+Header {
+Header
+u ``
+// `tick` ""quote"" 'q'
+// @lengthOf(
+, char[
+4294967296 ]
+u128 ,
+    float32 falsey ,
+char[10 ]
+    // c
+    roots`tab	here`
+, int64 calculatedFrom `" ++ [233]%N ++ runes_of_ascii "`
+, }")).
+Eval vm_compute in ("<<<M1530>>>" ++ check (runes_of_ascii "MetaData zchar{
+zchar[
+    4294967296 ] _x`tab	here`
+    ,} MetaData
+leftPad {
+char[
+65535
+] x//x
+`" ++ [233]%N ++ runes_of_ascii "` ,  char[ 3 ] options1
+// `tick` ""quote"" 'q'
+// `tick` ""quote"" 'q'
+, uint8 Foo `tab	here`
+// " ++ [128512]%N ++ runes_of_ascii " emoji
+// `tick` ""quote"" 'q'
+,}	root packet options1 {
+    repeat	u	{
+    match chars
+    as // a // b
+packetx{ [
+    1
+// " ++ [128512]%N ++ runes_of_ascii " emoji
+//x
+, // c
+""packet"" , ""{,}"" ,
+""it's"", """ ++ [233]%N ++ runes_of_ascii "t" ++ [233]%N ++ runes_of_ascii """ ,00 ] :
+    A , [ ""CRC32""
+]
+: falsey,""abc"": i64_ , ""a\\"": crc
+    , [ ""{,}"" , 10 ] : trueish ,
+""1""
+:
+    string_}
+, } , char[3
+// " ++ [27880; 37322]%N ++ runes_of_ascii "
+// 50% %s
+] Pad
+`{ , }`
+    , repeat char[
+    // `tick` ""quote"" 'q'
+    255 ]
+    /// triple
+    crc ,
+@calculatedFrom( ""packet"" ) @tag(
+3) @tag(00) Packet @calculatedFrom(""" ++ [128512]%N ++ runes_of_ascii """
+) ,  }
+")).
+Eval vm_compute in ("<<<M1562>>>" ++ check (runes_of_ascii "
+")).
+Eval vm_compute in ("<<<M1594>>>" ++ check (runes_of_ascii "MetaData tag	{
+_x	u	,chars charz `tab	here`
+    ,As matchKey ,
+    a1 i64_ // @lengthOf(
+`say ""hi""` , } options {Z9_
+    =char//x
+;Header =
+    f32 ; } root packet A// " ++ [27880; 37322]%N ++ runes_of_ascii "
+{ @leftPad ()repeat
+    Packet,@lengthOf(u8x ) stringy @calculatedFrom( ""abc""
+    ) `say ""hi""`, } root packet asx  { As@lengthOf(
+matchKey ) `it's` ,
+    //x
+    crc
+@calculatedFrom( """ ++ [28040; 24687]%N ++ runes_of_ascii """ ) `line1
+line2` ,@lengthOf(uint8x
+    )  body @lengthOf( charz )`// not a comment` , As@calculatedFrom(
+""" ++ [128512]%N ++ runes_of_ascii """
+) `// not a comment` , }
+")).
+Eval vm_compute in ("<<<M1626>>>" ++ check (runes_of_ascii "options{
+_x = char[
+    7
+] // " ++ [128512]%N ++ runes_of_ascii " emoji
+;roots = 0123456789	; calculatedFrom = true
+i8i8 = string	; } packet uint8x
+{ repeat rootA x_y_z `
+` , }
+    options {Z9_
+=1
+    ; x_y_z
+= 4294967296
+; Foo= '\x00' ;
+chars	=//
+""packet"" T = ""abc""}")).
+Eval vm_compute in ("<<<M1658>>>" ++ check (runes_of_ascii "root // " ++ [27880; 37322]%N ++ runes_of_ascii "
+packet u128// " ++ [128512]%N ++ runes_of_ascii " emoji
+{ } options { lengthOf =""// no comment""
+    ;	stringy =
+' ' int	=
+""CRC32"" uint8x = false }	packet
+asx { @tag(255 )
+// " ++ [27880; 37322]%N ++ runes_of_ascii "
+/// triple
+@lengthOf( Header	) int64//	t
+options1
+@lengthOf( zchar)`line1
+line2` , // c
+@rightPad
+(
+    ' ' )
+match //x
+Z9_ as options1 {
+[ 65535 , 4294967296
+// " ++ [128512]%N ++ runes_of_ascii " emoji
+//
+, ""a\\""
+    , """ ++ [128512]%N ++ runes_of_ascii """ ,""{,}"" ,
+00 ,// trailing space 
+1
+// c
+// " ++ [128512]%N ++ runes_of_ascii " emoji
 ,
-uint32
+//	t
+//	t
+""a	b"" ]: Packet , [
+    007
+,""abc"" , ""it's"", 7
+, ""\n"" ] : //x
+pack
+,
+    [ 4294967296
+] : u
+, //
+0 :
+msg_type, [ 65535
+    , ""a\\"",
+    // 50% %s
+    42 ] :body , 65535
+    // a // b
+    : u , } ,@lengthOf( BodyLength )
+u8
+    As @lengthOf( _x),
+} MetaData body
+{ f32a u8x, }
+")).
+Eval vm_compute in ("<<<T1658>>>" ++ terms [mkTok 34 "root" 1 0 false; mkTok 44 (string_of_bytes [47; 47; 32; 230; 179; 168; 233; 135; 138]%N) 1 5 true; mkTok 35 "packet" 2 0 false; mkTok 42 "u128" 2 7 false; mkTok 44 (string_of_bytes [47; 47; 32; 240; 159; 152; 128; 32; 101; 109; 111; 106; 105]%N) 2 11 true; mkTok 2 "{" 3 0 false; mkTok 3 "}" 3 2 false; mkTok 1 "options" 3 4 false; mkTok 2 "{" 3 12 false; mkTok 42 "lengthOf" 3 14 false; mkTok 4 "=" 3 23 false; mkTok 31 """// no comment""" 3 24 false; mkTok 41 ";" 4 4 false; mkTok 42 "stringy" 4 6 false; mkTok 4 "=" 4 14 false; mkTok 33 "' '" 5 0 false; mkTok 42 "int" 5 4 false; mkTok 4 "=" 5 8 false; mkTok 31 """CRC32""" 6 0 false; mkTok 42 "uint8x" 6 8 false; mkTok 4 "=" 6 15 false; mkTok 11 "false" 6 17 false; mkTok 3 "}" 6 23 false; mkTok 35 "packet" 6 25 false; mkTok 42 "asx" 7 0 false; mkTok 2 "{" 7 4 false; mkTok 9 "@tag(" 7 6 false; mkTok 30 "255" 7 11 false; mkTok 6 ")" 7 15 false; mkTok 44 (string_of_bytes [47; 47; 32; 230; 179; 168; 233; 135; 138]%N) 8 0 true; mkTok 44 "/// triple" 9 0 true; mkTok 7 "@lengthOf(" 10 0 false; mkTok 42 "Header" 10 11 false; mkTok 6 ")" 10 18 false; mkTok 27 "int64" 10 20 false; mkTok 44 (string_of_bytes [47; 47; 9; 116]%N) 10 25 true; mkTok 42 "options1" 11 0 false; mkTok 7 "@lengthOf(" 12 0 false; mkTok 42 "zchar" 12 11 false; mkTok 6 ")" 12 16 false; mkTok 43 (string_of_bytes [96; 108; 105; 110; 101; 49; 10; 108; 105; 110; 101; 50; 96]%N) 12 17 false; mkTok 40 "," 13 7 false; mkTok 44 "// c" 13 9 true; mkTok 32 "@rightPad" 14 0 false; mkTok 8 "(" 15 0 false; mkTok 33 "' '" 16 4 false; mkTok 6 ")" 16 8 false; mkTok 38 "match" 17 0 false; mkTok 44 "//x" 17 6 true; mkTok 42 "Z9_" 18 0 false; mkTok 17 "as" 18 4 false; mkTok 42 "options1" 18 7 false; mkTok 2 "{" 18 16 false; mkTok 18 "[" 19 0 false; mkTok 30 "65535" 19 2 false; mkTok 40 "," 19 8 false; mkTok 30 "4294967296" 19 10 false; mkTok 44 (string_of_bytes [47; 47; 32; 240; 159; 152; 128; 32; 101; 109; 111; 106; 105]%N) 20 0 true; mkTok 44 "//" 21 0 true; mkTok 40 "," 22 0 false; mkTok 31 """a\\""" 22 2 false; mkTok 40 "," 23 4 false; mkTok 31 (string_of_bytes [34; 240; 159; 152; 128; 34]%N) 23 6 false; mkTok 40 "," 23 10 false; mkTok 31 """{,}""" 23 11 false; mkTok 40 "," 23 17 false; mkTok 30 "00" 24 0 false; mkTok 40 "," 24 3 false; mkTok 44 "// trailing space " 24 4 true; mkTok 30 "1" 25 0 false; mkTok 44 "// c" 26 0 true; mkTok 44 (string_of_bytes [47; 47; 32; 240; 159; 152; 128; 32; 101; 109; 111; 106; 105]%N) 27 0 true; mkTok 40 "," 28 0 false; mkTok 44 (string_of_bytes [47; 47; 9; 116]%N) 29 0 true; mkTok 44 (string_of_bytes [47; 47; 9; 116]%N) 30 0 true; mkTok 31 (string_of_bytes [34; 97; 9; 98; 34]%N) 31 0 false; mkTok 13 "]" 31 6 false; mkTok 39 ":" 31 7 false; mkTok 42 "Packet" 31 9 false; mkTok 40 "," 31 16 false; mkTok 18 "[" 31 18 false; mkTok 30 "007" 32 4 false; mkTok 40 "," 33 0 false; mkTok 31 """abc""" 33 1 false; mkTok 40 "," 33 7 false; mkTok 31 """it's""" 33 9 false; mkTok 40 "," 33 15 false; mkTok 30 "7" 33 17 false; mkTok 40 "," 34 0 false; mkTok 31 """\n""" 34 2 false; mkTok 13 "]" 34 7 false; mkTok 39 ":" 34 9 false; mkTok 44 "//x" 34 11 true; mkTok 42 "pack" 35 0 false; mkTok 40 "," 36 0 false; mkTok 18 "[" 37 4 false; mkTok 30 "4294967296" 37 6 false; mkTok 13 "]" 38 0 false; mkTok 39 ":" 38 2 false; mkTok 42 "u" 38 4 false; mkTok 40 "," 39 0 false; mkTok 44 "//" 39 2 true; mkTok 30 "0" 40 0 false; mkTok 39 ":" 40 2 false; mkTok 42 "msg_type" 41 0 false; mkTok 40 "," 41 8 false; mkTok 18 "[" 41 10 false; mkTok 30 "65535" 41 12 false; mkTok 40 "," 42 4 false; mkTok 31 """a\\""" 42 6 false; mkTok 40 "," 42 11 false; mkTok 44 "// 50% %s" 43 4 true; mkTok 30 "42" 44 4 false; mkTok 13 "]" 44 7 false; mkTok 39 ":" 44 9 false; mkTok 42 "body" 44 10 false; mkTok 40 "," 44 15 false; mkTok 30 "65535" 44 17 false; mkTok 44 "// a // b" 45 4 true; mkTok 39 ":" 46 4 false; mkTok 42 "u" 46 6 false; mkTok 40 "," 46 8 false; mkTok 3 "}" 46 10 false; mkTok 40 "," 46 12 false; mkTok 7 "@lengthOf(" 46 13 false; mkTok 42 "BodyLength" 46 24 false; mkTok 6 ")" 46 35 false; mkTok 20 "u8" 47 0 false; mkTok 42 "As" 48 4 false; mkTok 7 "@lengthOf(" 48 7 false; mkTok 42 "_x" 48 18 false; mkTok 6 ")" 48 20 false; mkTok 40 "," 48 21 false; mkTok 3 "}" 49 0 false; mkTok 37 "MetaData" 49 2 false; mkTok 42 "body" 49 11 false; mkTok 2 "{" 50 0 false; mkTok 42 "f32a" 50 2 false; mkTok 42 "u8x" 50 7 false; mkTok 40 "," 50 10 false; mkTok 3 "}" 50 12 false; mkTok 0 "<EOF>" 51 0 false] (mkPacket (mkPtok 34 "root" 1 0 0) (Some (mkPtok 3 "}" 50 12 140)) [(DPacket (mkPacketDef (mkSpan (mkPtok 34 "root" 1 0 0) (mkPtok 3 "}" 3 2 6)) (Some (mkPtok 34 "root" 1 0 0)) (mkPtok 35 "packet" 2 0 2) (mkPtok 42 "u128" 2 7 3) (mkPtok 2 "{" 3 0 5) [] (mkPtok 3 "}" 3 2 6))); (DOption (mkOptionDef (mkSpan (mkPtok 1 "options" 3 4 7) (mkPtok 3 "}" 6 23 22)) (mkPtok 1 "options" 3 4 7) (mkPtok 2 "{" 3 12 8) [(mkOptionDecl (mkSpan (mkPtok 42 "lengthOf" 3 14 9) (mkPtok 41 ";" 4 4 12)) (mkPtok 42 "lengthOf" 3 14 9) (mkPtok 4 "=" 3 23 10) (VString (mkSpan (mkPtok 31 """// no comment""" 3 24 11) (mkPtok 31 """// no comment""" 3 24 11)) (mkPtok 31 """// no comment""" 3 24 11)) (Some (mkPtok 41 ";" 4 4 12))); (mkOptionDecl (mkSpan (mkPtok 42 "stringy" 4 6 13) (mkPtok 33 "' '" 5 0 15)) (mkPtok 42 "stringy" 4 6 13) (mkPtok 4 "=" 4 14 14) (VPaddingChar (mkSpan (mkPtok 33 "' '" 5 0 15) (mkPtok 33 "' '" 5 0 15)) (mkPtok 33 "' '" 5 0 15)) None); (mkOptionDecl (mkSpan (mkPtok 42 "int" 5 4 16) (mkPtok 31 """CRC32""" 6 0 18)) (mkPtok 42 "int" 5 4 16) (mkPtok 4 "=" 5 8 17) (VString (mkSpan (mkPtok 31 """CRC32""" 6 0 18) (mkPtok 31 """CRC32""" 6 0 18)) (mkPtok 31 """CRC32""" 6 0 18)) None); (mkOptionDecl (mkSpan (mkPtok 42 "uint8x" 6 8 19) (mkPtok 11 "false" 6 17 21)) (mkPtok 42 "uint8x" 6 8 19) (mkPtok 4 "=" 6 15 20) (VFalse (mkSpan (mkPtok 11 "false" 6 17 21) (mkPtok 11 "false" 6 17 21)) (mkPtok 11 "false" 6 17 21)) None)] (mkPtok 3 "}" 6 23 22))); (DPacket (mkPacketDef (mkSpan (mkPtok 35 "packet" 6 25 23) (mkPtok 3 "}" 49 0 133)) None (mkPtok 35 "packet" 6 25 23) (mkPtok 42 "asx" 7 0 24) (mkPtok 2 "{" 7 4 25) [(mkFieldWithAttr (mkSpan (mkPtok 9 "@tag(" 7 6 26) (mkPtok 40 "," 13 7 41)) [(FATag (mkSpan (mkPtok 9 "@tag(" 7 6 26) (mkPtok 6 ")" 7 15 28)) (mkTagAttr (mkSpan (mkPtok 9 "@tag(" 7 6 26) (mkPtok 6 ")" 7 15 28)) (mkPtok 9 "@tag(" 7 6 26) (mkPtok 30 "255" 7 11 27) (mkPtok 6 ")" 7 15 28))); (FALengthOf (mkSpan (mkPtok 7 "@lengthOf(" 10 0 31) (mkPtok 6 ")" 10 18 33)) (mkLengthOf (mkSpan (mkPtok 7 "@lengthOf(" 10 0 31) (mkPtok 6 ")" 10 18 33)) (mkPtok 7 "@lengthOf(" 10 0 31) (mkPtok 42 "Header" 10 11 32) (mkPtok 6 ")" 10 18 33)))] (LengthField (mkSpan (mkPtok 27 "int64" 10 20 34) (mkPtok 40 "," 13 7 41)) (mkLengthFieldDecl (mkSpan (mkPtok 27 "int64" 10 20 34) (mkPtok 40 "," 13 7 41)) (Some (TyBasic (mkSpan (mkPtok 27 "int64" 10 20 34) (mkPtok 27 "int64" 10 20 34)) (mkBasicType (mkSpan (mkPtok 27 "int64" 10 20 34) (mkPtok 27 "int64" 10 20 34)) (mkPtok 27 "int64" 10 20 34)))) (mkPtok 42 "options1" 11 0 36) (mkLengthOf (mkSpan (mkPtok 7 "@lengthOf(" 12 0 37) (mkPtok 6 ")" 12 16 39)) (mkPtok 7 "@lengthOf(" 12 0 37) (mkPtok 42 "zchar" 12 11 38) (mkPtok 6 ")" 12 16 39)) (Some (mkPtok 43 (string_of_bytes [96; 108; 105; 110; 101; 49; 10; 108; 105; 110; 101; 50; 96]%N) 12 17 40)) (mkPtok 40 "," 13 7 41)))); (mkFieldWithAttr (mkSpan (mkPtok 32 "@rightPad" 14 0 43) (mkPtok 40 "," 46 12 123)) [(FAPadding (mkSpan (mkPtok 32 "@rightPad" 14 0 43) (mkPtok 6 ")" 16 8 46)) (mkPaddingAttr (mkSpan (mkPtok 32 "@rightPad" 14 0 43) (mkPtok 6 ")" 16 8 46)) (mkPtok 32 "@rightPad" 14 0 43) (mkPtok 8 "(" 15 0 44) (Some (mkPtok 33 "' '" 16 4 45)) (mkPtok 6 ")" 16 8 46)))] (MatchField (mkSpan (mkPtok 38 "match" 17 0 47) (mkPtok 40 "," 46 12 123)) (mkMatchFieldDecl (mkSpan (mkPtok 38 "match" 17 0 47) (mkPtok 3 "}" 46 10 122)) (mkPtok 38 "match" 17 0 47) (mkPtok 42 "Z9_" 18 0 49) (mkPtok 17 "as" 18 4 50) (mkPtok 42 "options1" 18 7 51) (mkPtok 2 "{" 18 16 52) [(mkMatchPair (mkSpan (mkPtok 18 "[" 19 0 53) (mkPtok 40 "," 31 16 79)) (MKList (mkKeyList (mkSpan (mkPtok 18 "[" 19 0 53) (mkPtok 13 "]" 31 6 76)) (mkPtok 18 "[" 19 0 53) (mkPtok 30 "65535" 19 2 54) [((mkPtok 40 "," 19 8 55), (mkPtok 30 "4294967296" 19 10 56)); ((mkPtok 40 "," 22 0 59), (mkPtok 31 """a\\""" 22 2 60)); ((mkPtok 40 "," 23 4 61), (mkPtok 31 (string_of_bytes [34; 240; 159; 152; 128; 34]%N) 23 6 62)); ((mkPtok 40 "," 23 10 63), (mkPtok 31 """{,}""" 23 11 64)); ((mkPtok 40 "," 23 17 65), (mkPtok 30 "00" 24 0 66)); ((mkPtok 40 "," 24 3 67), (mkPtok 30 "1" 25 0 69)); ((mkPtok 40 "," 28 0 72), (mkPtok 31 (string_of_bytes [34; 97; 9; 98; 34]%N) 31 0 75))] (mkPtok 13 "]" 31 6 76))) (mkPtok 39 ":" 31 7 77) (mkPtok 42 "Packet" 31 9 78) (Some (mkPtok 40 "," 31 16 79))); (mkMatchPair (mkSpan (mkPtok 18 "[" 31 18 80) (mkPtok 40 "," 36 0 94)) (MKList (mkKeyList (mkSpan (mkPtok 18 "[" 31 18 80) (mkPtok 13 "]" 34 7 90)) (mkPtok 18 "[" 31 18 80) (mkPtok 30 "007" 32 4 81) [((mkPtok 40 "," 33 0 82), (mkPtok 31 """abc""" 33 1 83)); ((mkPtok 40 "," 33 7 84), (mkPtok 31 """it's""" 33 9 85)); ((mkPtok 40 "," 33 15 86), (mkPtok 30 "7" 33 17 87)); ((mkPtok 40 "," 34 0 88), (mkPtok 31 """\n""" 34 2 89))] (mkPtok 13 "]" 34 7 90))) (mkPtok 39 ":" 34 9 91) (mkPtok 42 "pack" 35 0 93) (Some (mkPtok 40 "," 36 0 94))); (mkMatchPair (mkSpan (mkPtok 18 "[" 37 4 95) (mkPtok 40 "," 39 0 100)) (MKList (mkKeyList (mkSpan (mkPtok 18 "[" 37 4 95) (mkPtok 13 "]" 38 0 97)) (mkPtok 18 "[" 37 4 95) (mkPtok 30 "4294967296" 37 6 96) [] (mkPtok 13 "]" 38 0 97))) (mkPtok 39 ":" 38 2 98) (mkPtok 42 "u" 38 4 99) (Some (mkPtok 40 "," 39 0 100))); (mkMatchPair (mkSpan (mkPtok 30 "0" 40 0 102) (mkPtok 40 "," 41 8 105)) (MKDigits (mkPtok 30 "0" 40 0 102)) (mkPtok 39 ":" 40 2 103) (mkPtok 42 "msg_type" 41 0 104) (Some (mkPtok 40 "," 41 8 105))); (mkMatchPair (mkSpan (mkPtok 18 "[" 41 10 106) (mkPtok 40 "," 44 15 116)) (MKList (mkKeyList (mkSpan (mkPtok 18 "[" 41 10 106) (mkPtok 13 "]" 44 7 113)) (mkPtok 18 "[" 41 10 106) (mkPtok 30 "65535" 41 12 107) [((mkPtok 40 "," 42 4 108), (mkPtok 31 """a\\""" 42 6 109)); ((mkPtok 40 "," 42 11 110), (mkPtok 30 "42" 44 4 112))] (mkPtok 13 "]" 44 7 113))) (mkPtok 39 ":" 44 9 114) (mkPtok 42 "body" 44 10 115) (Some (mkPtok 40 "," 44 15 116))); (mkMatchPair (mkSpan (mkPtok 30 "65535" 44 17 117) (mkPtok 40 "," 46 8 121)) (MKDigits (mkPtok 30 "65535" 44 17 117)) (mkPtok 39 ":" 46 4 119) (mkPtok 42 "u" 46 6 120) (Some (mkPtok 40 "," 46 8 121)))] (mkPtok 3 "}" 46 10 122)) (mkPtok 40 "," 46 12 123))); (mkFieldWithAttr (mkSpan (mkPtok 7 "@lengthOf(" 46 13 124) (mkPtok 40 "," 48 21 132)) [(FALengthOf (mkSpan (mkPtok 7 "@lengthOf(" 46 13 124) (mkPtok 6 ")" 46 35 126)) (mkLengthOf (mkSpan (mkPtok 7 "@lengthOf(" 46 13 124) (mkPtok 6 ")" 46 35 126)) (mkPtok 7 "@lengthOf(" 46 13 124) (mkPtok 42 "BodyLength" 46 24 125) (mkPtok 6 ")" 46 35 126)))] (LengthField (mkSpan (mkPtok 20 "u8" 47 0 127) (mkPtok 40 "," 48 21 132)) (mkLengthFieldDecl (mkSpan (mkPtok 20 "u8" 47 0 127) (mkPtok 40 "," 48 21 132)) (Some (TyBasic (mkSpan (mkPtok 20 "u8" 47 0 127) (mkPtok 20 "u8" 47 0 127)) (mkBasicType (mkSpan (mkPtok 20 "u8" 47 0 127) (mkPtok 20 "u8" 47 0 127)) (mkPtok 20 "u8" 47 0 127)))) (mkPtok 42 "As" 48 4 128) (mkLengthOf (mkSpan (mkPtok 7 "@lengthOf(" 48 7 129) (mkPtok 6 ")" 48 20 131)) (mkPtok 7 "@lengthOf(" 48 7 129) (mkPtok 42 "_x" 48 18 130) (mkPtok 6 ")" 48 20 131)) None (mkPtok 40 "," 48 21 132))))] (mkPtok 3 "}" 49 0 133))); (DMeta (mkMetaDef (mkSpan (mkPtok 37 "MetaData" 49 2 134) (mkPtok 3 "}" 50 12 140)) (mkPtok 37 "MetaData" 49 2 134) (mkPtok 42 "body" 49 11 135) (mkPtok 2 "{" 50 0 136) [(MIRef (mkRefMetaDecl (mkSpan (mkPtok 42 "f32a" 50 2 137) (mkPtok 40 "," 50 10 139)) (mkPtok 42 "f32a" 50 2 137) (mkPtok 42 "u8x" 50 7 138) None (mkPtok 40 "," 50 10 139)))] (mkPtok 3 "}" 50 12 140)))])).
+Eval vm_compute in ("<<<M1690>>>" ++ check (runes_of_ascii "//	t
+root packet //
+u8x{
+@tag( 0123456789
+    )
+    match trueish
+    as a1	{[
+    255,
+    ""abc"" ] : o
+, // " ++ [27880; 37322]%N ++ runes_of_ascii "
+},
+metadata f32a,a1	float
+    `tab	here` , i8i8 { char[
+    // `tick` ""quote"" 'q'
+    4294967296 // a // b
+]
+Header
+    `` , // " ++ [128512]%N ++ runes_of_ascii " emoji
+x_y_z @calculatedFrom(""{,}"" ) , match
+    x as
+    //	t
+    _x {
+1 : uint8x , [ ""CRC32""
+, 4294967296 ] : Pad  ,
+    """"
+:
+uint8x , 65535
+: charz 255
+:
+    roots } , } ,
+    uint16//	t
+u128`u8 x,`
+    ,	} MetaData//	t
+As{
+uint8 f32a
+,char[0] u128 `// not a comment` , char[7
+    ]
+BodyLength ,BodyLength
+matchKey , f32 string_	`tab	here`
+, float32 trueish
+`a\`,  }  packet packetx { x_y_z
+A`crlf
+line`, } 	 ")).
+Eval vm_compute in ("<<<M1722>>>" ++ check (runes_of_ascii "
+options { } MetaData o{ u
+i8i8 `doc` ,}
+    packet x_y_z { match  msg_type as
+asx {
+0123456789 : A , 42:
+MetaDataX ,[ 42 ] : MetaDataX,
+    ""packet"" :
+    u8x
+,
+}, match  charz
+    as asx{ [ ""a	b"" ] :BodyLength , 65535: asx 10 :  uint8x, ""a	b"" : uint8x }, }
+")).
+Eval vm_compute in ("<<<M1754>>>" ++ check (runes_of_ascii "root
+packet chars{ } MetaData
+crc
+{ zchar[ 255 ] charz , As msg_type
+    //x
+    , // a // b
+u8x
+    body`{ , }` , char[] metadata // " ++ [27880; 37322]%N ++ runes_of_ascii "
+,  float32	zchar
+`
+`	, } options {	Z9_
+    =string; }// trailing space 
+MetaData Packet	{
+zchar options1 , uint16 repeatCount `" ++ [28040; 24687; 31867; 22411]%N ++ runes_of_ascii "`, }
+")).
+Eval vm_compute in ("<<<M1786>>>" ++ check (runes_of_ascii "options
+{ Logon = ""\n""
+;
+i8i8 = u64	;repeatCount= 3;  f32a
+='0'roots =  007
+} packet  pack
+    // c
+    { @tag(7)
+A @lengthOf(
+    x
+    )`100% of %d` ,
+repeat  pack {
+// a // b
+// " ++ [27880; 37322]%N ++ runes_of_ascii "
+u64 A @lengthOf(zchar )// @lengthOf(
+`it's` , }
+    ,int8
+Packet // c
+, string //	t
+Header // trailing space 
+, repeat	falsey , // packet A { u8 x, }
+@rightPad( '\x00' ) @lengthOf(
+    // " ++ [128512]%N ++ runes_of_ascii " emoji
+    chars
+    // a // b
+    )
+    @tag( 65535 ) matchKey stringy, @calculatedFrom(
+    // `tick` ""quote"" 'q'
+    """" ) float
+options1, falsey { repeat int8 pack , }
+,
+    @calculatedFrom(""x y"") @tag(4294967296 )
+    @rightPad () u32
+    matchKey @calculatedFrom(
+""" ++ [128512]%N ++ runes_of_ascii """
+// @lengthOf(
+// c
+) // packet A { u8 x, }
+,T @lengthOf( Header ) `{ , }`,}
+MetaData roots{
+}
+")).
+Eval vm_compute in ("<<<M1818>>>" ++ check (runes_of_ascii "
+packet
+o { //
+@lengthOf(
+x) char[7 ] repeatCount
+// a // b
+// 50% %s
+,
+} root packet matchKey{ @lengthOf(repeatCount
+    )
+@tag( // " ++ [128512]%N ++ runes_of_ascii " emoji
+255)//
+@lengthOf(a1) repeat T { match repeatCount as
+tag { 7
+: trueish }  ,
+A
+, } ,}")).
+Eval vm_compute in ("<<<M1850>>>" ++ check (runes_of_ascii "
+MetaData tag { zchar[ 3 ] // a // b
+Header , uint8x a1 `doc`, char[ 65535
+]
+    // " ++ [128512]%N ++ runes_of_ascii " emoji
+    u	,  char[]
+    i64_
+`it's`,
+    string_ Pad
+    , } root
+//x
+//	t
+packet
+options1 // 50% %s
+{ Header
+    Header
+,}
+root packet // c
+A { match i64_
+as roots
+    // a // b
+    { 1:
+    o
+, 255
+: lengthOf	, }  , //	t
+} packet msg_type{ asx
+@calculatedFrom(""" ++ [233]%N ++ runes_of_ascii "t" ++ [233]%N ++ runes_of_ascii """ /// triple
+) , // packet A { u8 x, }
+match x
+    // c
+    as //
+crc{
+[ """ ++ [233]%N ++ runes_of_ascii "t" ++ [233]%N ++ runes_of_ascii """, ""CRC32""  ,
+""// no comment"" ,
+    ""\n""	, 255
+, """"
+    ,
+    """" /// triple
+,
+7] :Packet , } , @calculatedFrom( """"  )
+// trailing space 
+// `tick` ""quote"" 'q'
+uint8
+    // trailing space 
+    Header
+    , repeat string
+    string_
+, string zchar ,
+    @tag( 0 )	MetaDataX{ repeat
+    int64 zchar ,	} ,// " ++ [27880; 37322]%N ++ runes_of_ascii "
+@calculatedFrom(""" ++ [128512]%N ++ runes_of_ascii """ )
+zchar @lengthOf( leftPad )
+    ,
+    @leftPad
+( '0')@lengthOf( Pad )u128 rootA ,
+@rightPad( ) /// triple
+@tag( // 50% %s
+0123456789 ) @rightPad (	'\x00' )
+char[ 7]
+    // 50% %s
+    packetx
+// c
+/// triple
+,  @tag( 3) @tag(  42 ) i32
+    Z9_
+,
+    }
+    packet x_y_z  {
+    uint8 trueish@calculatedFrom(""abc"" )	,char[
+1//x
+]
+    zchar @calculatedFrom(
+    ""CRC32""
+// " ++ [27880; 37322]%N ++ runes_of_ascii "
+// " ++ [27880; 37322]%N ++ runes_of_ascii "
+) `tab	here`, u8x ,repeat
+    Logon  { repeat
+// " ++ [128512]%N ++ runes_of_ascii " emoji
+// @lengthOf(
+int32 stringy , f32a @lengthOf( //
+string_ )
+    , Logon @lengthOf( trueish ),	}
+    //	t
+    , @rightPad (
+'0'
+    ) stringy@lengthOf( body ) , char[3 ] lengthOf//x
+,// packet A { u8 x, }
+@leftPad (
+'\x00') match	BodyLength //	t
+as Header {
+""abc""  :packetx , // a // b
+""`tick`"" : calculatedFrom ,  4294967296 :asx
+, }
+, lengthOf
+    { char[ 7 ]_x @lengthOf( _x
+) `it's` ,
+    match
+    i64_ as
+    // c
+    chars	{ [	7 , ""\" ++ [233]%N ++ runes_of_ascii """, 1 ,42	, 7
+,3 , 42 // " ++ [128512]%N ++ runes_of_ascii " emoji
+] :
+    options1 , }, match
+    tag as u {[ ""{,}"" ,
+    ""a\\""]
+: A ,},
+//x
+// @lengthOf(
+int16
+_x @calculatedFrom(	""\" ++ [233]%N ++ runes_of_ascii """
+// `tick` ""quote"" 'q'
+// a // b
+) `it's` ,// " ++ [27880; 37322]%N ++ runes_of_ascii "
+} ,
+} //")).
+Eval vm_compute in ("<<<M1882>>>" ++ check (@nil rune)).
+Eval vm_compute in ("<<<T1882>>>" ++ terms [mkTok 0 "<EOF>" 1 0 false] (mkPacket (mkPtok 0 "<EOF>" 1 0 0) None [])).
+Eval vm_compute in ("<<<M1914>>>" ++ check (runes_of_ascii "  options { }")).
+Eval vm_compute in ("<<<M1946>>>" ++ check (runes_of_ascii "
+root
+packet asx
+    { @tag( 10)  char[]	roots `crlf
+line`, repeat
+    int32 asx,
+    Header `tab	here` , } // packet A { u8 x, }")).
+Eval vm_compute in ("<<<M1978>>>" ++ check (runes_of_ascii "packet	Z9_ { }")).
+Eval vm_compute in ("<<<M2010>>>" ++ check (runes_of_ascii "MetaData MetaData repeatCount { float64 packetx,
+} root packet  metadata {
+char _x @lengthOf( trueish ), @leftPad
+( ' '// " ++ [27880; 37322]%N ++ runes_of_ascii "
+)/// triple
+char[] len`doc` , // packet A { u8 x, }
+repeatCount , }
+")).
+Eval vm_compute in ("<<<M2042>>>" ++ check (runes_of_ascii "MetaData repeatCount { float64 packetx,
+packet root packet  metadata {
+char _x @lengthOf( trueish ), @leftPad
+( ' '// " ++ [27880; 37322]%N ++ runes_of_ascii "
+)/// triple
+char[] len`doc` , // packet A { u8 x, }
+repeatCount , }
+")).
+Eval vm_compute in ("<<<M2074>>>" ++ check (runes_of_ascii "MetaData repeatCount { float64 packetx,
+} root packet  metadata {
+char _x  trueish ), @leftPad
+( ' '// " ++ [27880; 37322]%N ++ runes_of_ascii "
+)/// triple
+char[] len`doc` , // packet A { u8 x, }
+repeatCount , }
+")).
+Eval vm_compute in ("<<<M2106>>>" ++ check (runes_of_ascii "MetaData repeatCount { float64 packetx,
+} root packet  metadata {
+char _x @lengthOf( trueish ), @leftPad
+( )// " ++ [27880; 37322]%N ++ runes_of_ascii "
+' '/// triple
+char[] len`doc` , // packet A { u8 x, }
+repeatCount , }
+")).
+Eval vm_compute in ("<<<M2138>>>" ++ check (runes_of_ascii "MetaData repeatCount { float64 packetx,
+} root packet  metadata {
+char _x @lengthOf( trueish ), @leftPad
+( ' '// " ++ [27880; 37322]%N ++ runes_of_ascii "
+)/// triple
+char[] len`doc` ,")).
+Eval vm_compute in ("<<<M2170>>>" ++ check (runes_of_ascii "{
+leftPad
+    =65535
+;
+a1 = true ; packetx=  '\x00' ; packetx
+=  """ ++ [28040; 24687]%N ++ runes_of_ascii """MetaDataX= // " ++ [27880; 37322]%N ++ runes_of_ascii "
+false }root // c
+packet // packet A { u8 x, }
+Pad { repeat
+u8 Header
+// packet A { u8 x, }
+//	t
+`{ , }`
+// a // b
+//x
+, }
+")).
+Eval vm_compute in ("<<<M2202>>>" ++ check (runes_of_ascii "options{
+leftPad
+    =65535
+;
+= a1 true ; packetx=  '\x00' ; packetx
+=  """ ++ [28040; 24687]%N ++ runes_of_ascii """MetaDataX= // " ++ [27880; 37322]%N ++ runes_of_ascii "
+false }root // c
+packet // packet A { u8 x, }
+Pad { repeat
+u8 Header
+// packet A { u8 x, }
+//	t
+`{ , }`
+// a // b
+//x
+, }
+")).
+Eval vm_compute in ("<<<M2234>>>" ++ check (runes_of_ascii "options{
+leftPad
+    =65535
+;
+a1 = true ; packetx=")).
+Eval vm_compute in ("<<<M2266>>>" ++ check (runes_of_ascii "options{
+leftPad
+    =65535
+;
+a1 = true ; packetx=  '\x00' ; packetx
+=  """ ++ [28040; 24687]%N ++ runes_of_ascii """MetaDataX= // " ++ [27880; 37322]%N ++ runes_of_ascii "
+false false }root // c
+packet // packet A { u8 x, }
+Pad { repeat
+u8 Header
+// packet A { u8 x, }
+//	t
+`{ , }`
+// a // b
+//x
+, }
+")).
+Eval vm_compute in ("<<<M2298>>>" ++ check (runes_of_ascii "options{
+leftPad
+    =65535
+;
+a1 = true ; packetx=  '\x00' ; packetx
+=  """ ++ [28040; 24687]%N ++ runes_of_ascii """MetaDataX= // " ++ [27880; 37322]%N ++ runes_of_ascii "
+false }root // c
+packet // packet A { u8 x, }
+Pad { false
+u8 Header
+// packet A { u8 x, }
+//	t
+`{ , }`
+// a // b
+//x
+, }
+")).
+Eval vm_compute in ("<<<M2330>>>" ++ check (runes_of_ascii "options{
+leftPad
+    =65535
+;
+a1 = true ; pa@leftpadcketx=  '\x00' ; packetx
+=  """ ++ [28040; 24687]%N ++ runes_of_ascii """MetaDataX= // " ++ [27880; 37322]%N ++ runes_of_ascii "
+false }root // c
+packet // packet A { u8 x, }
+Pad { repeat
+u8 Header
+// packet A { u8 x, }
+//	t
+`{ , }`
+// a // b
+//x
+, }
+")).
+Eval vm_compute in ("<<<M2362>>>" ++ check (runes_of_ascii "
+packet float
+{	@calculatedFrom( @calculatedFrom( """ ++ [233]%N ++ runes_of_ascii "t" ++ [233]%N ++ runes_of_ascii """ )
+@rightPad ( '\x00' )
+    @calculatedFrom( ""x y"" ) string chars  ,
+    // a // b
+    char[0 ]
+    u	@lengthOf( i8i8 ) `{ , }` ,repeat char[] o //x
+`// not a comment`, } // c")).
+Eval vm_compute in ("<<<M2394>>>" ++ check (runes_of_ascii "
+packet float
+{	@calculatedFrom( """ ++ [233]%N ++ runes_of_ascii "t" ++ [233]%N ++ runes_of_ascii """ )
+@rightPad ( '\x00' [
+    @calculatedFrom( ""x y"" ) string chars  ,
+    // a // b
+    char[0 ]
+    u	@lengthOf( i8i8 ) `{ , }` ,repeat char[] o //x
+`// not a comment`, } // c")).
+Eval vm_compute in ("<<<M2426>>>" ++ check (runes_of_ascii "
+packet float
+{	@calculatedFrom( """ ++ [233]%N ++ runes_of_ascii "t" ++ [233]%N ++ runes_of_ascii """ )
+@rightPad ( '\x00' )
+    @calculatedFrom( ""x y"" ) string chars  ,
+    // a // b
+    0 ]
+    u	@lengthOf( i8i8 ) `{ , }` ,repeat char[] o //x
+`// not a comment`, } // c")).
+Eval vm_compute in ("<<<M2458>>>" ++ check (runes_of_ascii "
+packet float
+{	@calculatedFrom( """ ++ [233]%N ++ runes_of_ascii "t" ++ [233]%N ++ runes_of_ascii """ )
+@rightPad ( '\x00' )
+    @calculatedFrom( ""x y"" ) string chars  ,
+    // a // b
+    char[0 ]
+    u	@lengthOf( i8i8 `{ , }` ) ,repeat char[] o //x
+`// not a comment`, } // c")).
+Eval vm_compute in ("<<<M2490>>>" ++ check (runes_of_ascii "
+packet float
+{	@calculatedFrom( """ ++ [233]%N ++ runes_of_ascii "t" ++ [233]%N ++ runes_of_ascii """ )
+@rightPad ( '\x00' )
+    @calculatedFrom( ""x y"" ) string chars  ,
+    // a // b
+    char[0 ]
+    u	@lengthOf( i8i8 ) `{ , }` ,repeat char[] o")).
+Eval vm_compute in ("<<<M2522>>>" ++ check (runes_of_ascii " packet u128{
+    repeat
+    zchar[ 65535 ] u `" ++ [28040; 24687; 31867; 22411]%N ++ runes_of_ascii "` ,// `tick` ""quote"" 'q'
+} packet i64_ {repeatCount
+    `
+` ,	} // " ++ [128512]%N ++ runes_of_ascii " emoji")).
+Eval vm_compute in ("<<<M2554>>>" ++ check (runes_of_ascii "root packet u128{
+    repeat
+    zchar[ ] 65535 u `" ++ [28040; 24687; 31867; 22411]%N ++ runes_of_ascii "` ,// `tick` ""quote"" 'q'
+} packet i64_ {repeatCount
+    `
+` ,	} // " ++ [128512]%N ++ runes_of_ascii " emoji")).
+Eval vm_compute in ("<<<M2586>>>" ++ check (runes_of_ascii "root packet u128{
+    repeat
+    zchar[ 65535 ] u `" ++ [28040; 24687; 31867; 22411]%N ++ runes_of_ascii "` ,// `tick` ""quote"" 'q'
+}")).
+Eval vm_compute in ("<<<M2618>>>" ++ check (runes_of_ascii "root packet u128{
+    repeat
+    zchar[ 65535 ] u `" ++ [28040; 24687; 31867; 22411]%N ++ runes_of_ascii "` ,// `tick` ""qu")).
+Eval vm_compute in ("<<<M2650>>>" ++ check (runes_of_ascii "
+MetaData
+roots int8 {
+    BodyLength ,//	t
+}
+")).
+Eval vm_compute in ("<<<M2682>>>" ++ check (runes_of_ascii "
+MetaData
+roots { int8
+    " ++ [8232]%N ++ runes_of_ascii "BodyLength ,//	t
+}
+")).
+Eval vm_compute in ("<<<M2714>>>" ++ check (runes_of_ascii "options {Packet = i8i8 = false; leftPad =
+    '\x00'
+    // `tick` ""quote"" 'q'
+    ; o=255  ;
     // packet A { u8 x, }
-    Z9_,% asx
-_x
-    `tab	here` , }
-")).
-Eval vm_compute in ("<<<M2714>>>" ++ check (runes_of_ascii "options {
-    falsey=
-""a\\""  }")).
-Eval vm_compute in ("<<<M2746>>>" ++ check (runes_of_ascii "MetaData MetaData f32a
-{
-    //	t
-    }root
-    packet tag  {
-}
-")).
-Eval vm_compute in ("<<<M2778>>>" ++ check (runes_of_ascii "MetaData f32a
-{
-    //	t
-    }root
-    packet u16  {
-}
-")).
-Eval vm_compute in ("<<<M2810>>>" ++ check (runes_of_ascii "MetaData f32a
-{
-    //	t
-    }root
-    packet a" ++ [769]%N ++ runes_of_ascii "b  {
-}
-")).
+    }")).
+Eval vm_compute in ("<<<M2746>>>" ++ check (runes_of_ascii "options {Packet = ""CRC32""i8i8 = false; leftPad '\x00'
+    =
+    // `tick` ""quote"" 'q'
+    ; o=255  ;
+    // packet A { u8 x, }
+    }")).
+Eval vm_compute in ("<<<M2778>>>" ++ check (runes_of_ascii "options {Packet = ""CRC32""i8i8 = false; leftPad =
+    '\x00'
+    // `tick` ""quote"" 'q'
+    ; o=255")).
+Eval vm_compute in ("<<<M2810>>>" ++ check (runes_of_ascii "
+packet  { @rightPad (
+    // packet A { u8 x, }
+    ' ' ) repeat u32	A
+,matchKey ,
+    @lengthOf( string_ ) @lengthOf( body )
+    // a // b
+    @lengthOf(float  )	repeat
+int32 u8x
+    // c
+    `tab	here`
+, } // a // b")).
 Eval vm_compute in ("<<<M2842>>>" ++ check (runes_of_ascii "
-options
-    {msg_type =
-    float32  }root root
-packet Z9_{ char /// triple
-crc @lengthOf(
-options1 ) //
-,} MetaData a1{}
-")).
+packet metadata { @rightPad (
+    // packet A { u8 x, }
+    ' ' ) u32 repeat	A
+,matchKey ,
+    @lengthOf( string_ ) @lengthOf( body )
+    // a // b
+    @lengthOf(float  )	repeat
+int32 u8x
+    // c
+    `tab	here`
+, } // a // b")).
 Eval vm_compute in ("<<<M2874>>>" ++ check (runes_of_ascii "
-options
-    {msg_type =
-    float32  }root
-packet Z9_{ char /// triple
-crc `{ , }`
-options1 ) //
-,} MetaData a1{}
-")).
+packet metadata { @rightPad (
+    // packet A { u8 x, }
+    ' ' ) repeat u32	A
+,matchKey ,")).
 Eval vm_compute in ("<<<M2906>>>" ++ check (runes_of_ascii "
-options
-    {msg_type =
-    float32  }root
-packet Z9_{ char /// triple
-crc @lengthOf(
-options1 ) //
-,} MetaData a1}
-")).
-Eval vm_compute in ("<<<M2938>>>" ++ check (runes_of_ascii "packet packet crc{ // " ++ [128512]%N ++ runes_of_ascii " emoji
-repeat string i8i8
-`a\`, }
-")).
-Eval vm_compute in ("<<<M2970>>>" ++ check (runes_of_ascii "packet crc{ // " ++ [128512]%N ++ runes_of_ascii " emoji
-repeat string i8i8
-as, }
-")).
-Eval vm_compute in ("<<<M3002>>>" ++ check (runes_of_ascii "packet na" ++ [239]%N ++ runes_of_ascii "ve{ // " ++ [128512]%N ++ runes_of_ascii " emoji
-repeat string i8i8
-`a\`, }
-")).
-Eval vm_compute in ("<<<M3034>>>" ++ check (runes_of_ascii "packet BodyLength {} MetaData zchar{ { zchar[// @lengthOf(
-42 ]
-    pack , string_
-A , char[]crc , _x trueish ,
-// " ++ [27880; 37322]%N ++ runes_of_ascii "
-// " ++ [128512]%N ++ runes_of_ascii " emoji
-zchar[
-    3 ]	T // trailing space 
-, } packet body
+packet metadata { @rightPad (
+    // packet A { u8 x, }
+    ' ' ) repeat u32	A
+,matchKey ,
+    @lengthOf( string_ ) @lengthOf( body )
+    // a // b
+    @lengthOf(float float  )	repeat
+int32 u8x
+    // c
+    `tab	here`
+, } // a // b")).
+Eval vm_compute in ("<<<M2938>>>" ++ check (runes_of_ascii "
+packet metadata { @rightPad (
+    // packet A { u8 x, }
+    ' ' ) repeat u32	A
+,matchKey ,
+    @lengthOf( string_ ) @lengthOf( body )
+    // a // b
+    @lengthOf(float  )	repeat
+int32 u8x
+    // c
+    `tab	here`
+= } // a // b")).
+Eval vm_compute in ("<<<M2970>>>" ++ check (@nil rune)).
+Eval vm_compute in ("<<<M3002>>>" ++ check (runes_of_ascii "packet x{
+string")).
+Eval vm_compute in ("<<<M3034>>>" ++ check (runes_of_ascii "
+MetaData Logon
+} // c
+{root packet
+    Pad {
+    } options
 {
-    }
-")).
-Eval vm_compute in ("<<<M3066>>>" ++ check (runes_of_ascii "packet BodyLength {} MetaData zchar{ zchar[// @lengthOf(
-42 ]
-    pack , packet
-A , char[]crc , _x trueish ,
-// " ++ [27880; 37322]%N ++ runes_of_ascii "
-// " ++ [128512]%N ++ runes_of_ascii " emoji
-zchar[
-    3 ]	T // trailing space 
-, } packet body
+u
+    =
+    ""CRC32""
+    // " ++ [128512]%N ++ runes_of_ascii " emoji
+    i64_ = u16;
+T =65535 x = ' '
+    ; u128
+= true ; }")).
+Eval vm_compute in ("<<<M3066>>>" ++ check (runes_of_ascii "
+MetaData Logon
+{ // c
+}root packet
+    Pad {")).
+Eval vm_compute in ("<<<M3098>>>" ++ check (runes_of_ascii "
+MetaData Logon
+{ // c
+}root packet
+    Pad {
+    } options
 {
-    }
-")).
-Eval vm_compute in ("<<<M3098>>>" ++ check (runes_of_ascii "packet BodyLength {} MetaData zchar{ zchar[// @lengthOf(
-42 ]
-    pack , string_
-A , char[]crc , _x  ,
-// " ++ [27880; 37322]%N ++ runes_of_ascii "
-// " ++ [128512]%N ++ runes_of_ascii " emoji
-zchar[
-    3 ]	T // trailing space 
-, } packet body
+u
+    =
+    ""CRC32""
+    // " ++ [128512]%N ++ runes_of_ascii " emoji
+    i64_ = = u16;
+T =65535 x = ' '
+    ; u128
+= true ; }")).
+Eval vm_compute in ("<<<M3130>>>" ++ check (runes_of_ascii "
+MetaData Logon
+{ // c
+}root packet
+    Pad {
+    } options
 {
-    }
-")).
-Eval vm_compute in ("<<<M3130>>>" ++ check (runes_of_ascii "packet BodyLength {} MetaData zchar{ zchar[// @lengthOf(
-42 ]
-    pack , string_
-A , char[]crc , _x trueish ,
-// " ++ [27880; 37322]%N ++ runes_of_ascii "
-// " ++ [128512]%N ++ runes_of_ascii " emoji
-zchar[
-    3 ]	T // trailing space 
-} , packet body
+u
+    =
+    ""CRC32""
+    // " ++ [128512]%N ++ runes_of_ascii " emoji
+    i64_ = u16;
+T =65535 ( = ' '
+    ; u128
+= true ; }")).
+Eval vm_compute in ("<<<M3162>>>" ++ check (runes_of_ascii "
+MetaData Logon
+{ // c
+}root packet
+    Pad {
+    } options
 {
-    }
+u
+    =
+    ""CRC32""
+    // " ++ [128512]%N ++ runes_of_ascii " emoji
+    i64_ = u16;
+T =65535 x = ' '
+    ; u128
+= true  }")).
+Eval vm_compute in ("<<<M3194>>>" ++ check (runes_of_ascii "MetaData MetaData body{}
+packet	Packet { x_y_z @calculatedFrom(  ""a\\"")// `tick` ""quote"" 'q'
+, }
 ")).
-Eval vm_compute in ("<<<M3162>>>" ++ check (runes_of_ascii "packet BodyLength {} MetaData zchar\ { zchar[// @lengthOf(
-42 ]
-    pack , string_
-A , char[]crc , _x trueish ,
-// " ++ [27880; 37322]%N ++ runes_of_ascii "
-// " ++ [128512]%N ++ runes_of_ascii " emoji
-zchar[
-    3 ]	T // trailing space 
-, } packet body
-{
-    }
+Eval vm_compute in ("<<<M3226>>>" ++ check (runes_of_ascii "MetaData body{}
+packet	Packet uint8 x_y_z @calculatedFrom(  ""a\\"")// `tick` ""quote"" 'q'
+, }
 ")).
-Eval vm_compute in ("<<<M3194>>>" ++ check (runes_of_ascii "packet
-string_ { int ) match packetx as f32a {
-    1 :	calculatedFrom , }  ,
-    } packet len
-    //	t
-    { @calculatedFrom( """ ++ [233]%N ++ runes_of_ascii "t" ++ [233]%N ++ runes_of_ascii """ ) body Header , char[] lengthOf  `two words` ,chars{repeat string_ matchKey ,
-    } ,
-    }
+Eval vm_compute in ("<<<M3258>>>" ++ check (runes_of_ascii "MetaData body{}
+packet	Packet { x_y_z @calculatedFrom(  ""a\\"")// `tick` ""quote"" 'q'
+, }
 ")).
-Eval vm_compute in ("<<<M3226>>>" ++ check (runes_of_ascii "packet
-string_ {@lengthOf( int ) match packetx as { f32a
-    1 :	calculatedFrom , }  ,
-    } packet len
-    //	t
-    { @calculatedFrom( """ ++ [233]%N ++ runes_of_ascii "t" ++ [233]%N ++ runes_of_ascii """ ) body Header , char[] lengthOf  `two words` ,chars{repeat string_ matchKey ,
-    } ,
-    }
+Eval vm_compute in ("<<<M3290>>>" ++ check (runes_of_ascii "packet f32a { {} root packet len {repeat u // " ++ [128512]%N ++ runes_of_ascii " emoji
+`{ , }` , }
 ")).
-Eval vm_compute in ("<<<M3258>>>" ++ check (runes_of_ascii "packet
-string_ {@lengthOf( int ) match packetx as f32a {
-    1 :	calculatedFrom ,")).
-Eval vm_compute in ("<<<M3290>>>" ++ check (runes_of_ascii "packet
-string_ {@lengthOf( int ) match packetx as f32a {
-    1 :	calculatedFrom , }  ,
-    } packet len
-    //	t
-    { @calculatedFrom( """ ++ [233]%N ++ runes_of_ascii "t" ++ [233]%N ++ runes_of_ascii """ """ ++ [233]%N ++ runes_of_ascii "t" ++ [233]%N ++ runes_of_ascii """ ) body Header , char[] lengthOf  `two words` ,chars{repeat string_ matchKey ,
-    } ,
-    }
+Eval vm_compute in ("<<<M3322>>>" ++ check (runes_of_ascii "packet f32a {} root packet len {] u // " ++ [128512]%N ++ runes_of_ascii " emoji
+`{ , }` , }
 ")).
-Eval vm_compute in ("<<<M3322>>>" ++ check (runes_of_ascii "packet
-string_ {@lengthOf( int ) match packetx as f32a {
-    1 :	calculatedFrom , }  ,
-    } packet len
-    //	t
-    { @calculatedFrom( """ ++ [233]%N ++ runes_of_ascii "t" ++ [233]%N ++ runes_of_ascii """ ) body Header , char[] u16  `two words` ,chars{repeat string_ matchKey ,
-    } ,
-    }
+Eval vm_compute in ("<<<M3354>>>" ++ check (runes_of_ascii "packet f32a {} root packet len " ++ [127]%N ++ runes_of_ascii " {repeat u // " ++ [128512]%N ++ runes_of_ascii " emoji
+`{ , }` , }
 ")).
-Eval vm_compute in ("<<<M3354>>>" ++ check (runes_of_ascii "packet
-string_ {@lengthOf( int ) match packetx as f32a {
-    1 :	calculatedFrom , }  ,
-    } packet len
-    //	t
-    { @calculatedFrom( """ ++ [233]%N ++ runes_of_ascii "t" ++ [233]%N ++ runes_of_ascii """ ) body Header , char[] lengthOf  `two words` ,chars{repeat string_  ,
-    } ,
-    }
-")).
-Eval vm_compute in ("<<<M3386>>>" ++ check (runes_of_ascii "packet
-string_ {@lengthOf( int ) match packetx as f32a {
-    1 :	calculatedFr'1'om , }  ,
-    } packet len
-    //	t
-    { @calculatedFrom( """ ++ [233]%N ++ runes_of_ascii "t" ++ [233]%N ++ runes_of_ascii """ ) body Header , char[] lengthOf  `two words` ,chars{repeat string_ matchKey ,
-    } ,
-    }
-")).
-Eval vm_compute in ("<<<M3418>>>" ++ check (runes_of_ascii "/// triple
-root
-packet // packet A { u8 x, }
-chars { @lengthOf(charz )
-stringy,  @tag(  0 ) // " ++ [127]%N ++ runes_of_ascii "a // b
-asx
-    As
-,
-// trailing space 
-// trailing space 
-x_y_z {
-repeat i16 charz , } ,	int16  crc ,}
-")).
-Eval vm_compute in ("<<<T3418>>>" ++ terms [mkTok 44 "/// triple" 1 0 true; mkTok 34 "root" 2 0 false; mkTok 35 "packet" 3 0 false; mkTok 44 "// packet A { u8 x, }" 3 7 true; mkTok 42 "chars" 4 0 false; mkTok 2 "{" 4 6 false; mkTok 7 "@lengthOf(" 4 8 false; mkTok 42 "charz" 4 18 false; mkTok 6 ")" 4 24 false; mkTok 42 "stringy" 5 0 false; mkTok 40 "," 5 7 false; mkTok 9 "@tag(" 5 10 false; mkTok 30 "0" 5 17 false; mkTok 6 ")" 5 19 false; mkTok 44 (string_of_bytes [47; 47; 32; 127; 97; 32; 47; 47; 32; 98]%N) 5 21 true; mkTok 42 "asx" 6 0 false; mkTok 42 "As" 7 4 false; mkTok 40 "," 8 0 false; mkTok 44 "// trailing space " 9 0 true; mkTok 44 "// trailing space " 10 0 true; mkTok 42 "x_y_z" 11 0 false; mkTok 2 "{" 11 6 false; mkTok 36 "repeat" 12 0 false; mkTok 25 "i16" 12 7 false; mkTok 42 "charz" 12 11 false; mkTok 40 "," 12 17 false; mkTok 3 "}" 12 19 false; mkTok 40 "," 12 21 false; mkTok 25 "int16" 12 23 false; mkTok 42 "crc" 12 30 false; mkTok 40 "," 12 34 false; mkTok 3 "}" 12 35 false; mkTok 0 "<EOF>" 13 0 false] (mkPacket (mkPtok 34 "root" 2 0 1) (Some (mkPtok 3 "}" 12 35 31)) [(DPacket (mkPacketDef (mkSpan (mkPtok 34 "root" 2 0 1) (mkPtok 3 "}" 12 35 31)) (Some (mkPtok 34 "root" 2 0 1)) (mkPtok 35 "packet" 3 0 2) (mkPtok 42 "chars" 4 0 4) (mkPtok 2 "{" 4 6 5) [(mkFieldWithAttr (mkSpan (mkPtok 7 "@lengthOf(" 4 8 6) (mkPtok 40 "," 5 7 10)) [(FALengthOf (mkSpan (mkPtok 7 "@lengthOf(" 4 8 6) (mkPtok 6 ")" 4 24 8)) (mkLengthOf (mkSpan (mkPtok 7 "@lengthOf(" 4 8 6) (mkPtok 6 ")" 4 24 8)) (mkPtok 7 "@lengthOf(" 4 8 6) (mkPtok 42 "charz" 4 18 7) (mkPtok 6 ")" 4 24 8)))] (ObjectField (mkSpan (mkPtok 42 "stringy" 5 0 9) (mkPtok 40 "," 5 7 10)) None (mkPtok 42 "stringy" 5 0 9) None None (mkPtok 40 "," 5 7 10))); (mkFieldWithAttr (mkSpan (mkPtok 9 "@tag(" 5 10 11) (mkPtok 40 "," 8 0 17)) [(FATag (mkSpan (mkPtok 9 "@tag(" 5 10 11) (mkPtok 6 ")" 5 19 13)) (mkTagAttr (mkSpan (mkPtok 9 "@tag(" 5 10 11) (mkPtok 6 ")" 5 19 13)) (mkPtok 9 "@tag(" 5 10 11) (mkPtok 30 "0" 5 17 12) (mkPtok 6 ")" 5 19 13)))] (ObjectField (mkSpan (mkPtok 42 "asx" 6 0 15) (mkPtok 40 "," 8 0 17)) None (mkPtok 42 "asx" 6 0 15) (Some (mkPtok 42 "As" 7 4 16)) None (mkPtok 40 "," 8 0 17))); (mkFieldWithAttr (mkSpan (mkPtok 42 "x_y_z" 11 0 20) (mkPtok 40 "," 12 21 27)) [] (InerObjectField (mkSpan (mkPtok 42 "x_y_z" 11 0 20) (mkPtok 40 "," 12 21 27)) None (InerObjectDecl (mkSpan (mkPtok 42 "x_y_z" 11 0 20) (mkPtok 3 "}" 12 19 26)) (mkPtok 42 "x_y_z" 11 0 20) (mkPtok 2 "{" 11 6 21) [(MetaField (mkSpan (mkPtok 36 "repeat" 12 0 22) (mkPtok 40 "," 12 17 25)) (Some (mkPtok 36 "repeat" 12 0 22)) (mkMetaDecl (mkSpan (mkPtok 25 "i16" 12 7 23) (mkPtok 40 "," 12 17 25)) (TyBasic (mkSpan (mkPtok 25 "i16" 12 7 23) (mkPtok 25 "i16" 12 7 23)) (mkBasicType (mkSpan (mkPtok 25 "i16" 12 7 23) (mkPtok 25 "i16" 12 7 23)) (mkPtok 25 "i16" 12 7 23))) (mkPtok 42 "charz" 12 11 24) None (mkPtok 40 "," 12 17 25)))] (mkPtok 3 "}" 12 19 26)) (mkPtok 40 "," 12 21 27))); (mkFieldWithAttr (mkSpan (mkPtok 25 "int16" 12 23 28) (mkPtok 40 "," 12 34 30)) [] (MetaField (mkSpan (mkPtok 25 "int16" 12 23 28) (mkPtok 40 "," 12 34 30)) None (mkMetaDecl (mkSpan (mkPtok 25 "int16" 12 23 28) (mkPtok 40 "," 12 34 30)) (TyBasic (mkSpan (mkPtok 25 "int16" 12 23 28) (mkPtok 25 "int16" 12 23 28)) (mkBasicType (mkSpan (mkPtok 25 "int16" 12 23 28) (mkPtok 25 "int16" 12 23 28)) (mkPtok 25 "int16" 12 23 28))) (mkPtok 42 "crc" 12 30 29) None (mkPtok 40 "," 12 34 30))))] (mkPtok 3 "}" 12 35 31)))])).
-Eval vm_compute in ("<<<M3450>>>" ++ check (runes_of_ascii "/// triple
-root
-chars // packet A { u8 x, }
-packet { @lengthOf(charz )
-stringy,  @tag(  0 ) // a // b
-asx
-    As
-,
-// trailing space 
-// trailing space 
-x_y_z {
-repeat i16 charz , } ,	int16  crc ,}
-")).
-Eval vm_compute in ("<<<M3482>>>" ++ check (runes_of_ascii "/// triple
-root
-packet // packet A { u8 x, }
-chars { @lengthOf(charz )
-stringy stringy,  @tag(  0 ) // a // b
-asx
-    As
-,
-// trailing space 
-// trailing space 
-x_y_z {
-repeat i16 charz , } ,	int16  crc ,}
-")).
-Eval vm_compute in ("<<<T3482>>>" ++ terms [mkTok 44 "/// triple" 1 0 true; mkTok 34 "root" 2 0 false; mkTok 35 "packet" 3 0 false; mkTok 44 "// packet A { u8 x, }" 3 7 true; mkTok 42 "chars" 4 0 false; mkTok 2 "{" 4 6 false; mkTok 7 "@lengthOf(" 4 8 false; mkTok 42 "charz" 4 18 false; mkTok 6 ")" 4 24 false; mkTok 42 "stringy" 5 0 false; mkTok 42 "stringy" 5 8 false; mkTok 40 "," 5 15 false; mkTok 9 "@tag(" 5 18 false; mkTok 30 "0" 5 25 false; mkTok 6 ")" 5 27 false; mkTok 44 "// a // b" 5 29 true; mkTok 42 "asx" 6 0 false; mkTok 42 "As" 7 4 false; mkTok 40 "," 8 0 false; mkTok 44 "// trailing space " 9 0 true; mkTok 44 "// trailing space " 10 0 true; mkTok 42 "x_y_z" 11 0 false; mkTok 2 "{" 11 6 false; mkTok 36 "repeat" 12 0 false; mkTok 25 "i16" 12 7 false; mkTok 42 "charz" 12 11 false; mkTok 40 "," 12 17 false; mkTok 3 "}" 12 19 false; mkTok 40 "," 12 21 false; mkTok 25 "int16" 12 23 false; mkTok 42 "crc" 12 30 false; mkTok 40 "," 12 34 false; mkTok 3 "}" 12 35 false; mkTok 0 "<EOF>" 13 0 false] (mkPacket (mkPtok 34 "root" 2 0 1) (Some (mkPtok 3 "}" 12 35 32)) [(DPacket (mkPacketDef (mkSpan (mkPtok 34 "root" 2 0 1) (mkPtok 3 "}" 12 35 32)) (Some (mkPtok 34 "root" 2 0 1)) (mkPtok 35 "packet" 3 0 2) (mkPtok 42 "chars" 4 0 4) (mkPtok 2 "{" 4 6 5) [(mkFieldWithAttr (mkSpan (mkPtok 7 "@lengthOf(" 4 8 6) (mkPtok 40 "," 5 15 11)) [(FALengthOf (mkSpan (mkPtok 7 "@lengthOf(" 4 8 6) (mkPtok 6 ")" 4 24 8)) (mkLengthOf (mkSpan (mkPtok 7 "@lengthOf(" 4 8 6) (mkPtok 6 ")" 4 24 8)) (mkPtok 7 "@lengthOf(" 4 8 6) (mkPtok 42 "charz" 4 18 7) (mkPtok 6 ")" 4 24 8)))] (ObjectField (mkSpan (mkPtok 42 "stringy" 5 0 9) (mkPtok 40 "," 5 15 11)) None (mkPtok 42 "stringy" 5 0 9) (Some (mkPtok 42 "stringy" 5 8 10)) None (mkPtok 40 "," 5 15 11))); (mkFieldWithAttr (mkSpan (mkPtok 9 "@tag(" 5 18 12) (mkPtok 40 "," 8 0 18)) [(FATag (mkSpan (mkPtok 9 "@tag(" 5 18 12) (mkPtok 6 ")" 5 27 14)) (mkTagAttr (mkSpan (mkPtok 9 "@tag(" 5 18 12) (mkPtok 6 ")" 5 27 14)) (mkPtok 9 "@tag(" 5 18 12) (mkPtok 30 "0" 5 25 13) (mkPtok 6 ")" 5 27 14)))] (ObjectField (mkSpan (mkPtok 42 "asx" 6 0 16) (mkPtok 40 "," 8 0 18)) None (mkPtok 42 "asx" 6 0 16) (Some (mkPtok 42 "As" 7 4 17)) None (mkPtok 40 "," 8 0 18))); (mkFieldWithAttr (mkSpan (mkPtok 42 "x_y_z" 11 0 21) (mkPtok 40 "," 12 21 28)) [] (InerObjectField (mkSpan (mkPtok 42 "x_y_z" 11 0 21) (mkPtok 40 "," 12 21 28)) None (InerObjectDecl (mkSpan (mkPtok 42 "x_y_z" 11 0 21) (mkPtok 3 "}" 12 19 27)) (mkPtok 42 "x_y_z" 11 0 21) (mkPtok 2 "{" 11 6 22) [(MetaField (mkSpan (mkPtok 36 "repeat" 12 0 23) (mkPtok 40 "," 12 17 26)) (Some (mkPtok 36 "repeat" 12 0 23)) (mkMetaDecl (mkSpan (mkPtok 25 "i16" 12 7 24) (mkPtok 40 "," 12 17 26)) (TyBasic (mkSpan (mkPtok 25 "i16" 12 7 24) (mkPtok 25 "i16" 12 7 24)) (mkBasicType (mkSpan (mkPtok 25 "i16" 12 7 24) (mkPtok 25 "i16" 12 7 24)) (mkPtok 25 "i16" 12 7 24))) (mkPtok 42 "charz" 12 11 25) None (mkPtok 40 "," 12 17 26)))] (mkPtok 3 "}" 12 19 27)) (mkPtok 40 "," 12 21 28))); (mkFieldWithAttr (mkSpan (mkPtok 25 "int16" 12 23 29) (mkPtok 40 "," 12 34 31)) [] (MetaField (mkSpan (mkPtok 25 "int16" 12 23 29) (mkPtok 40 "," 12 34 31)) None (mkMetaDecl (mkSpan (mkPtok 25 "int16" 12 23 29) (mkPtok 40 "," 12 34 31)) (TyBasic (mkSpan (mkPtok 25 "int16" 12 23 29) (mkPtok 25 "int16" 12 23 29)) (mkBasicType (mkSpan (mkPtok 25 "int16" 12 23 29) (mkPtok 25 "int16" 12 23 29)) (mkPtok 25 "int16" 12 23 29))) (mkPtok 42 "crc" 12 30 30) None (mkPtok 40 "," 12 34 31))))] (mkPtok 3 "}" 12 35 32)))])).
+Eval vm_compute in ("<<<M3386>>>" ++ check (runes_of_ascii "options{ _x=""\" ++ [233]%N ++ runes_of_ascii """;
+    Logon = 10	; Foo= 7;
+i64_= char[]} options {
+matchKey = ""// no comment"" // a // b
+falsey = string
+; trueish")).
+Eval vm_compute in ("<<<M3418>>>" ++ check (runes_of_ascii "options{ _x=""\" ++ [233]%N ++ runes_of_ascii """;
+    Logon =")).
+Eval vm_compute in ("<<<M3450>>>" ++ check (runes_of_ascii "options{ _x=""\" ++ [233]%N ++ runes_of_ascii """;
+    Logon = 10	; Foo= 7;
+i64_= char[]} options {
+matchKey = ""// no comment"" // a // b
+falsey = string
+; trueish =
+    4294967296
+options1=
+    ""it's"" string_	=")).
+Eval vm_compute in ("<<<M3482>>>" ++ check (runes_of_ascii "options{ _x=""\" ++ [233]%N ++ runes_of_ascii """;
+    Logon = 10	; Foo= 7;
+i64_= char[]} options {
+matchKey = ""// no comment"" // a // b
+falsey =")).
 Eval vm_compute in ("<<<M3514>>>" ++ check (runes_of_ascii "false")).
 Eval vm_compute in ("<<<M3546>>>" ++ check (runes_of_ascii "@leftPad")).
 Eval vm_compute in ("<<<M3578>>>" ++ check (runes_of_ascii """a
@@ -1696,11 +1861,12 @@ Eval vm_compute in ("<<<M3642>>>" ++ check (runes_of_ascii "packet A { x `d` y, 
 Eval vm_compute in ("<<<M3674>>>" ++ check (runes_of_ascii "packet A { match k as n { [] : B }, }")).
 Eval vm_compute in ("<<<M3706>>>" ++ check (runes_of_ascii "root")).
 Eval vm_compute in ("<<<M3738>>>" ++ check (runes_of_ascii "options { packet = 1; }")).
-Eval vm_compute in ("<<<M3770>>>" ++ check (runes_of_ascii "= int32 repeat @calculatedFrom( '\x00' uint32 int64 char root { @lengthOf( zchar[ i32")).
-Eval vm_compute in ("<<<M3802>>>" ++ check (runes_of_ascii ",")).
-Eval vm_compute in ("<<<M3834>>>" ++ check (runes_of_ascii "float64 as false @lengthOf( options @rightPad false (")).
-Eval vm_compute in ("<<<M3866>>>" ++ check (runes_of_ascii "@calculatedFrom( i32 root { } ] [")).
-Eval vm_compute in ("<<<M3898>>>" ++ check (runes_of_ascii "string")).
-Eval vm_compute in ("<<<M3930>>>" ++ check (runes_of_ascii "i32 )")).
-Eval vm_compute in ("<<<M3962>>>" ++ check (runes_of_ascii "as f32 { @rightPad 007 u8 """"")).
-Eval vm_compute in ("<<<M3994>>>" ++ check (runes_of_ascii "options string '0' u16 ) = ) ) `" ++ [28040; 24687; 31867; 22411]%N ++ runes_of_ascii "` ; options char[ ;")).
+Eval vm_compute in ("<<<M3770>>>" ++ check (runes_of_ascii "@lengthOf( ] char } '\x00' ; `crlf
+line` ' '")).
+Eval vm_compute in ("<<<M3802>>>" ++ check (runes_of_ascii "match @calculatedFrom( int32 =")).
+Eval vm_compute in ("<<<M3834>>>" ++ check (runes_of_ascii """// no comment"" root ""1"" f64 ( float64 ( true ) char[] = ) int32")).
+Eval vm_compute in ("<<<M3866>>>" ++ check (runes_of_ascii "MetaData float64 uint64 u16 ( uint16 char[] } char[")).
+Eval vm_compute in ("<<<M3898>>>" ++ check (runes_of_ascii "repeat } `tab	here` float32 as [ options '\x00' char[] uint64 ) u32 [ string")).
+Eval vm_compute in ("<<<M3930>>>" ++ check (runes_of_ascii "`say ""hi""` packet @tag( @leftPad @rightPad char[ '\x00' `tab	here` [ u32 uint16 uint64 zchar[ @leftPad")).
+Eval vm_compute in ("<<<M3962>>>" ++ check (runes_of_ascii "}")).
+Eval vm_compute in ("<<<M3994>>>" ++ check (runes_of_ascii "repeat string")).
